@@ -3,13 +3,32 @@
    Store typing Σ : cell ↦ dynamic type; every expression of static type t
    evaluates to a cell of dynamic type t; no run ends in EInternal/EHostCrash. *)
 From Coq Require Import ZArith NArith PArith List String Bool Floats FMapPositive Lia.
-From EvyV Require Import Base Num Ast Omap Sem Static.
+From EvyV Require Import Base Num Ast Omap OmapProofs Sem Static.
 Import ListNotations.
 Open Scope Z_scope.
 
+(* the host crashes that are the exhaustion of the host stack by a value that contains itself *)
+Definition overflow_reason (w : str) : Prop :=
+  w = s_ "stack overflow in String" \/ w = s_ "stack overflow in Equals" \/
+  w = s_ "stack overflow in deepCopy" \/ w = s_ "stack overflow in same".
+
+(* The whole development is parametrised by [strict]:
+   strict = true  : `any` never occurs inside a composite type; then values are as deep as their
+                    types and NO run ends in an internal error or a host crash;
+   strict = false : every value type; the only host crash left is the stack overflow on a cyclic value. *)
+Section Sound.
+Context (strict : bool).
+(* the typing of the program's globals (the frame wt_top computes); it extends the built-in globals *)
+Context (Gg : sframe).
+Context (HGg : forall n t, sget n global_frame0 = Some t -> sget n Gg = Some t).
+
 (* ---------- outcomes that are not "going wrong" ---------- *)
 Definition safe_err (e : err) : Prop :=
-  match e with EInternal _ | EHostCrash _ => False | _ => True end.
+  match e with
+  | EInternal _ => False
+  | EHostCrash w => strict = false /\ overflow_reason w
+  | _ => True
+  end.
 
 Definition wp {A} (r : res A * state) (Q : A -> state -> Prop) : Prop :=
   match r with (Ok a, s') => Q a s' | (Er er, _) => safe_err er end.
@@ -39,23 +58,69 @@ Lemma ext_refl S : ext S S. Proof. intros l t H; exact H. Qed.
 Lemma ext_trans S1 S2 S3 : ext S1 S2 -> ext S2 S3 -> ext S1 S3.
 Proof. intros H1 H2 l t H; auto. Qed.
 
-(* dynamic types of the Stage-1 fragment *)
-Definition ty_ok1 (t : ty) : bool := (ty_s1 t || is_none t) && ty_small t.
+(* dynamic types: strict: `any` only at the top and bounded nesting; otherwise every value type *)
+Definition ty_ok1 (t : ty) : bool :=
+  if strict then (ty_s1 t || is_none t) && ty_small t else ty_value t || is_none t.
 
 Inductive cell_ok (S : sty) : hval -> ty -> Prop :=
 | CNum f : cell_ok S (HNum f) TNum
 | CStr x : cell_ok S (HStr x) TStr
 | CBool b : cell_ok S (HBool b) TBool
-| CAny u i : ty_s1in u = true -> sfind S i = Some u -> cell_ok S (HAny u i) TAny
+| CAny u i : u <> TAny -> u <> TNone -> sfind S i = Some u -> cell_ok S (HAny u i) TAny
 | CArr u els : Forall (fun i => sfind S i = Some u) els -> cell_ok S (HArr els) (TArr u)
 | CEmpty : cell_ok S (HArr []) TEmptyArr
+| CMap u m : Inv m -> Forall (fun kv => sfind S (snd kv) = Some u) (pairs m) -> cell_ok S (HMap m) (TMap u)
+| CEmptyMap m : pairs m = [] -> order m = [] -> cell_ok S (HMap m) TEmptyMap
 | CNone : cell_ok S HNone TNone.
 
 Lemma cell_ok_ext S S' v t : ext S S' -> cell_ok S v t -> cell_ok S' v t.
 Proof.
-  intros E H; inversion H; subst; constructor; auto.
-  eapply Forall_impl; [|eassumption]. cbv beta; auto.
+  intros E H; inversion H; subst; constructor; auto;
+    (eapply Forall_impl; [|eassumption]); cbv beta; auto.
 Qed.
+
+(* maps: entries of a well-formed mapVal *)
+Lemma plookup_In {V} k (p : list (str * V)) v : plookup k p = Some v -> In (k, v) p.
+Proof.
+  induction p as [|[k' v'] p IH]; simpl; [discriminate|].
+  destruct (str_eqb k' k) eqn:E.
+  - apply str_eqb_eq in E; subst. intros H; inversion H; auto.
+  - auto.
+Qed.
+
+Lemma map_entry_typed (S : sty) u (m : omap loc) k i :
+  Forall (fun kv => sfind S (snd kv) = Some u) (pairs m) -> plookup k (pairs m) = Some i -> sfind S i = Some u.
+Proof. intros HF H. apply plookup_In in H. rewrite Forall_forall in HF. exact (HF _ H). Qed.
+
+Lemma map_order_has {V} (m : omap V) k : Inv m -> In k (order m) -> exists i, plookup k (pairs m) = Some i.
+Proof.
+  intros (_ & _ & H) Hk. apply H in Hk. apply plookup_In_keys in Hk.
+  destruct (plookup k (pairs m)); [eauto|congruence].
+Qed.
+
+Lemma Inv_oset {V} k (v : V) m : Inv m -> Inv (oset k v m).
+Proof. intros H. exact (proj1 (set_R m (abs m) k v (conj H eq_refl))). Qed.
+
+Lemma Inv_odel {V} k (m : omap V) : Inv m -> Inv (odel k m).
+Proof. intros H. exact (proj1 (del_R m (abs m) k (conj H eq_refl))). Qed.
+
+Lemma Inv_oempty {V} : Inv (@oempty V).
+Proof. exact (proj1 R_empty). Qed.
+
+Lemma Forall_premove {V} (P : str * V -> Prop) k p : Forall P p -> Forall P (premove k p).
+Proof.
+  induction 1 as [|[k' v'] p Hx Hp IH]; simpl; [constructor|].
+  destruct (str_eqb k' k); auto.
+Qed.
+
+Lemma Forall_pset {V} (P : str * V -> Prop) k v p : P (k, v) -> Forall P p -> Forall P (pset k v p).
+Proof. intros H1 H2. Transparent pset. unfold pset. Opaque pset. constructor; auto using Forall_premove. Qed.
+
+Lemma pairs_oset {V} k (v : V) m : pairs (oset k v m) = pset k v (pairs m).
+Proof. unfold oset. destruct (plookup k (pairs m)); reflexivity. Qed.
+
+Lemma pairs_odel_Forall {V} (P : str * V -> Prop) k m : Forall P (pairs m) -> Forall P (pairs (odel k m)).
+Proof. unfold odel. destruct (plookup k (pairs m)); simpl; auto using Forall_premove. Qed.
 
 Record heap_ok (S : sty) (h : heap) : Prop := {
   ho_cells : forall l t, sfind S l = Some t -> exists v, hget h l = Some v /\ cell_ok S v t;
@@ -63,53 +128,69 @@ Record heap_ok (S : sty) (h : heap) : Prop := {
   ho_tys : forall l t, sfind S l = Some t -> ty_ok1 t = true }.
 
 (* ---------- environments ---------- *)
-Definition frame_ok (S : sty) (outer : tyenv) (sf : sframe) (df : frame) : Prop :=
-  (forall n t, sget n sf = Some t -> exists l, frame_get n df = Some l /\ sfind S l = Some t) /\
-  (forall n l, frame_get n df = Some l -> sget n sf = None ->
-     forall t, slookup n outer = Some t -> sfind S l = Some t).
+Definition sframe_sub (a b : sframe) : Prop := forall n t, sget n a = Some t -> sget n b = Some t.
 
-Inductive env_ok (S : sty) : tyenv -> list frame -> Prop :=
-| EO_nil : env_ok S [] []
-| EO_cons sf G df e : frame_ok S G sf df -> env_ok S G e -> env_ok S (sf :: G) (df :: e).
+(* a local frame: exactly the statically declared names, at their types *)
+Definition frame_ok (S : sty) (sf : sframe) (df : frame) : Prop :=
+  (forall n t, sget n sf = Some t -> exists l, frame_get n df = Some l /\ sfind S l = Some t) /\
+  (forall n l, frame_get n df = Some l -> sget n sf <> None).
+
+(* the globals: those declared so far, at the types the program gives them; err and errmsg exist *)
+Definition globals_ok (S : sty) (g : frame) : Prop :=
+  (forall n l, frame_get n g = Some l -> exists t, sget n Gg = Some t /\ sfind S l = Some t) /\
+  frame_get n_err g <> None /\ frame_get n_errmsg g <> None.
+
+Inductive env_ok (S : sty) : tyenv -> env -> frame -> Prop :=
+| EO_glob gs g : sframe_sub gs Gg -> globals_ok S g -> env_ok S [gs] [] g
+| EO_cons sf G df e g : frame_ok S sf df -> env_ok S G e g -> env_ok S (sf :: G) (df :: e) g.
 
 Definition full (e : env) (s : state) : list frame := e ++ [st_globals s].
 
 Definition inv (S : sty) (G : tyenv) (e : env) (s : state) : Prop :=
-  heap_ok S (st_heap s) /\ env_ok S G (full e s).
+  heap_ok S (st_heap s) /\ env_ok S G e (st_globals s).
 
-Lemma frame_ok_ext S S' T sf df : ext S S' -> frame_ok S T sf df -> frame_ok S' T sf df.
+Lemma frame_ok_ext S S' sf df : ext S S' -> frame_ok S sf df -> frame_ok S' sf df.
 Proof.
-  intros E [H1 H2]; split.
-  - intros n t Hn. destruct (H1 n t Hn) as (l & Hl & Ht). eauto.
-  - intros n l Hn Hs t Ho. eauto.
+  intros E [H1 H2]; split; auto.
+  intros n t Hn. destruct (H1 n t Hn) as (l & Hl & Ht). eauto.
 Qed.
 
-Lemma env_ok_ext S S' G fe : ext S S' -> env_ok S G fe -> env_ok S' G fe.
-Proof. intros E H; induction H; constructor; eauto using frame_ok_ext. Qed.
+Lemma globals_ok_ext S S' g : ext S S' -> globals_ok S g -> globals_ok S' g.
+Proof.
+  intros E (H1 & H2 & H3); split; auto.
+  intros n l Hn. destruct (H1 n l Hn) as (t & Ht & Hl). eauto.
+Qed.
 
-Lemma env_ok_length S G fe : env_ok S G fe -> List.length G = List.length fe.
+Lemma env_ok_ext S S' G e g : ext S S' -> env_ok S G e g -> env_ok S' G e g.
+Proof. intros E H; induction H; constructor; eauto using frame_ok_ext, globals_ok_ext. Qed.
+
+Lemma env_ok_length S G e g : env_ok S G e g -> List.length G = Datatypes.S (List.length e).
 Proof. induction 1; simpl; auto. Qed.
 
-Lemma inv_ext_env S S' G e s : ext S S' -> heap_ok S' (st_heap s) -> env_ok S G (full e s) -> inv S' G e s.
-Proof. intros; split; eauto using env_ok_ext. Qed.
+Lemma env_ok_globals S G e g : env_ok S G e g -> globals_ok S g.
+Proof. induction 1; auto. Qed.
 
-(* lookup through the whole frame list finds the statically resolved variable *)
-Lemma env_get_sound S G fe n t :
-  env_ok S G fe -> slookup n G = Some t -> exists l, env_get n fe = Some l /\ sfind S l = Some t.
-Proof.
-  induction 1 as [|sf G df e [H1 H2] He IH]; simpl; [discriminate|].
-  intros Hs. destruct (sget n sf) as [t0|] eqn:Hg.
-  - inversion Hs; subst. destruct (H1 n t Hg) as (l & Hl & Ht). rewrite Hl. eauto.
-  - destruct (frame_get n df) as [l|] eqn:Hd.
-    + exists l; split; auto. eapply H2; eauto.
-    + auto.
-Qed.
+Lemma env_ok_reglob S G e g g' : env_ok S G e g -> globals_ok S g' -> env_ok S G e g'.
+Proof. intros H Hg; induction H; constructor; auto. Qed.
 
 Lemma env_get_app n e g : env_get n (e ++ [g]) = match env_get n e with Some l => Some l | None => frame_get n g end.
 Proof.
   induction e as [|f e IH]; simpl.
   - destruct (frame_get n g); reflexivity.
   - destruct (frame_get n f); auto.
+Qed.
+
+(* a variable that is found holds a cell of the type the checker resolved it to *)
+Lemma env_lookup_sound S G e g n t l :
+  env_ok S G e g -> slookup n G = Some t -> env_get n (e ++ [g]) = Some l -> sfind S l = Some t.
+Proof.
+  induction 1 as [gs g Hsub (Hg & _)|sf G df e g [H1 H2] He IH]; simpl.
+  - destruct (sget n gs) as [t0|] eqn:Hs; [|discriminate]. intros Ht; inversion Ht; subst.
+    destruct (frame_get n g) as [l0|] eqn:Hl; [|discriminate]. intros Hx; inversion Hx; subst.
+    destruct (Hg _ _ Hl) as (t' & Ht' & Hl'). rewrite (Hsub _ _ Hs) in Ht'. congruence.
+  - intros Hs. destruct (sget n sf) as [t0|] eqn:Hg.
+    + inversion Hs; subst. destruct (H1 n t Hg) as (l0 & Hl0 & Ht0). rewrite Hl0. congruence.
+    + destruct (frame_get n df) as [l0|] eqn:Hd; [exfalso; eapply H2; eauto|]. auto.
 Qed.
 
 Lemma lookup_full n e s : str_eqb n underscore = false -> lookup n e s = (Ok (env_get n (full e s)), s).
@@ -198,14 +279,64 @@ Ltac hdone S' :=
 Lemma ty_s1in_not_none t : ty_s1in t = true -> t <> TNone.
 Proof. intros H E; subst; discriminate. Qed.
 
-Lemma ty_s1in_ok1 t : ty_s1in t = true -> ty_small t = true -> ty_ok1 t = true.
+Lemma ty_s1in_value t : ty_s1in t = true -> ty_value t = true.
+Proof. induction t; simpl; auto; discriminate. Qed.
+
+Lemma ty_value_not_none t : ty_value t = true -> t <> TNone.
+Proof. intros H E; subst; discriminate. Qed.
+
+Ltac ok1t := unfold ty_ok1; case strict; reflexivity.
+
+Lemma ok1_TNum : ty_ok1 TNum = true. Proof. ok1t. Qed.
+Lemma ok1_TStr : ty_ok1 TStr = true. Proof. ok1t. Qed.
+Lemma ok1_TBool : ty_ok1 TBool = true. Proof. ok1t. Qed.
+Lemma ok1_TAny : ty_ok1 TAny = true. Proof. ok1t. Qed.
+Lemma ok1_TNone : ty_ok1 TNone = true. Proof. ok1t. Qed.
+Lemma ok1_TEmptyArr : ty_ok1 TEmptyArr = true. Proof. ok1t. Qed.
+Lemma ok1_TEmptyMap : ty_ok1 TEmptyMap = true. Proof. ok1t. Qed.
+Hint Resolve ok1_TNum ok1_TStr ok1_TBool ok1_TAny ok1_TNone ok1_TEmptyArr ok1_TEmptyMap : core.
+
+Lemma ok1_small t : strict = true -> ty_ok1 t = true -> ty_small t = true.
+Proof. unfold ty_ok1. intros ->. intros H; apply andb_true_iff in H; tauto. Qed.
+
+Lemma ok1_dyn t : ty_ok1 t = true -> ty_value t = true \/ t = TNone.
 Proof.
-  intros H1 H2. unfold ty_ok1. rewrite H2, andb_true_r. apply orb_true_iff; left.
-  destruct t; simpl in *; auto; discriminate.
+  unfold ty_ok1. destruct strict; intros H.
+  - apply andb_true_iff in H as [H _]. apply orb_true_iff in H as [H|H].
+    + left. destruct t; simpl in *; auto using ty_s1in_value; discriminate.
+    + right. destruct t; simpl in *; auto; discriminate.
+  - apply orb_true_iff in H as [H|H]; auto. right. destruct t; simpl in *; auto; discriminate.
 Qed.
 
-Lemma ok1_small t : ty_ok1 t = true -> ty_small t = true.
-Proof. unfold ty_ok1. intros H; apply andb_true_iff in H; tauto. Qed.
+Lemma ok1_s1in t : strict = true -> ty_ok1 t = true -> t <> TAny -> t <> TNone -> ty_s1in t = true.
+Proof.
+  unfold ty_ok1. intros -> H N1 N2. apply andb_true_iff in H as [H _]. apply orb_true_iff in H as [H|H].
+  - destruct t; simpl in *; auto; congruence.
+  - destruct t; simpl in *; try discriminate; congruence.
+Qed.
+
+Lemma ok1_elem t u : (t = TArr u \/ t = TMap u) -> ty_ok1 t = true -> ty_ok1 u = true /\ u <> TNone.
+Proof.
+  unfold ty_ok1, ty_small. intros Ht H. destruct strict.
+  - apply andb_true_iff in H as [H1 H2]. apply Nat.leb_le in H2.
+    assert (ty_s1in u = true /\ (ty_depth u <= max_ty_depth)%nat) as [Hs Hd].
+    { destruct Ht as [->| ->]; simpl in *; rewrite orb_false_r in H1; split; auto; lia. }
+    split; [|intros ->; discriminate].
+    apply andb_true_iff; split; [|apply Nat.leb_le; auto].
+    apply orb_true_iff; left. destruct u; simpl in *; auto; discriminate.
+  - assert (ty_value u = true) by (destruct Ht as [->| ->]; simpl in *; rewrite orb_false_r in H; auto).
+    split; [apply orb_true_iff; auto|auto using ty_value_not_none].
+Qed.
+
+Lemma ty_ann_fr_ok1 t : ty_ann t = true -> fr_tyin strict t = true -> ty_ok1 t = true.
+Proof.
+  unfold ty_ann, ty_ok1, fr_tyin. intros H1 H2. apply andb_true_iff in H1 as [H0 H1]. destruct strict.
+  - rewrite H1, andb_true_r. apply orb_true_iff; left. destruct t; simpl in *; auto; discriminate.
+  - apply orb_true_iff; auto.
+Qed.
+
+Lemma fr_tyin_elem t u : (t = TArr u \/ t = TMap u) -> fr_tyin strict t = true -> fr_tyin strict u = true.
+Proof. unfold fr_tyin. destruct strict; auto. intros [->| ->]; auto. Qed.
 
 Lemma copy_or_ref_wp d : forall S s l t,
   heap_ok S (st_heap s) -> sfind S l = Some t -> t <> TNone ->
@@ -222,11 +353,13 @@ Proof.
     exists S'; auto.
   - eapply wp_mono; [eapply alloc_wp; eauto|]. cbv beta. intros l' s' (S' & E & H1 & H2 & H3).
     exists S'; auto.
-  - wbind ltac:(eapply (IH S s i u); eauto using ty_s1in_not_none).
+  - wbind ltac:(eapply (IH S s i u); eauto).
     intros i' s1 (S1 & E1 & Hh1 & Hg1 & Hi1).
     eapply wp_mono; [eapply alloc_wp with (t := TAny); eauto; constructor; eauto|]. cbv beta.
-    intros l' s' (S' & E & H1 & H2 & H3).
+    intros l' s' (S' & E & Hx1 & Hx2 & Hx3).
     hdone S'.
+  - apply wp_ret. hdone S.
+  - apply wp_ret. hdone S.
   - apply wp_ret. hdone S.
   - apply wp_ret. hdone S.
   - congruence.
@@ -265,34 +398,63 @@ Definition deep_ok (t : ty) (d : nat) : Prop :=
 Lemma ty_small_le t : ty_small t = true -> (ty_depth t <= max_ty_depth)%nat.
 Proof. unfold ty_small. apply Nat.leb_le. Qed.
 
+Lemma strict_cases : strict = true \/ strict = false.
+Proof. case strict; auto. Qed.
+
+Lemma deep_ok_elem t u d :
+  (t = TArr u \/ t = TMap u) -> (strict = true -> deep_ok t (S d)) -> strict = true -> deep_ok u d.
+Proof.
+  intros Ht H Hs. destruct (H Hs) as [[Hx _]|[[Hx|Hx] Hy]]; destruct Ht; subst; try discriminate;
+    (right; split; [left; exact Hx|simpl in Hy; lia]).
+Qed.
+
+Lemma deep_ok_any St h i u d :
+  heap_ok St h -> sfind St i = Some u -> u <> TAny -> u <> TNone ->
+  (strict = true -> deep_ok TAny (S d)) -> strict = true -> deep_ok u d.
+Proof.
+  intros Hh Hi N1 N2 H Hs. pose proof (ho_tys _ _ Hh _ _ Hi) as Hok.
+  right; split; [left; eauto using ok1_s1in|].
+  pose proof (ty_small_le _ (ok1_small _ Hs Hok)).
+  destruct (H Hs) as [[_ Hx]|[[Hx|Hx] _]]; try discriminate. lia.
+Qed.
+
+Lemma overflow_wp {A} (w : string) s (Q : A -> state -> Prop) d t :
+  overflow_reason (s_ w) -> (strict = true -> deep_ok t d) -> d = O -> wp (crash w s) Q.
+Proof.
+  intros Hw Hd ->. unfold crash, fail, wp, safe_err. destruct strict_cases as [Es|Es].
+  - destruct (Hd Es) as [[_ H]|[_ H]]; lia.
+  - auto.
+Qed.
+
 Lemma show_wp d : forall S s r l t,
-  heap_ok S (st_heap s) -> sfind S l = Some t -> deep_ok t d ->
+  heap_ok S (st_heap s) -> sfind S l = Some t -> (strict = true -> deep_ok t d) ->
   wp (show d r l s) (fun _ s' => s' = s).
 Proof.
   induction d as [|d IH]; intros S s r l t Hh Hl Hd.
-  { destruct Hd as [[_ H]|[_ H]]; lia. }
+  { cbn [show]. eapply overflow_wp; eauto. left; reflexivity. }
   cbn [show].
   wbind ltac:(eapply load_wp; eauto). intros v s' [-> Hc].
   inversion Hc; subst.
   - reflexivity.
   - destruct r; [|reflexivity]. destruct (go_quote x); [reflexivity|exact I].
   - reflexivity.
-  - eapply IH; eauto. right. split; [left; assumption|].
-    destruct Hd as [[_ Hx]|[[Hx|Hx] _]]; try discriminate.
-    match goal with Hi : sfind S i = Some u |- _ =>
-      pose proof (ty_small_le _ (ok1_small _ (ho_tys _ _ Hh _ _ Hi))) end. lia.
+  - eapply IH; eauto using deep_ok_any.
   - wbind ltac:(apply mapM_pure). 2:{ intros; subst; reflexivity. }
     intros a Ha.
     match goal with Hf : Forall _ els |- _ => rewrite Forall_forall in Hf; specialize (Hf a Ha) end.
-    eapply IH; eauto.
-    destruct Hd as [[Hx _]|[[Hx|Hx] Hy]]; try discriminate.
-    right; split; [left; exact Hx|]. simpl in Hy. lia.
+    eapply IH; eauto using deep_ok_elem.
   - reflexivity.
+  - (* map *)
+    wbind ltac:(apply mapM_pure). 2:{ intros; subst; reflexivity. }
+    intros k Hk.
+    match goal with HI : Inv m |- _ => destruct (map_order_has m k HI Hk) as (i & Hi) end. rewrite Hi.
+    wbind ltac:(eapply IH; eauto using map_entry_typed, deep_ok_elem). intros; subst; reflexivity.
+  - match goal with Ho : order m = [] |- _ => rewrite Ho end. reflexivity.
   - reflexivity.
 Qed.
 
 Lemma shape_compat t u :
-  ty_s1in t = true -> ty_s1in u = true -> ty_eqb (ty_shape t) (ty_shape u) = true -> ty_compat t u = true.
+  ty_value t = true -> ty_value u = true -> ty_eqb (ty_shape t) (ty_shape u) = true -> ty_compat t u = true.
 Proof.
   revert u; induction t; intros u Ht Hu H; destruct u; simpl in *; try discriminate; auto.
 Qed.
@@ -314,68 +476,188 @@ Section EqGo.
   Qed.
 End EqGo.
 
+Section EqMapGo.
+  Context (eqf : loc -> loc -> M bool) (s : state) (p2 : list (str * loc)).
+  Lemma eq_mgo_pure : forall ps,
+    (forall k i j, In (k, i) ps -> plookup k p2 = Some j -> wp (eqf i j s) (fun _ s' => s' = s)) ->
+    wp ((fix go (ps : list (str * loc)) : M bool :=
+           match ps with
+           | [] => ret true
+           | (k, i) :: t =>
+               match plookup k p2 with
+               | None => ret false
+               | Some j => let* e := eqf i j in if e then go t else ret false
+               end
+           end) ps s) (fun _ s' => s' = s).
+  Proof.
+    induction ps as [|[k i] ps IH]; intros H; [reflexivity|].
+    destruct (plookup k p2) as [j|] eqn:Ej; [|reflexivity].
+    wbind ltac:(eapply H; [left; reflexivity|exact Ej]). intros e s1 ->.
+    destruct e; [|reflexivity]. apply IH. intros; eapply H; eauto. right; assumption.
+  Qed.
+End EqMapGo.
+
 Lemma equals_wp d : forall S s a b ta tb,
   heap_ok S (st_heap s) -> sfind S a = Some ta -> sfind S b = Some tb ->
-  ty_compat ta tb = true -> deep_ok ta d -> deep_ok tb d ->
+  ty_compat ta tb = true -> (strict = true -> deep_ok ta d) -> (strict = true -> deep_ok tb d) ->
   wp (equals d a b s) (fun _ s' => s' = s).
 Proof.
   induction d as [|d IH]; intros S s a b ta tb Hh Ha Hb Hc Hda Hdb.
-  { destruct Hda as [[_ H]|[_ H]]; lia. }
+  { cbn [equals]. eapply overflow_wp; eauto. right; left; reflexivity. }
   cbn [equals].
   wbind ltac:(eapply load_wp; eauto). intros va s' [-> Hva].
   wbind ltac:(eapply load_wp; eauto). intros vb s' [-> Hvb].
-  assert (SM : forall i u, sfind S i = Some u -> (ty_depth u <= max_ty_depth)%nat).
-  { intros i u Hi. apply ty_small_le, ok1_small. eapply ho_tys; eauto. }
+  assert (VAL : forall i u, sfind S i = Some u -> u <> TNone -> ty_value u = true).
+  { intros i u Hi Hn. destruct (ok1_dyn _ (ho_tys _ _ Hh _ _ Hi)); congruence. }
   inversion Hva; subst; inversion Hvb; subst; simpl in Hc; try discriminate; try reflexivity.
   - (* any / any *)
     destruct (ty_eqb (ty_shape u) (ty_shape u0)) eqn:Hs; [|reflexivity].
-    eapply IH; eauto using shape_compat.
-    + right; split; [left; assumption|].
-      destruct Hda as [[_ Hx]|[[Hx|Hx] _]]; try discriminate. pose proof (SM _ _ H0). lia.
-    + right; split; [left; assumption|].
-      destruct Hdb as [[_ Hx]|[[Hx|Hx] _]]; try discriminate. pose proof (SM _ _ H2). lia.
+    eapply IH; eauto using shape_compat, deep_ok_any.
   - (* arr / arr *)
     destruct (negb (Nat.eqb (List.length els) (List.length els0))); [reflexivity|].
     apply eq_go_pure. intros x y Hx Hy.
-    rewrite Forall_forall in H, H0.
-    destruct Hda as [[Hx0 _]|[[Hx0|Hx0] Hx1]]; try discriminate.
-    destruct Hdb as [[Hy0 _]|[[Hy0|Hy0] Hy1]]; try discriminate.
-    simpl in *.
-    eapply IH; eauto; right; (split; [left; assumption|lia]).
+    match goal with H1 : Forall _ els, H2 : Forall _ els0 |- _ => rewrite Forall_forall in H1, H2;
+      pose proof (H1 _ Hx); pose proof (H2 _ Hy) end.
+    eapply IH; eauto using deep_ok_elem.
   - (* arr / empty *)
     destruct (negb (Nat.eqb (List.length els) (List.length (@nil loc)))); [reflexivity|].
     apply eq_go_pure. intros x y Hx [].
   - (* empty / arr *)
     destruct (negb (Nat.eqb (List.length (@nil loc)) (List.length els))); reflexivity.
+  - (* map / map *)
+    match goal with |- context [if ?c then _ else _] => destruct c; [reflexivity|] end.
+    apply eq_mgo_pure. intros k i j Hin Hj.
+    match goal with HF : Forall _ (pairs m) |- _ => rewrite Forall_forall in HF; pose proof (HF _ Hin) as Hti end.
+    simpl in Hti.
+    eapply IH; eauto using map_entry_typed, deep_ok_elem.
+  - (* map / empty map *)
+    match goal with |- context [if ?c then _ else _] => destruct c; [reflexivity|] end.
+    apply eq_mgo_pure. intros k i j Hin Hj.
+    match goal with Hp : pairs m0 = [] |- _ => rewrite Hp in Hj end. discriminate.
+  - (* empty map / map *)
+    match goal with |- context [if ?c then _ else _] => destruct c; [reflexivity|] end.
+    match goal with Hp : pairs m = [] |- _ => rewrite Hp end. reflexivity.
+  - (* empty map / empty map *)
+    match goal with |- context [if ?c then _ else _] => destruct c; [reflexivity|] end.
+    match goal with Hp : pairs m = [] |- _ => rewrite Hp end. reflexivity.
 Qed.
 
+(* same(want, got) of the test built-in: walks [got] *)
+Lemma same_wp d : forall S s w g tw tg,
+  heap_ok S (st_heap s) -> sfind S w = Some tw -> sfind S g = Some tg ->
+  (strict = true -> deep_ok tg d) ->
+  wp (same d w g s) (fun _ s' => s' = s).
+Proof.
+  induction d as [|d IH]; intros S s w g tw tg Hh Hw Hg Hd.
+  { cbn [same]. eapply overflow_wp; eauto. right; right; right; reflexivity. }
+  cbn [same].
+  wbind ltac:(eapply load_wp; eauto). intros vg s' [-> Hvg].
+  wbind ltac:(eapply load_wp; eauto). intros vw s' [-> Hvw].
+  inversion Hvg; subst.
+  - destruct vw; reflexivity.
+  - destruct vw; reflexivity.
+  - destruct vw; reflexivity.
+  - (* got is an any *)
+    assert (Hdi : strict = true -> deep_ok u d) by eauto using deep_ok_any.
+    inversion Hvw; subst; eapply IH; eauto.
+  - (* got is an array *)
+    inversion Hvw; subst; try reflexivity.
+    + match goal with |- context [if ?c then _ else _] => destruct c; [reflexivity|] end.
+      apply eq_go_pure. intros x y Hx Hy.
+      match goal with H1 : Forall _ els, H2 : Forall _ els0 |- _ => rewrite Forall_forall in H1, H2;
+        pose proof (H1 _ Hy); pose proof (H2 _ Hx) end.
+      eapply IH; eauto using deep_ok_elem.
+    + match goal with |- context [if ?c then _ else _] => destruct c; reflexivity end.
+  - (* got is the untyped [] *)
+    inversion Hvw; subst; try reflexivity;
+      try (match goal with |- context [if ?c then _ else _] => destruct c; [reflexivity|] end);
+      try reflexivity; try (apply eq_go_pure; intros x y Hx []).
+  - (* got is a map *)
+    inversion Hvw; subst; try reflexivity.
+    + match goal with |- context [if ?c then _ else _] => destruct c; [reflexivity|] end.
+      apply eq_mgo_pure. intros k i j Hin Hj.
+      match goal with HF : Forall _ (pairs m0) |- _ => rewrite Forall_forall in HF; pose proof (HF _ Hin) as Hti end.
+      simpl in Hti. eapply IH; eauto using map_entry_typed, deep_ok_elem.
+    + match goal with |- context [if ?c then _ else _] => destruct c; [reflexivity|] end.
+      match goal with Hp : pairs m0 = [] |- _ => rewrite Hp end. reflexivity.
+  - (* got is the untyped {} *)
+    inversion Hvw; subst; try reflexivity.
+    + match goal with |- context [if ?c then _ else _] => destruct c; [reflexivity|] end.
+      apply eq_mgo_pure. intros k i j Hin Hj.
+      match goal with Hp : pairs m = [] |- _ => rewrite Hp in Hj end. discriminate.
+    + match goal with |- context [if ?c then _ else _] => destruct c; [reflexivity|] end.
+      match goal with Hp : pairs m0 = [] |- _ => rewrite Hp end. reflexivity.
+  - destruct vw; reflexivity.
+Qed.
+
+(* deepCopy: [dc_ok t d]: in the strict fragment the copy of a value of type t needs at most d levels *)
+Definition dc_ok (t : ty) (d : nat) : Prop := strict = true -> deep_ok t d.
+
 Lemma deep_copy_wp d : forall S s l t,
-  heap_ok S (st_heap s) -> sfind S l = Some t -> ty_s1in t = true -> (ty_depth t < d)%nat ->
+  heap_ok S (st_heap s) -> sfind S l = Some t -> t <> TNone -> dc_ok t d ->
   wp (deep_copy d l s) (hpost S (st_globals s) (fun S' l' => sfind S' l' = Some t)).
 Proof.
-  induction d as [|d IH]; intros S s l t Hh Hl Ht Hd; [lia|].
+  induction d as [|d IH]; intros S s l t Hh Hl Hn Hd.
+  { cbn [deep_copy]. eapply overflow_wp; eauto. right; right; left; reflexivity. }
   cbn [deep_copy].
   wbind ltac:(eapply load_wp; eauto). intros v s' [-> Hc].
   pose proof (ho_tys _ _ Hh _ _ Hl) as Hok.
-  inversion Hc; subst; try discriminate.
-  - eapply wp_mono; [eapply alloc_wp; eauto|]. cbv beta. intros l' s' (S' & E & H1 & H2 & H3).
+  inversion Hc; subst; try congruence.
+  - eapply wp_mono; [eapply alloc_wp; eauto|]. cbv beta. intros l' s' (S' & E & Hx1 & Hx2 & Hx3).
     exists S'; auto.
-  - eapply wp_mono; [eapply alloc_wp; eauto|]. cbv beta. intros l' s' (S' & E & H1 & H2 & H3).
+  - eapply wp_mono; [eapply alloc_wp; eauto|]. cbv beta. intros l' s' (S' & E & Hx1 & Hx2 & Hx3).
     exists S'; auto.
-  - eapply wp_mono; [eapply alloc_wp; eauto|]. cbv beta. intros l' s' (S' & E & H1 & H2 & H3).
+  - eapply wp_mono; [eapply alloc_wp; eauto|]. cbv beta. intros l' s' (S' & E & Hx1 & Hx2 & Hx3).
     exists S'; auto.
-  - simpl in Ht, Hd.
+  - (* any *)
+    wbind ltac:(eapply (IH S s i u); eauto; unfold dc_ok in *; eauto using deep_ok_any).
+    intros i' s1 (S1 & E1 & Hh1 & Hg1 & Hi1).
+    eapply wp_mono; [eapply alloc_wp with (t := TAny); eauto; constructor; eauto|]. cbv beta.
+    intros l' s' (S' & E & Hx1 & Hx2 & Hx3). hdone S'.
+  - (* array *)
+    destruct (ok1_elem (TArr u) u (or_introl eq_refl) Hok) as [Hoku Hnu].
     wbind ltac:(eapply (mapM_wp (deep_copy d) (fun S a => sfind S a = Some u)
                           (fun S a b => sfind S b = Some u) (st_globals s)); eauto).
-    1:{ intros S0 s0 a Hh0 Hg0 Ha. rewrite <- Hg0. eapply IH; eauto. lia. }
+    1:{ intros S0 s0 a Hh0 Hg0 Ha. rewrite <- Hg0. eapply IH; eauto.
+        unfold dc_ok in *; eauto using deep_ok_elem. }
     intros els' s1 (S1 & E1 & Hh1 & Hg1 & Hr1).
     eapply wp_mono; [eapply alloc_wp with (t := TArr u) (S := S1); eauto|].
     { constructor. clear -Hr1. induction Hr1; constructor; auto. }
-    cbv beta. intros l' s' (S' & E & H1 & H2 & H3).
+    cbv beta. intros l' s' (S' & E & Hx1 & Hx2 & Hx3).
     hdone S'.
   - cbn [mapM]. unfold bindM at 1. cbn [ret].
     eapply wp_mono; [eapply alloc_wp with (t := TEmptyArr); eauto; constructor|].
-    cbv beta. intros l' s' (S' & E & H1 & H2 & H3).
+    cbv beta. intros l' s' (S' & E & Hx1 & Hx2 & Hx3).
+    exists S'; auto.
+  - (* map *)
+    destruct (ok1_elem (TMap u) u (or_intror eq_refl) Hok) as [Hoku Hnu].
+    match goal with HI : Inv m, HF : Forall _ (pairs m) |- _ => rename HI into HInv; rename HF into HFm end.
+    wbind ltac:(eapply (mapM_wp
+        (fun k => match plookup k (pairs m) with
+                  | Some i => let* i' := deep_copy d i in ret (k, i')
+                  | None => crash "nil map entry"
+                  end)
+        (fun S k => exists i, plookup k (pairs m) = Some i /\ sfind S i = Some u)
+        (fun S k kv => fst kv = k /\ sfind S (snd kv) = Some u) (st_globals s)); eauto).
+    + intros S1 S2 k E12 (i & H1 & H2). eauto.
+    + intros S1 S2 k kv E12 [H1 H2]. auto.
+    + intros S0 s0 k Hh0 Hg0 (i & Hi & Hti). rewrite Hi.
+      wbind ltac:(eapply (IH S0 s0 i u); eauto; unfold dc_ok in *; eauto using deep_ok_elem).
+      intros i' s1 (S1 & E1 & Hh1 & Hg1 & Hi1). apply wp_ret. hdone S1.
+    + rewrite Forall_forall. intros k Hk. destruct (map_order_has m k HInv Hk) as (i & Hi).
+      eauto using map_entry_typed.
+    + intros ps s1 (S1 & E1 & Hh1 & Hg1 & Hr1).
+      assert (Hk : map fst ps = order m /\ Forall (fun kv => sfind S1 (snd kv) = Some u) ps).
+      { clear -Hr1. induction Hr1 as [|k kv o ps [H1 H2] _ [I1 I2]]; simpl; [auto|]. split; [congruence|auto]. }
+      destruct Hk as [Hk1 Hk2].
+      eapply wp_mono; [eapply alloc_wp with (t := TMap u) (S := S1); eauto|].
+      { constructor; simpl; auto. destruct HInv as (N1 & _ & _).
+        unfold Inv, keys; simpl. rewrite Hk1. repeat split; auto. }
+      cbv beta. intros l' s' (S' & E & Hx1 & Hx2 & Hx3). hdone S'.
+  - match goal with Ho : order m = [] |- _ => rewrite Ho end.
+    cbn [mapM]. unfold bindM at 1. cbn [ret].
+    eapply wp_mono; [eapply alloc_wp with (t := TEmptyMap); eauto; constructor; auto|].
+    cbv beta. intros l' s' (S' & E & Hx1 & Hx2 & Hx3).
     exists S'; auto.
 Qed.
 
@@ -416,9 +698,9 @@ Proof.
   - simpl. destruct (str_eqb n k) eqn:E; auto. apply str_eqb_eq in E; congruence.
 Qed.
 
-Lemma frame_ok_decl S T sf df n t l :
-  frame_ok S T sf df -> sfind S l = Some t -> sget n sf = None ->
-  frame_ok S T ((n, t) :: sf) (frame_set n l df).
+Lemma frame_ok_decl S sf df n t l :
+  frame_ok S sf df -> sfind S l = Some t -> sget n sf = None ->
+  frame_ok S ((n, t) :: sf) (frame_set n l df).
 Proof.
   intros [H1 H2] Hl Hn; split.
   - intros k t0. simpl. destruct (str_eqb n k) eqn:E.
@@ -430,54 +712,49 @@ Proof.
     apply str_eqb_neq in E. rewrite frame_get_set_other by congruence. eauto.
 Qed.
 
-Lemma frame_ok_replace S T sf df n t l :
-  frame_ok S T sf df -> sfind S l = Some t -> frame_get n df <> None ->
-  slookup n (sf :: T) = Some t ->
-  frame_ok S T sf (frame_replace n l df).
+Lemma frame_ok_replace S sf df n t l :
+  frame_ok S sf df -> sfind S l = Some t -> sget n sf = Some t -> frame_ok S sf (frame_replace n l df).
 Proof.
-  intros [H1 H2] Hl Hn Hs; split.
+  intros [H1 H2] Hl Hs; split.
   - intros k t0 Hk. destruct (str_eq_dec k n) as [->|Hne].
-    + simpl in Hs. rewrite Hk in Hs. inversion Hs; subst.
-      exists l; split; auto using frame_get_replace_same.
+    + rewrite Hk in Hs. inversion Hs; subst. destruct (H1 _ _ Hk) as (l0 & Hl0 & _).
+      exists l; split; auto. apply frame_get_replace_same. congruence.
     + rewrite frame_get_replace_other by auto. auto.
-  - intros k l0 Hk Hsk t0 Ht0. destruct (str_eq_dec k n) as [->|Hne].
-    + rewrite frame_get_replace_same in Hk by auto. inversion Hk; subst.
-      simpl in Hs. rewrite Hsk in Hs. congruence.
-    + rewrite frame_get_replace_other in Hk by auto. eauto.
+  - intros k l0 Hk. destruct (str_eq_dec k n) as [->|Hne]; [congruence|].
+    rewrite frame_get_replace_other in Hk by auto. eauto.
 Qed.
 
-Lemma env_update_ok S G fe n t l fe' :
-  env_ok S G fe -> slookup n G = Some t -> sfind S l = Some t ->
-  env_update n l fe = Some fe' -> env_ok S G fe'.
+Lemma frame_get_replace_none n k l f : frame_get k f <> None -> frame_get k (frame_replace n l f) <> None.
 Proof.
-  intros H; revert fe'. induction H as [|sf G df e Hf He IH]; intros fe' Hs Hl Hu; simpl in *; [discriminate|].
-  destruct (frame_get n df) eqn:Hg.
-  - inversion Hu; subst. constructor; auto.
-    eapply frame_ok_replace; eauto. congruence.
-  - destruct (env_update n l e) as [e'|] eqn:Hu'; simpl in Hu; inversion Hu; subst.
-    constructor; auto. apply IH; auto.
-    destruct (sget n sf) eqn:Hsf; auto.
-    destruct Hf as [H1 _]. destruct (H1 _ _ Hsf) as (l0 & Hl0 & _). congruence.
+  intros H. destruct (str_eq_dec k n) as [->|Hne].
+  - rewrite frame_get_replace_same; congruence.
+  - rewrite frame_get_replace_other; auto.
 Qed.
 
-Lemma env_update_some n l fe : env_get n fe <> None -> exists fe', env_update n l fe = Some fe'.
+Lemma frame_get_set_none n k l f : frame_get k f <> None -> frame_get k (frame_set n l f) <> None.
 Proof.
-  induction fe as [|f fe IH]; simpl; [congruence|].
-  destruct (frame_get n f); eauto.
-  intros H. destruct (IH H) as (fe' & ->). simpl; eauto.
+  intros H. destruct (str_eq_dec k n) as [->|Hne].
+  - rewrite frame_get_set_same; congruence.
+  - rewrite frame_get_set_other; auto.
 Qed.
 
-Lemma env_update_app n l e g :
-  env_update n l (e ++ [g]) =
-  match env_update n l e with
-  | Some e' => Some (e' ++ [g])
-  | None => match frame_get n g with Some _ => Some (e ++ [frame_replace n l g]) | None => None end
-  end.
+Lemma globals_ok_replace S g n t l :
+  globals_ok S g -> sget n Gg = Some t -> sfind S l = Some t -> frame_get n g <> None ->
+  globals_ok S (frame_replace n l g).
 Proof.
-  induction e as [|f e IH]; simpl.
-  - destruct (frame_get n g); reflexivity.
-  - destruct (frame_get n f); auto. rewrite IH.
-    destruct (env_update n l e); simpl; auto. destruct (frame_get n g); reflexivity.
+  intros (H1 & H2 & H3) Hs Hl Hn. split; [|split; apply frame_get_replace_none; auto].
+  intros k l0 Hk. destruct (str_eq_dec k n) as [->|Hne].
+  - rewrite frame_get_replace_same in Hk by auto. inversion Hk; subst. eauto.
+  - rewrite frame_get_replace_other in Hk by auto. eauto.
+Qed.
+
+Lemma globals_ok_set S g n t l :
+  globals_ok S g -> sget n Gg = Some t -> sfind S l = Some t -> globals_ok S (frame_set n l g).
+Proof.
+  intros (H1 & H2 & H3) Hs Hl. split; [|split; apply frame_get_set_none; auto].
+  intros k l0 Hk. destruct (str_eq_dec k n) as [->|Hne].
+  - rewrite frame_get_set_same in Hk. inversion Hk; subst. eauto.
+  - rewrite frame_get_set_other in Hk by auto. eauto.
 Qed.
 
 Lemma env_update_length n l e e' : env_update n l e = Some e' -> List.length e' = List.length e.
@@ -487,34 +764,68 @@ Proof.
   destruct (env_update n l e); simpl in H; inversion H; subst. simpl; f_equal; auto.
 Qed.
 
-Lemma update_var_wp n l e s fe' :
-  str_eqb n underscore = false -> env_update n l (full e s) = Some fe' ->
-  wp (update_var n l e s) (fun e' s' => st_heap s' = st_heap s /\ List.length e' = List.length e /\ full e' s' = fe').
+(* rebinding in the local frames *)
+Lemma env_update_locals S G e g n t l e' :
+  env_ok S G e g -> slookup n G = Some t -> sfind S l = Some t ->
+  env_update n l e = Some e' -> env_ok S G e' g.
 Proof.
-  intros Hn Hu. unfold update_var, full in *. rewrite Hn. rewrite env_update_app in Hu.
-  destruct (env_update n l e) as [e'|] eqn:E.
-  - inversion Hu; subst. simpl. repeat split; eauto using env_update_length.
-  - destruct (frame_get n (st_globals s)); inversion Hu; subst. simpl. auto.
+  intros H; revert e'. induction H as [gs g Hsub Hg|sf G df e g Hf He IH]; intros e' Hs Hl Hu; simpl in *; [discriminate|].
+  destruct (frame_get n df) as [l0|] eqn:Hd.
+  - inversion Hu; subst. constructor; auto.
+    destruct Hf as [H1 H2]. destruct (sget n sf) as [t0|] eqn:Hsf; [|exfalso; eapply H2; eauto].
+    inversion Hs; subst. eapply frame_ok_replace; eauto. split; auto.
+  - destruct (env_update n l e) as [e1|] eqn:Hu'; simpl in Hu; inversion Hu; subst.
+    constructor; auto. apply IH; auto.
+    destruct (sget n sf) as [t0|] eqn:Hsf; auto.
+    destruct Hf as [H1 _]. destruct (H1 _ _ Hsf) as (l0 & Hl0 & _). congruence.
 Qed.
 
-Lemma set_var_wp n l e s :
-  str_eqb n underscore = false ->
-  wp (set_var n l e s) (fun e' s' => st_heap s' = st_heap s /\ List.length e' = List.length e /\
-        exists f rest, full e s = f :: rest /\ full e' s' = frame_set n l f :: rest).
+(* no local frame binds the name: the checker resolved it in the global frame *)
+Lemma env_update_none S G e g n t l :
+  env_ok S G e g -> slookup n G = Some t -> env_update n l e = None -> sget n Gg = Some t.
 Proof.
-  intros Hn. unfold set_var, full. rewrite Hn. destruct e as [|f e]; simpl; repeat split; eauto.
+  induction 1 as [gs g Hsub Hg|sf G df e g Hf He IH]; simpl.
+  - destruct (sget n gs) eqn:Hs; [|discriminate]. intros Ht _; inversion Ht; subst. auto.
+  - intros Hs Hu. destruct (frame_get n df) eqn:Hd; [discriminate|].
+    destruct (env_update n l e); [discriminate|].
+    destruct (sget n sf) as [t0|] eqn:Hsf; auto.
+    destruct Hf as [H1 _]. destruct (H1 _ _ Hsf) as (l0 & Hl0 & _). congruence.
 Qed.
 
-Lemma env_ok_push S G fe : env_ok S G fe -> env_ok S (push G) ([] :: fe).
+Lemma update_var_ok S G e s n t l :
+  inv S G e s -> slookup n G = Some t -> sfind S l = Some t ->
+  wp (update_var n l e s) (fun e' s' => inv S G e' s' /\ List.length e' = List.length e).
+Proof.
+  intros [Hh He] Hs Hl. unfold update_var.
+  destruct (str_eqb n underscore); [simpl; split; [split|]; auto|].
+  destruct (env_update n l e) as [e'|] eqn:Hu.
+  - simpl. split; [split; eauto using env_update_locals|eauto using env_update_length].
+  - destruct (frame_get n (st_globals s)) eqn:Hg; [|exact I].
+    simpl. split; auto. split; auto.
+    eapply env_ok_reglob; eauto. eapply globals_ok_replace; eauto using env_ok_globals, env_update_none.
+    congruence.
+Qed.
+
+(* a declaration in the current scope *)
+Lemma set_var_ok S sf G0 e s n t l :
+  inv S (sf :: G0) e s -> sfind S l = Some t -> sget n sf = None -> str_eqb n underscore = false ->
+  (G0 = [] -> sframe_sub ((n, t) :: sf) Gg) ->
+  wp (set_var n l e s) (fun e' s' => inv S (((n, t) :: sf) :: G0) e' s' /\ List.length e' = List.length e).
+Proof.
+  intros [Hh He] Hl Hn Hus Hsub. unfold set_var. rewrite Hus.
+  inversion He; subst.
+  - simpl. split; auto. split; auto. constructor; auto.
+    eapply globals_ok_set; eauto. apply (Hsub eq_refl). simpl. rewrite str_eqb_refl. reflexivity.
+  - simpl. split; auto. split; auto. constructor; auto using frame_ok_decl.
+Qed.
+
+Lemma env_ok_push S G e g : env_ok S G e g -> env_ok S (push G) ([] :: e) g.
 Proof. intros H. constructor; auto. split; simpl; intros; discriminate. Qed.
 
-Lemma env_ok_pop S sf G e s :
-  env_ok S (sf :: G) (full e s) -> G <> [] -> env_ok S G (full (tl e) s) /\ e <> [].
+Lemma env_ok_pop S sf G e g :
+  env_ok S (sf :: G) e g -> G <> [] -> env_ok S G (tl e) g /\ e <> [].
 Proof.
-  intros H HG. destruct e as [|d e].
-  - unfold full in H; simpl in H. inversion H; subst.
-    match goal with He : env_ok S G [] |- _ => inversion He; subst end. congruence.
-  - unfold full in *; simpl in *. inversion H; subst. split; auto. discriminate.
+  intros H HG. inversion H; subst; [congruence|]. simpl. split; auto. discriminate.
 Qed.
 
 (* growth of the top static frame by declarations *)
@@ -543,9 +854,12 @@ Proof. revert b; induction a; destruct b; simpl; intros H; try discriminate; aut
 Lemma ty_eqb_refl a : ty_eqb a a = true.
 Proof. induction a; simpl; auto. Qed.
 
-(* err / errmsg resolve to the built-in globals *)
-Definition genv_ok (G : tyenv) : Prop :=
-  slookup n_err G = Some TBool /\ slookup n_errmsg G = Some TStr.
+(* err / errmsg resolve to the built-in globals; the program's functions check against the globals *)
+Definition funcs_ok (P : program) : Prop :=
+  forall fd, In fd (p_funcs P) -> wt_func (p_funcs P) Gg fd = true /\ s1_func strict fd = true.
+
+Definition genv_ok (P : program) (G : tyenv) : Prop :=
+  slookup n_err G = Some TBool /\ slookup n_errmsg G = Some TStr /\ funcs_ok P.
 
 Lemma binder_not_reserved n : binder_ok n = true -> n <> n_err /\ n <> n_errmsg /\ str_eqb n underscore = false.
 Proof.
@@ -555,22 +869,22 @@ Proof.
   - intros ->. vm_compute in H2. discriminate.
 Qed.
 
-Lemma genv_ok_push G : genv_ok G -> genv_ok (push G).
+Lemma genv_ok_push P G : genv_ok P G -> genv_ok P (push G).
 Proof. intros H; exact H. Qed.
 
 Lemma sget_other n k t sf : n <> k -> sget k ((n, t) :: sf) = sget k sf.
 Proof. intros H. simpl. destruct (str_eqb n k) eqn:E; auto. apply str_eqb_eq in E; congruence. Qed.
 
-Lemma genv_ok_grows G G' : grows G G' -> genv_ok G -> genv_ok G'.
+Lemma genv_ok_grows P G G' : grows G G' -> genv_ok P G -> genv_ok P G'.
 Proof.
   intros (a & c & T & -> & -> & H) HG. induction H; auto.
-  destruct IHfgrows as [I1 I2]. apply binder_not_reserved in H1 as (N1 & N2 & _).
+  destruct IHfgrows as (I1 & I2 & I3). apply binder_not_reserved in H1 as (N1 & N2 & _).
   unfold genv_ok in *. cbn [slookup] in *. rewrite !sget_other by auto. auto.
 Qed.
 
-Lemma genv_ok_frame G v vt : binder_ok v = true -> genv_ok G -> genv_ok ([(v, vt)] :: G).
+Lemma genv_ok_frame P G v vt : binder_ok v = true -> genv_ok P G -> genv_ok P ([(v, vt)] :: G).
 Proof.
-  intros Hb [H1 H2]. apply binder_not_reserved in Hb as (N1 & N2 & _).
+  intros Hb (H1 & H2 & H3). apply binder_not_reserved in Hb as (N1 & N2 & _).
   unfold genv_ok; simpl. destruct (str_eqb v n_err) eqn:E1; [apply str_eqb_eq in E1; congruence|].
   destruct (str_eqb v n_errmsg) eqn:E2; [apply str_eqb_eq in E2; congruence|]. auto.
 Qed.
@@ -595,21 +909,21 @@ Qed.
 Lemma value_depth_big : (S (S max_ty_depth) < value_depth)%nat.
 Proof. unfold value_depth, max_ty_depth. lia. Qed.
 
-Lemma deep_ok_value S h l t : heap_ok S h -> sfind S l = Some t -> deep_ok t value_depth.
+Lemma deep_ok_of_ok1 t : strict = true -> ty_ok1 t = true -> deep_ok t value_depth.
 Proof.
-  intros Hh Hl. pose proof (ho_tys _ _ Hh _ _ Hl) as Hok. pose proof value_depth_big.
-  unfold ty_ok1 in Hok. apply andb_true_iff in Hok as [H1 H2]. apply ty_small_le in H2.
+  intros Hs Hok. pose proof value_depth_big.
+  unfold ty_ok1 in Hok. rewrite Hs in Hok. apply andb_true_iff in Hok as [H1 H2]. apply ty_small_le in H2.
   destruct t; simpl in H1; try discriminate;
     try (left; split; [reflexivity|lia]);
     try (right; split; [try rewrite orb_false_r in H1; auto|simpl in *; lia]).
 Qed.
 
+Lemma deep_ok_value S h l t : heap_ok S h -> sfind S l = Some t -> strict = true -> deep_ok t value_depth.
+Proof. intros Hh Hl Hs. eapply deep_ok_of_ok1; eauto. eapply ho_tys; eauto. Qed.
+
 (* ---------- inversion of the checker ---------- *)
 Lemma opt_ty_eqb_eq o t : opt_ty_eqb o t = true -> o = Some t.
 Proof. destruct o; simpl; [|discriminate]. intros H; apply ty_eqb_eq in H; congruence. Qed.
-
-Lemma ty_value_not_none t : ty_value t = true -> t <> TNone.
-Proof. intros H E; subst; discriminate. Qed.
 
 Lemma ty_ann_value t : ty_ann t = true -> ty_value t = true.
 Proof. unfold ty_ann; intros H; apply andb_true_iff in H; tauto. Qed.
@@ -646,18 +960,42 @@ Lemma ety_ESlice F G t l lo hi : ety F G (ESlice t l lo hi) =
       match ety F G l with
       | Some a =>
           match a with
-          | TArr _ | TStr => if ty_eqb a t && etyo F G lo && etyo F G hi then Some t else None
+          | TArr _ | TEmptyArr | TStr => if ty_eqb a t && etyo F G lo && etyo F G hi then Some t else None
           | _ => None
           end
       | None => None
       end.
 Proof. reflexivity. Qed.
 
-Lemma s1_expr_EArr t es : s1_expr (EArr t es) = ty_s1in t && s1_exprs es.
+Lemma ety_EMap F G t ps : ety F G (EMap t ps) =
+      match ps with
+      | [] => match t with
+              | TEmptyMap => Some t
+              | TMap _ => if ty_ann t then Some t else None
+              | _ => None end
+      | _ :: _ =>
+          match t, etyps F G ps with
+          | TMap u, Some ts =>
+              if forallb (ty_eqb u) ts && ty_ann t && keys_nodup (map fst ps) then Some t else None
+          | _, _ => None
+          end
+      end.
 Proof. reflexivity. Qed.
-Lemma s1_expr_ECall name t args : s1_expr (ECall name t args) = mem_str name s1_builtins && s1_exprs args.
+
+Lemma s1_expr_EMap t ps : s1_expr strict (EMap t ps) = fr_tyin strict t && s1_pairs strict ps.
 Proof. reflexivity. Qed.
-Lemma s1_expr_ESlice t l lo hi : s1_expr (ESlice t l lo hi) = ty_s1in t && s1_expr l && s1_opt lo && s1_opt hi.
+
+Lemma keys_nodup_NoDup l : keys_nodup l = true -> NoDup l.
+Proof.
+  induction l as [|x l IH]; simpl; intros H; constructor; apply andb_true_iff in H as [H1 H2]; auto.
+  apply negb_true_iff in H1. intros Hin. apply mem_str_In in Hin. congruence.
+Qed.
+
+Lemma s1_expr_EArr t es : s1_expr strict (EArr t es) = fr_tyin strict t && s1_exprs strict es.
+Proof. reflexivity. Qed.
+Lemma s1_expr_ECall name t args : s1_expr strict (ECall name t args) = call_frag name && s1_exprs strict args.
+Proof. reflexivity. Qed.
+Lemma s1_expr_ESlice t l lo hi : s1_expr strict (ESlice t l lo hi) = fr_tyin strict t && s1_expr strict l && s1_opt strict lo && s1_opt strict hi.
 Proof. reflexivity. Qed.
 
 (* ---------- invariant bookkeeping ---------- *)
@@ -686,11 +1024,7 @@ Qed.
 Lemma epost_weaken S0 S G e t l s : ext S0 S -> epost S G e t l s -> epost S0 G e t l s.
 Proof. intros E (S' & E' & H). exists S'; split; eauto using ext_trans. Qed.
 
-Lemma ok1_basic : ty_ok1 TNum = true /\ ty_ok1 TStr = true /\ ty_ok1 TBool = true /\ ty_ok1 TAny = true /\ ty_ok1 TNone = true.
-Proof. repeat split; reflexivity. Qed.
 
-Lemma ty_ann_s1in_ok1 t : ty_ann t = true -> ty_s1in t = true -> ty_ok1 t = true.
-Proof. unfold ty_ann. intros H1 H2. apply andb_true_iff in H1 as [_ H1]. auto using ty_s1in_ok1. Qed.
 
 (* ---------- index arithmetic ---------- *)
 Lemma normalize_index_lt f len k : normalize_index f len false = Ok k -> (k < len)%nat.
@@ -731,6 +1065,9 @@ Proof.
       destruct (Nat.ltb b 0); [exact I|reflexivity].
     + apply wp_ret. destruct (Nat.ltb len 0); [exact I|reflexivity].
 Qed.
+
+Lemma firstn_skipn_nil {A} n m : firstn n (skipn m (@nil A)) = [].
+Proof. destruct n, m; reflexivity. Qed.
 
 Lemma Forall_firstn {A} (P : A -> Prop) n l : Forall P l -> Forall P (firstn n l).
 Proof. intros H; revert n; induction H; destruct n; simpl; constructor; auto. Qed.
@@ -796,21 +1133,37 @@ Qed.
 Lemma ne_err_us : str_eqb n_err underscore = false. Proof. reflexivity. Qed.
 Lemma ne_errmsg_us : str_eqb n_errmsg underscore = false. Proof. reflexivity. Qed.
 
-Lemma global_err_wp S G e s b msg :
-  genv_ok G -> inv S G e s -> wp (global_err e b msg s) (fun _ s' => inv S G e s').
+Lemma lookup_reserved S G e s n t :
+  inv S G e s -> slookup n G = Some t -> (n = n_err \/ n = n_errmsg) ->
+  exists l, lookup n e s = (Ok (Some l), s) /\ sfind S l = Some t.
 Proof.
-  intros [G1 G2] [Hh He]. unfold global_err.
-  apply wp_bind. rewrite (lookup_full _ _ _ ne_err_us). simpl.
-  destruct (env_get_sound _ _ _ _ _ He G1) as (l & Hl & Ht). rewrite Hl.
+  intros [Hh He] Hs Hn.
+  assert (Hus : str_eqb n underscore = false) by (destruct Hn as [->| ->]; reflexivity).
+  rewrite (lookup_full _ _ _ Hus). unfold full.
+  destruct (env_get n (e ++ [st_globals s])) as [l|] eqn:El.
+  - exists l; split; auto. eapply env_lookup_sound; eauto.
+  - exfalso. rewrite env_get_app in El. destruct (env_get n e); [discriminate|].
+    destruct (env_ok_globals _ _ _ _ He) as (_ & G1 & G2). destruct Hn as [->| ->]; congruence.
+Qed.
+
+Lemma inv_store S G e s s' : inv S G e s -> heap_ok S (st_heap s') -> st_globals s' = st_globals s -> inv S G e s'.
+Proof. intros [_ He] Hh Hg. split; auto. rewrite Hg; auto. Qed.
+
+Lemma global_err_wp P S G e s b msg :
+  genv_ok P G -> inv S G e s -> wp (global_err e b msg s) (fun _ s' => inv S G e s').
+Proof.
+  intros (G1 & G2 & _) Hi. pose proof Hi as [Hh He]. unfold global_err.
+  destruct (lookup_reserved _ _ _ _ _ _ Hi G1 (or_introl eq_refl)) as (l & Hl & Ht).
+  apply wp_bind. rewrite Hl. simpl.
   wbind ltac:(eapply load_wp; eauto). intros v s' [-> Hc]. inversion Hc; subst.
   wbind ltac:(eapply store_wp with (t := TBool); eauto; constructor). intros _ s1 [Hh1 Hg1].
-  assert (He1 : env_ok S G (full e s1)) by (unfold full in *; rewrite Hg1; auto).
-  apply wp_bind. rewrite (lookup_full _ _ _ ne_errmsg_us). simpl.
-  destruct (env_get_sound _ _ _ _ _ He1 G2) as (l2 & Hl2 & Ht2). rewrite Hl2.
+  assert (Hi1 : inv S G e s1) by (eapply inv_store; eauto).
+  destruct (lookup_reserved _ _ _ _ _ _ Hi1 G2 (or_intror eq_refl)) as (l2 & Hl2 & Ht2).
+  apply wp_bind. rewrite Hl2. simpl.
   wbind ltac:(eapply load_wp; eauto). intros v s' [-> Hc2]. inversion Hc2; subst.
   destruct (pieces_str msg); [|exact I].
   eapply wp_mono; [eapply store_wp with (t := TStr); eauto; constructor|]. cbv beta.
-  intros _ s2 [Hh2 Hg2]. split; auto. unfold full in *; rewrite Hg2; auto.
+  intros _ s2 [Hh2 Hg2]. eapply inv_store; eauto.
 Qed.
 
 Lemma arg_ok_basic p a : p <> TGenArr -> p <> TGenMap -> arg_ok p a = true -> a = p.
@@ -888,10 +1241,10 @@ Proof.
   eapply wp_mono; [eapply load_wp; eauto|]. cbv beta. intros v2 s2 [-> _]. reflexivity.
 Qed.
 
-Lemma builtin_sound S G e s name vals m sg ts :
+Lemma builtin_sound P S G e s name vals m sg ts :
   builtin name e vals = Some m -> mem_str name s1_builtins = true -> builtin_sig name = Some sg ->
   sig_args_ok sg ts = true -> Forall2 (fun l t => sfind S l = Some t) vals ts ->
-  genv_ok G -> inv S G e s ->
+  genv_ok P G -> inv S G e s ->
   wp (m s) (bpost S G e (fs_ret sg)).
 Proof.
   intros Hb Hs1 Hsig Hok HF HG Hi. pose proof Hi as [Hh He].
@@ -920,6 +1273,24 @@ Proof.
   - (* len *)
     sig1 Hok HF. wbind ltac:(eapply unwrap_any_wp; eauto). intros v s1 ->.
     destruct v; try exact I; apply bpost_of_alloc_num; auto.
+  - (* has *)
+    unfold sig_args_ok in Hok; cbn [fs_var fs_params] in Hok.
+    apply args2 in Hok as (ta & tb & -> & Hok1 & Hok2).
+    apply arg_ok_basic in Hok2; [subst|discriminate|discriminate]. fa2 HF.
+    wbind ltac:(eapply load_wp; eauto). intros v s1 [-> Hc]. load_s.
+    destruct ta; simpl in Hok1; try discriminate; inversion Hc; subst; apply bpost_of_alloc_bool; auto.
+  - (* del *)
+    unfold sig_args_ok in Hok; cbn [fs_var fs_params] in Hok.
+    apply args2 in Hok as (ta & tb & -> & Hok1 & Hok2).
+    apply arg_ok_basic in Hok2; [subst|discriminate|discriminate]. fa2 HF.
+    wbind ltac:(eapply load_wp; eauto). intros v s1 [-> Hc]. load_s.
+    assert (Hc' : forall om ks, v = HMap om -> cell_ok S (HMap (odel ks om)) ta).
+    { intros om ks ->. inversion Hc; subst.
+      - constructor; auto using Inv_odel, pairs_odel_Forall.
+      - unfold odel. match goal with Hp : pairs om = [] |- _ => rewrite Hp end. simpl. constructor; auto. }
+    destruct ta; simpl in Hok1; try discriminate; inversion Hc; subst;
+      (wbind ltac:(eapply store_wp; eauto); intros _ s1 [Hh1 Hg1];
+       eapply none_val_bpost; eauto using ext_refl; split; auto; unfold full in *; rewrite Hg1; auto).
   - (* typeof *)
     sig1 Hok HF. wbind ltac:(eapply load_wp; eauto). intros v s1 [-> Hc]. inversion Hc; subst.
     apply bpost_of_alloc_str; auto.
@@ -1006,48 +1377,80 @@ Definition exprs_post (S : sty) (G : tyenv) (e : env) (ts : list ty) : list loc 
   fun ls s' => exists S', ext S S' /\ inv S' G e s' /\ Forall2 (fun l t => sfind S' l = Some t) ls ts.
 
 Definition expr_sound (n : nat) : Prop := forall P e x G t S s,
-  ety (p_funcs P) G x = Some t -> s1_expr x = true -> genv_ok G -> inv S G e s ->
+  ety (p_funcs P) G x = Some t -> s1_expr strict x = true -> genv_ok P G -> inv S G e s ->
   wp (eval_expr n P e x s) (epost S G e t).
 
 Definition exprs_sound (n : nat) : Prop := forall P e es G ts S s,
-  etys (p_funcs P) G es = Some ts -> s1_exprs es = true -> Forall (fun t => t <> TNone) ts ->
-  genv_ok G -> inv S G e s ->
+  etys (p_funcs P) G es = Some ts -> s1_exprs strict es = true -> Forall (fun t => t <> TNone) ts ->
+  genv_ok P G -> inv S G e s ->
   wp (eval_exprs n P e es s) (exprs_post S G e ts).
+
+(* the result of a call: a cell of the declared result type, or nothing for a procedure *)
+Definition cpost (S : sty) (G : tyenv) (e : env) (t : ty) : option loc -> state -> Prop :=
+  fun r s' => exists S', ext S S' /\ inv S' G e s' /\
+     match r with Some l => sfind S' l = Some t | None => t = TNone end.
 
 Definition call_sound (n : nat) : Prop := forall P e name args G sg ts S s,
   lookup_sig (p_funcs P) name = Some sg -> etys (p_funcs P) G args = Some ts ->
-  sig_args_ok sg ts = true -> mem_str name s1_builtins = true -> s1_exprs args = true ->
-  genv_ok G -> inv S G e s ->
-  wp (eval_call n P e name args s) (bpost S G e (fs_ret sg)).
+  sig_args_ok sg ts = true -> call_frag name = true -> s1_exprs strict args = true ->
+  genv_ok P G -> inv S G e s ->
+  wp (eval_call n P e name args s) (cpost S G e (fs_ret sg)).
 
-Definition spost (S : sty) (G G' : tyenv) (e : env) : signal * env -> state -> Prop :=
+(* control signals: break only inside a loop; a returned value has the declared result type *)
+Definition sig_ok (S : sty) (ret : option ty) (il : bool) (sig : signal) : Prop :=
+  match sig with
+  | SigNone => True
+  | SigBreak => il = true
+  | SigReturn None => ret = Some TNone
+  | SigReturn (Some l) => exists t, ret = Some t /\ sfind S l = Some t
+  end.
+
+(* statements that always terminate the function do end with a control signal *)
+Definition must_ret (rt : bool) (sig : signal) : Prop :=
+  rt = true -> sig = SigBreak \/ exists v, sig = SigReturn v.
+
+(* the top-level frame stays inside the program's global typing *)
+Definition gsub (G : tyenv) : Prop := match G with [gs] => sframe_sub gs Gg | _ => True end.
+
+Definition spost (S : sty) (G G' : tyenv) (e : env) (ret : option ty) (il rt : bool)
+  : signal * env -> state -> Prop :=
   fun r s' => exists S' G'', ext S S' /\ heap_ok S' (st_heap s') /\ grows G G'' /\
-     env_ok S' G'' (full (snd r) s') /\ List.length (snd r) = List.length e /\ (fst r = SigNone -> G'' = G').
+     env_ok S' G'' (snd r) (st_globals s') /\ List.length (snd r) = List.length e /\
+     (fst r = SigNone -> G'' = G') /\ sig_ok S' ret il (fst r) /\ must_ret rt (fst r).
 
 Definition stmt_sound (n : nat) : Prop := forall P ret il e st G G' S s,
-  wt_stmt (p_funcs P) ret il G st = Some G' -> s1_stmt st = true -> genv_ok G -> inv S G e s ->
-  wp (exec_stmt n P e st s) (spost S G G' e).
+  wt_stmt (p_funcs P) ret il G st = Some G' -> s1_stmt strict st = true -> genv_ok P G -> inv S G e s ->
+  gsub G' ->
+  wp (exec_stmt n P e st s) (spost S G G' e ret il (stmt_returns st)).
 
 Definition stmts_sound (n : nat) : Prop := forall P ret il e l G G' S s,
-  wt_stmts (p_funcs P) ret il G l = Some G' -> s1_stmts l = true -> genv_ok G -> inv S G e s ->
-  wp (exec_stmts n P e l s) (spost S G G' e).
+  wt_stmts (p_funcs P) ret il G l = Some G' -> s1_stmts strict l = true -> genv_ok P G -> inv S G e s ->
+  gsub G' ->
+  wp (exec_stmts n P e l s) (spost S G G' e ret il (always_returns l)).
 
 Definition block_sound (n : nat) : Prop := forall P ret il e l G G' S s,
-  wt_stmts (p_funcs P) ret il G l = Some G' -> s1_stmts l = true -> genv_ok G -> inv S G e s ->
-  wp (exec_block n P e l s) (spost S G G' e).
+  wt_stmts (p_funcs P) ret il G l = Some G' -> s1_stmts strict l = true -> genv_ok P G -> inv S G e s ->
+  gsub G' ->
+  wp (exec_block n P e l s) (spost S G G' e ret il (always_returns l)).
 
-Definition kpost {A} (S : sty) (G : tyenv) (e : env) : A * env -> state -> Prop :=
-  fun r s' => exists S', ext S S' /\ inv S' G (snd r) s' /\ List.length (snd r) = List.length e.
+Definition kpost (S : sty) (G : tyenv) (e : env) (ret : option ty) (il : bool) : signal * env -> state -> Prop :=
+  fun r s' => exists S', ext S S' /\ inv S' G (snd r) s' /\ List.length (snd r) = List.length e /\
+                         sig_ok S' ret il (fst r).
+
+Definition kposto (S : sty) (G : tyenv) (e : env) (ret : option ty) (il rt : bool)
+  : option signal * env -> state -> Prop :=
+  fun r s' => exists S', ext S S' /\ inv S' G (snd r) s' /\ List.length (snd r) = List.length e /\
+     match fst r with Some sig => sig_ok S' ret il sig /\ must_ret rt sig | None => True end.
 
 Definition cond_sound (n : nat) : Prop := forall P ret il e c body G Gb S s,
   ety (p_funcs P) (push G) c = Some TBool -> wt_stmts (p_funcs P) ret il (push G) body = Some Gb ->
-  s1_expr c = true -> s1_stmts body = true -> genv_ok G -> inv S G e s ->
-  wp (exec_cond n P e c body s) (kpost S G e).
+  s1_expr strict c = true -> s1_stmts strict body = true -> genv_ok P G -> inv S G e s ->
+  wp (exec_cond n P e c body s) (kposto S G e ret il (always_returns body)).
 
 Definition while_sound (n : nat) : Prop := forall P ret e c body G Gb S s,
   ety (p_funcs P) (push G) c = Some TBool -> wt_stmts (p_funcs P) ret true (push G) body = Some Gb ->
-  s1_expr c = true -> s1_stmts body = true -> genv_ok G -> inv S G e s ->
-  wp (exec_while n P e c body s) (kpost S G e).
+  s1_expr strict c = true -> s1_stmts strict body = true -> genv_ok P G -> inv S G e s ->
+  wp (exec_while n P e c body s) (kpost S G e ret false).
 
 (* the loop variable (None: `for range ...`) and what the ranger yields *)
 Definition rg_ok (S : sty) (named : option ty) (rg : ranger) : Prop :=
@@ -1056,7 +1459,8 @@ Definition rg_ok (S : sty) (named : option ty) (rg : ranger) : Prop :=
   | RgArr a _ => (exists u, sfind S a = Some (TArr u) /\ (named = None \/ named = Some u))
                  \/ sfind S a = Some TEmptyArr
   | RgStr _ _ => named = None \/ named = Some TStr
-  | RgMap _ _ => False
+  | RgMap m _ => ((exists u, sfind S m = Some (TMap u)) \/ sfind S m = Some TEmptyMap)
+                 /\ (named = None \/ named = Some TStr)
   end.
 
 Definition for_frame (named : option ty) (var : str) (fr0 : sframe) : Prop :=
@@ -1066,10 +1470,10 @@ Definition for_frame (named : option ty) (var : str) (fr0 : sframe) : Prop :=
   end.
 
 Definition for_sound (n : nat) : Prop := forall P ret e var rg body G fr0 named Gb S s,
-  wt_stmts (p_funcs P) ret true (push (fr0 :: G)) body = Some Gb -> s1_stmts body = true ->
-  genv_ok (fr0 :: G) -> inv S (fr0 :: G) e s ->
+  wt_stmts (p_funcs P) ret true (push (fr0 :: G)) body = Some Gb -> s1_stmts strict body = true ->
+  genv_ok P (fr0 :: G) -> inv S (fr0 :: G) e s ->
   for_frame named var fr0 -> rg_ok S named rg ->
-  wp (exec_for n P e var rg body s) (kpost S (fr0 :: G) e).
+  wp (exec_for n P e var rg body s) (kpost S (fr0 :: G) e ret false).
 
 Definition all_sound (n : nat) : Prop :=
   expr_sound n /\ exprs_sound n /\ call_sound n /\ stmt_sound n /\ stmts_sound n /\ block_sound n /\
@@ -1086,11 +1490,10 @@ Lemma epost_ret S G e t l s : inv S G e s -> sfind S l = Some t -> epost S G e t
 Proof. intros. exists S; auto using ext_refl. Qed.
 
 Lemma assert_shape u t :
-  ty_s1in u = true -> ty_proper t = true -> ty_eqb (ty_shape u) (ty_shape t) = true -> u = t.
+  ty_value u = true -> ty_proper t = true -> ty_eqb (ty_shape u) (ty_shape t) = true -> u = t.
 Proof.
-  revert t; induction u; intros t Hu Ht H; destruct t; simpl in *; try discriminate; auto.
-  - f_equal; auto.
-  - destruct t; simpl in *; discriminate.
+  revert t; induction u; intros t Hu Ht H; destruct t; simpl in *; try discriminate; auto;
+    try (f_equal; auto; fail); destruct t; simpl in *; discriminate.
 Qed.
 
 (* ---------- binary operators ---------- *)
@@ -1151,10 +1554,10 @@ Qed.
 
 Lemma bin_arr_wp S0 S G e s op xs lb ta tb t :
   ext S0 S -> inv S G e s -> bin_ty op ta tb = Some t -> op <> BEq -> op <> BNotEq ->
-  cell_ok S (HArr xs) ta -> sfind S lb = Some tb -> ty_ok1 t = true -> ty_s1in t = true ->
+  cell_ok S (HArr xs) ta -> sfind S lb = Some tb -> ty_ok1 t = true ->
   wp (bin_arr op xs lb s) (epost S0 G e t).
 Proof.
-  intros E0 Hi Ht N1 N2 Hxs Hlb Hok Hs1. pose proof Hi as [Hh He].
+  intros E0 Hi Ht N1 N2 Hxs Hlb Hok. pose proof Hi as [Hh He].
   destruct op; try congruence;
     try (inversion Hxs; subst; simpl in Ht; destruct tb; discriminate).
   - (* + *)
@@ -1162,9 +1565,9 @@ Proof.
     wbind ltac:(eapply load_wp; eauto). intros rv s1 [-> Hrv].
     inversion Hxs; subst; simpl in Ht; destruct tb; try discriminate; inversion Hrv; subst.
     + destruct (ty_eqb u tb) eqn:Eu; [|discriminate]. apply ty_eqb_eq in Eu; subst tb.
-      inversion Ht; subst. eapply concat_wp; eauto. simpl in Hs1. intros ->; discriminate.
-    + inversion Ht; subst. eapply concat_wp; eauto. simpl in Hs1. intros ->; discriminate.
-    + inversion Ht; subst. eapply concat_wp; eauto. simpl in Hs1. intros ->; discriminate.
+      inversion Ht; subst. eapply concat_wp; eauto. eapply ok1_elem; eauto.
+    + inversion Ht; subst. eapply concat_wp; eauto. eapply ok1_elem; eauto.
+    + inversion Ht; subst. eapply concat_wp; eauto. eapply ok1_elem; eauto.
     + inversion Ht; subst. unfold bindM at 1. unfold depth_fuel at 1. cbn [mapM].
       unfold bindM, ret. eapply alloc_epost; eauto; constructor.
   - (* * *)
@@ -1175,9 +1578,7 @@ Proof.
     destruct (n <? 0); [exact I|].
     match goal with |- context [if ?c then _ else _] => destruct c; [exact I|] end.
     unfold bindM at 1. unfold depth_fuel at 1.
-    simpl in Hs1.
-    assert (Hd : (ty_depth u < value_depth)%nat).
-    { pose proof value_depth_big. apply ok1_small, ty_small_le in Hok. simpl in Hok. lia. }
+    destruct (ok1_elem (TArr u) u (or_introl eq_refl) Hok) as [Hoku Hnu].
     wbind ltac:(eapply (mapM_wp (fun _ : unit => mapM (deep_copy value_depth) xs)
                           (fun S _ => Forall (fun l => sfind S l = Some u) xs)
                           (fun S _ b => Forall (fun l => sfind S l = Some u) b) (st_globals s))).
@@ -1187,7 +1588,7 @@ Proof.
       eapply wp_mono.
       * eapply (mapM_wp (deep_copy value_depth) (fun S a => sfind S a = Some u)
                   (fun S a b => sfind S b = Some u) (st_globals s)); eauto.
-        intros S2 s2 a Hh2 Hg2 Ha. rewrite <- Hg2. eapply deep_copy_wp; eauto.
+        intros S2 s2 a Hh2 Hg2 Ha. rewrite <- Hg2. eapply deep_copy_wp; eauto. intros Hs. eauto using deep_ok_of_ok1.
       * cbv beta. intros b s2 (S2 & E2 & Hh2 & Hg2 & HF2). hdone S2. eapply Forall2_out; eauto.
     + exact Hh.
     + reflexivity.
@@ -1207,9 +1608,38 @@ Proof.
   intros [->| ->]; simpl; destruct (ty_compat a b); try discriminate; intros H; inversion H; auto.
 Qed.
 
+Lemma concat_nils (parts : list (list loc)) : Forall (fun b => b = []) parts -> List.concat parts = [].
+Proof. induction 1; simpl; auto. subst. auto. Qed.
+
+(* + and * on the untyped []: the result is the empty array, at whatever array type the parser inferred *)
+Lemma bin_arr_empty_wp S0 S G e s op lb tb t :
+  ext S0 S -> inv S G e s -> bin_empty op TEmptyArr tb t = true -> sfind S lb = Some tb -> ty_ok1 t = true ->
+  wp (bin_arr op [] lb s) (epost S0 G e t).
+Proof.
+  intros E0 Hi Hbe Hlb Hok. pose proof Hi as [Hh He].
+  assert (Hcell : cell_ok S (HArr []) t).
+  { destruct op, tb; simpl in Hbe; try discriminate; destruct t; try discriminate; constructor; constructor. }
+  destruct op; simpl in Hbe; try discriminate; destruct tb; try discriminate.
+  - cbn [bin_arr]. wbind ltac:(eapply load_wp; eauto). intros rv s1 [-> Hrv]. inversion Hrv; subst.
+    unfold bindM at 1. unfold depth_fuel at 1. cbn [mapM]. unfold bindM, ret.
+    eapply alloc_epost; eauto.
+  - cbn [bin_arr]. wbind ltac:(eapply load_num_wp; eauto). intros f s1 ->.
+    destruct (go_int_exact f) as [n|]; [|exact I].
+    destruct (n <? 0); [exact I|].
+    match goal with |- context [if ?c then _ else _] => destruct c; [exact I|] end.
+    unfold bindM at 1. unfold depth_fuel at 1. cbn [mapM].
+    wbind ltac:(eapply (mapM_wp (fun _ : unit => ret (@nil loc)) (fun _ _ => True)
+                          (fun _ _ b => b = []) (st_globals s)); eauto).
+    + intros S1 s1 _ Hh1 Hg1 _. apply wp_ret. hdone S1.
+    + clear. induction (repeat tt (Z.to_nat n)); constructor; auto.
+    + intros parts s2 (S2 & E2 & Hh2 & Hg2 & HF2).
+      rewrite concat_nils by (clear -HF2; induction HF2; constructor; auto).
+      eapply (alloc_epost S0 S2); eauto using ext_trans, cell_ok_ext. eapply inv_step; eauto.
+Qed.
+
 Lemma ebin_tail S0 S G e s op la lb ta tb t :
   ext S0 S -> inv S G e s -> sfind S la = Some ta -> sfind S lb = Some tb ->
-  bin_ty op ta tb = Some t -> ty_ok1 t = true -> ty_s1in t = true ->
+  (bin_ty op ta tb = Some t \/ bin_empty op ta tb t = true) -> ty_ok1 t = true ->
   wp ((match op with
        | BEq => let* d := depth_fuel in let* r := equals d la lb in alloc (HBool r)
        | BNotEq => let* d := depth_fuel in let* r := equals d la lb in alloc (HBool (negb r))
@@ -1224,7 +1654,21 @@ Lemma ebin_tail S0 S G e s op la lb ta tb t :
            end
        end) s) (epost S0 G e t).
 Proof.
-  intros E0 Hi Hla Hlb Hbin Hok Hs1. pose proof Hi as [Hh He].
+  intros E0 Hi Hla Hlb [Hbin|Hbe] Hok; pose proof Hi as [Hh He].
+  2:{ (* an operator on the untyped [] *)
+    assert (ta = TEmptyArr) by (destruct op, ta; simpl in Hbe; try discriminate; auto). subst ta.
+    assert (Hne : op = BPlus \/ op = BAsterisk) by (destruct op; simpl in Hbe; try discriminate; auto).
+    assert (W : wp ((let* va := load la in
+                     match va with
+                     | HNum y => let* z := load_num lb in bin_num op y z
+                     | HStr y => let* z := load_str lb in bin_str op y z
+                     | HBool y => let* z := load_bool lb in bin_bool op y z
+                     | HArr xs => bin_arr op xs lb
+                     | _ => internal "unknown operation (binary)"
+                     end) s) (epost S0 G e t)).
+    { wbind ltac:(eapply load_wp; eauto). intros va s1 [-> Hva]. inversion Hva; subst.
+      eapply bin_arr_empty_wp; eauto. }
+    destruct Hne as [->| ->]; exact W. }
   assert (EQ : forall b : bool, (op = BEq \/ op = BNotEq) ->
             wp ((let* d := depth_fuel in let* r := equals d la lb in alloc (HBool (if b then negb r else r))) s)
                (epost S0 G e t)).
@@ -1253,6 +1697,8 @@ Proof.
     - destruct op; simpl in Hbin; congruence.
     - eapply bin_arr_wp; eauto.
     - eapply bin_arr_wp; eauto.
+    - destruct op; simpl in Hbin; congruence.
+    - destruct op; simpl in Hbin; congruence.
     - destruct op; simpl in Hbin; congruence. }
   destruct op; try (apply OTHER; discriminate).
   - exact (EQ false (or_introl eq_refl)).
@@ -1266,7 +1712,7 @@ Section ExprStep.
   Context (f : nat) (IHe : expr_sound f) (IHes : exprs_sound f) (IHc : call_sound f).
 
   Lemma eval_opt_wp P e o G S s :
-    etyo (p_funcs P) G o = true -> s1_opt o = true -> genv_ok G -> inv S G e s ->
+    etyo (p_funcs P) G o = true -> s1_opt strict o = true -> genv_ok P G -> inv S G e s ->
     wp ((match o with
          | Some y => let* l := eval_expr f P e y in ret (Some l)
          | None => ret None
@@ -1280,22 +1726,52 @@ Section ExprStep.
     - apply wp_ret. exists S; repeat split; auto using ext_refl; try apply Hi. discriminate.
   Qed.
 
+  Lemma emap_go_wp P e G u :
+    genv_ok P G -> u <> TNone ->
+    forall ps ts s S,
+      etyps (p_funcs P) G ps = Some ts -> forallb (ty_eqb u) ts = true -> s1_pairs strict ps = true -> inv S G e s ->
+      wp ((fix go (ps : list (str * expr)) : M (list (str * loc)) :=
+             match ps with
+             | [] => ret []
+             | (k, a) :: t0 =>
+                 let* l := eval_expr f P e a in
+                 let* c := copy_or_ref value_depth l in
+                 let* r := go t0 in ret ((k, c) :: r)
+             end) ps s)
+         (fun vals s' => exists S', ext S S' /\ inv S' G e s' /\ map fst vals = map fst ps /\
+                                    Forall (fun kv => sfind S' (snd kv) = Some u) vals).
+  Proof.
+    intros HG Hu. induction ps as [|[k a] ps IHp]; intros ts s S Hty Hall Hs1 Hi.
+    - apply wp_ret. exists S; split; [apply ext_refl|split; [exact Hi|split; [reflexivity|constructor]]].
+    - cbn [etyps] in Hty. cbn [s1_pairs] in Hs1. apply andb_true_iff in Hs1 as [Hs1a Hs1b].
+      destruct (ety (p_funcs P) G a) as [t|] eqn:Ea; [|discriminate].
+      destruct (etyps (p_funcs P) G ps) as [ts'|] eqn:Eps; inversion Hty; subst.
+      simpl in Hall. apply andb_true_iff in Hall as [Hall1 Hall2]. apply ty_eqb_eq in Hall1; subst t.
+      wbind ltac:(eapply IHe; eauto). intros l s1 (S1 & E1 & Hi1 & Hl1).
+      wbind ltac:(eapply copy_or_ref_wp; eauto; apply Hi1). intros c s2 (S2 & E2 & Hh2 & Hg2 & Hc).
+      assert (Hi2 : inv S2 G e s2) by (eapply inv_step; eauto).
+      wbind ltac:(eapply (IHp ts' s2 S2); eauto). intros r s3 (S3 & E3 & Hi3 & Hk3 & HF3).
+      apply wp_ret. exists S3; split; [eauto using ext_trans|split; [exact Hi3|split]].
+      + simpl. congruence.
+      + constructor; auto.
+  Qed.
+
   Lemma expr_step : expr_sound (S f).
   Proof.
     intros P e x G t S s Hty Hs1 HG Hi.
     destruct x; cbn [eval_expr];
       (apply wp_bind; eapply tick_inv; [exact Hi|]; clear s Hi; intros s Hi); pose proof Hi as [Hh He].
-    - (* ENum *) inversion Hty; subst. eapply alloc_epost; [apply ext_refl|exact Hi|constructor|reflexivity].
-    - inversion Hty; subst. eapply alloc_epost; [apply ext_refl|exact Hi|constructor|reflexivity].
-    - inversion Hty; subst. eapply alloc_epost; [apply ext_refl|exact Hi|constructor|reflexivity].
+    - (* ENum *) inversion Hty; subst. eapply alloc_epost; [apply ext_refl|exact Hi|constructor|auto].
+    - inversion Hty; subst. eapply alloc_epost; [apply ext_refl|exact Hi|constructor|auto].
+    - inversion Hty; subst. eapply alloc_epost; [apply ext_refl|exact Hi|constructor|auto].
     - (* EVar *)
       cbn [ety] in Hty.
       destruct (negb (str_eqb name underscore) && opt_ty_eqb (slookup name G) t0 && ty_ann t0) eqn:E; [|discriminate].
       inversion Hty; subst. apply andb_true_iff in E as [E E3]. apply andb_true_iff in E as [E1 E2].
       apply negb_true_iff in E1. apply opt_ty_eqb_eq in E2.
       apply wp_bind. rewrite (lookup_full _ _ _ E1). simpl.
-      destruct (env_get_sound _ _ _ _ _ He E2) as (l & Hl & Ht). rewrite Hl.
-      apply wp_ret. apply epost_ret; auto.
+      destruct (env_get name (full e s)) as [l|] eqn:El; [|exact I].
+      apply wp_ret. apply epost_ret; auto. eapply env_lookup_sound; eauto.
     - (* EAny *)
       cbn [ety] in Hty. cbn [s1_expr] in Hs1. apply andb_true_iff in Hs1 as [Hs1a Hs1b].
       destruct (opt_ty_eqb (ety (p_funcs P) G x) t0 && negb (is_any t0) && ty_ann t0) eqn:E; [|discriminate].
@@ -1303,8 +1779,10 @@ Section ExprStep.
       apply opt_ty_eqb_eq in E1.
       wbind ltac:(eapply IHe; eauto). intros l s1 (S1 & E1' & Hi1 & Hl1).
       wbind ltac:(eapply load_wp; eauto; apply Hi1). intros v s2 [-> Hc].
-      destruct v; try (eapply alloc_epost; [exact E1'|exact Hi1|constructor; auto|reflexivity]).
-      inversion Hc; subst. discriminate.
+      assert (N1 : t0 <> TAny) by (intros ->; discriminate).
+      assert (N2 : t0 <> TNone) by (apply ty_value_not_none, ty_ann_value; auto).
+      destruct v; try (eapply alloc_epost; [exact E1'|exact Hi1|constructor; auto|auto]).
+      inversion Hc; subst. congruence.
     - (* EArr *)
       rewrite ety_EArr in Hty. rewrite s1_expr_EArr in Hs1. apply andb_true_iff in Hs1 as [Hs1a Hs1b].
       destruct es as [|x es].
@@ -1312,7 +1790,7 @@ Section ExprStep.
         inversion HF; subst.
         destruct t0; try discriminate.
         * destruct (ty_ann (TArr t0)) eqn:Ea; inversion Hty; subst.
-          eapply alloc_epost; eauto using ty_ann_s1in_ok1. constructor; constructor.
+          eapply alloc_epost; eauto using ty_ann_fr_ok1. constructor; constructor.
         * inversion Hty; subst. eapply alloc_epost; eauto. constructor.
       + destruct t0; try discriminate.
         destruct (etys (p_funcs P) G (x :: es)) as [ts|] eqn:Ets; [|discriminate].
@@ -1323,39 +1801,64 @@ Section ExprStep.
           induction ts; constructor; simpl in Ea1; apply andb_true_iff in Ea1 as [H1 H2]; auto.
           apply ty_eqb_eq in H1; subst. auto using ty_value_not_none. }
         wbind ltac:(eapply IHes; eauto). intros ls s1 (S1 & E1 & Hi1 & HF).
-        eapply alloc_epost; eauto using ty_ann_s1in_ok1.
+        eapply alloc_epost; eauto using ty_ann_fr_ok1.
         constructor. eapply Forall2_same_ty; eauto.
-    - (* EMap *) discriminate.
+    - (* EMap *)
+      rewrite ety_EMap in Hty. rewrite s1_expr_EMap in Hs1. apply andb_true_iff in Hs1 as [Hs1a Hs1b].
+      apply wp_depth_fuel.
+      destruct pairs as [|p0 ps0].
+      + cbn [bindM]. unfold bindM at 1. cbn [ret].
+        destruct t0; try discriminate.
+        * destruct (ty_ann (TMap t0)) eqn:Ea; inversion Hty; subst.
+          eapply alloc_epost; eauto using ty_ann_fr_ok1, ext_refl. constructor; [apply Inv_oempty|constructor].
+        * inversion Hty; subst. eapply alloc_epost; eauto using ext_refl. constructor; reflexivity.
+      + destruct t0; try discriminate.
+        destruct (etyps (p_funcs P) G (p0 :: ps0)) as [ts|] eqn:Ets; [|discriminate].
+        destruct (forallb (ty_eqb t0) ts && ty_ann (TMap t0) && keys_nodup (map fst (p0 :: ps0))) eqn:Ea;
+          inversion Hty; subst.
+        apply andb_true_iff in Ea as [Ea Ea3]. apply andb_true_iff in Ea as [Ea1 Ea2].
+        assert (Hu : t0 <> TNone).
+        { apply ty_ann_value in Ea2. simpl in Ea2. auto using ty_value_not_none. }
+        wbind ltac:(eapply (emap_go_wp P e G t0 HG Hu (p0 :: ps0)); eauto).
+        intros vals s1 (S1 & E1 & Hi1 & Hk1 & HF1).
+        eapply alloc_epost; eauto using ty_ann_fr_ok1.
+        constructor; simpl; auto.
+        apply keys_nodup_NoDup in Ea3.
+        unfold Inv, keys; simpl. rewrite Hk1. repeat split; auto.
     - (* ECall *)
       rewrite ety_ECall in Hty. rewrite s1_expr_ECall in Hs1. apply andb_true_iff in Hs1 as [Hs1a Hs1b].
       destruct (lookup_sig (p_funcs P) name) as [sg|] eqn:Esg; [|discriminate].
       destruct (etys (p_funcs P) G args) as [ts|] eqn:Ets; [|discriminate].
       destruct (sig_args_ok sg ts && ty_eqb (fs_ret sg) t0) eqn:Ea; inversion Hty; subst.
       apply andb_true_iff in Ea as [Ea1 Ea2]. apply ty_eqb_eq in Ea2.
-      wbind ltac:(eapply IHc; eauto). intros r s1 (S1 & l & -> & E1 & Hi1 & Hl1).
-      apply wp_ret. exists S1; repeat split; auto; try apply Hi1. congruence.
+      wbind ltac:(eapply IHc; eauto). intros r s1 (S1 & E1 & Hi1 & Hr).
+      destruct r as [l|].
+      + apply wp_ret. exists S1; split; [auto|split; [exact Hi1|congruence]].
+      + rewrite <- Ea2, Hr. eapply alloc_epost; eauto. constructor.
     - (* EUn *)
       cbn [ety] in Hty. cbn [s1_expr] in Hs1.
       destruct (ety (p_funcs P) G x) as [tx|] eqn:Ex; [|destruct op; discriminate].
       wbind ltac:(eapply IHe; eauto). intros l s1 (S1 & E1 & Hi1 & Hl1).
       wbind ltac:(eapply load_wp; eauto; apply Hi1). intros v s2 [-> Hc].
       destruct op; destruct tx; try discriminate; inversion Hty; subst; inversion Hc; subst;
-        (eapply alloc_epost; [exact E1|exact Hi1|constructor|reflexivity]).
+        (eapply alloc_epost; [exact E1|exact Hi1|constructor|auto]).
     - (* EBin *)
       cbn [ety] in Hty. cbn [s1_expr] in Hs1.
       apply andb_true_iff in Hs1 as [Hs1 Hs1c]. apply andb_true_iff in Hs1 as [Hs1a Hs1b].
       destruct (ety (p_funcs P) G x1) as [ta|] eqn:Ea; [|discriminate].
       destruct (ety (p_funcs P) G x2) as [tb|] eqn:Eb; [|discriminate].
-      destruct (opt_ty_eqb (bin_ty op ta tb) t0 && ty_ann t0) eqn:Ec; inversion Hty; subst.
-      apply andb_true_iff in Ec as [Ec1 Ec2]. apply opt_ty_eqb_eq in Ec1.
-      pose proof (ty_ann_s1in_ok1 _ Ec2 Hs1a) as Hok.
+      destruct ((opt_ty_eqb (bin_ty op ta tb) t0 || bin_empty op ta tb t0) && ty_ann t0) eqn:Ec; inversion Hty; subst.
+      apply andb_true_iff in Ec as [Ec1 Ec2].
+      assert (Hb : bin_ty op ta tb = Some t \/ bin_empty op ta tb t = true).
+      { apply orb_true_iff in Ec1 as [H|H]; [left; apply opt_ty_eqb_eq; auto|right; auto]. }
+      pose proof (ty_ann_fr_ok1 _ Ec2 Hs1a) as Hok.
       wbind ltac:(eapply IHe; eauto). intros la s1 (S1 & E1 & Hi1 & Hla).
       wbind ltac:(eapply load_wp; eauto; apply Hi1). intros va0 s2 [-> Hva0].
       match goal with |- context [if ?c then ret la else _] => destruct c eqn:Esh end.
       + (* short circuit: the left operand is a bool *)
         assert (ta = TBool /\ tb = TBool) as [-> ->].
         { destruct op; try discriminate; destruct va0; try discriminate; inversion Hva0; subst;
-            destruct tb; simpl in Ec1; try discriminate; auto. }
+            destruct Hb as [Hb|Hb]; destruct tb; simpl in Hb; try discriminate; auto. }
         apply wp_bind. apply wp_ret.
         eapply (ebin_tail S S1); eauto.
       + wbind ltac:(eapply (IHe P e x2 G tb S1); eauto). intros lb s2 (S2 & E2 & Hi2 & Hlb).
@@ -1387,17 +1890,23 @@ Section ExprStep.
         apply wp_ret. exists S2; split; [eauto using ext_trans|split; [exact Hi2|]].
         match goal with HF : Forall _ els |- _ => rewrite Forall_forall in HF; apply HF end.
         eapply nth_error_In; eauto.
-      + (* map: not a Stage-1 type *)
-        pose proof (ho_tys _ _ Hh2 _ _ (E2 _ _ Hla)) as Hbad. discriminate.
+      + (* map *)
+        destruct (ty_eqb ta t0 && ty_ann t0) eqn:Et; inversion Hty; subst.
+        apply andb_true_iff in Et as [Et1 Et2]. apply ty_eqb_eq in Et1; subst ta.
+        inversion Hva; subst.
+        wbind ltac:(eapply load_wp; eauto). intros vi s3 [-> Hvi]. inversion Hvi; subst.
+        unfold oget. destruct (plookup x (pairs m)) as [l|] eqn:El; [|exact I].
+        apply wp_ret. exists S2; split; [eauto using ext_trans|split; [exact Hi2|]].
+        eauto using map_entry_typed.
     - (* ESlice *)
       rewrite ety_ESlice in Hty. rewrite s1_expr_ESlice in Hs1.
       apply andb_true_iff in Hs1 as [Hs1 Hs1d]. apply andb_true_iff in Hs1 as [Hs1 Hs1c].
       apply andb_true_iff in Hs1 as [Hs1a Hs1b].
       destruct (ety (p_funcs P) G x) as [ta|] eqn:Ea; [|discriminate].
       assert (Hc : ty_eqb ta t0 && etyo (p_funcs P) G lo && etyo (p_funcs P) G hi = true /\ t = t0
-                   /\ (ta = TStr \/ exists u, ta = TArr u)).
+                   /\ (ta = TStr \/ (exists u, ta = TArr u) \/ ta = TEmptyArr)).
       { destruct ta; try discriminate;
-          (destruct (ty_eqb _ t0 && etyo (p_funcs P) G lo && etyo (p_funcs P) G hi); inversion Hty; eauto). }
+          (destruct (ty_eqb _ t0 && etyo (p_funcs P) G lo && etyo (p_funcs P) G hi); inversion Hty; eauto 6). }
       destruct Hc as (Hc & -> & Hta). apply andb_true_iff in Hc as [Hc Hc3]. apply andb_true_iff in Hc as [Hc1 Hc2].
       apply ty_eqb_eq in Hc1; subst ta.
       wbind ltac:(eapply IHe; eauto). intros la s1 (S1 & E1 & Hi1 & Hla).
@@ -1405,18 +1914,34 @@ Section ExprStep.
       wbind ltac:(eapply eval_opt_wp; eauto). intros lhi s3 (S3 & E3 & Hi3 & Hhi).
       pose proof Hi3 as [Hh3 He3].
       wbind ltac:(eapply load_wp; [exact Hh3|]; eauto). intros va s4 [-> Hva].
-      destruct Hta as [->|(u & ->)]; inversion Hva; subst.
+      destruct Hta as [->|[(u & ->)| ->]]; inversion Hva; subst.
       + wbind ltac:(eapply slice_bounds_wp; eauto). intros [a b] s4 ->.
         eapply (alloc_epost S S3); eauto using ext_trans. constructor.
       + wbind ltac:(eapply slice_bounds_wp; eauto). intros [a b] s4 ->.
-        apply wp_depth_fuel. simpl in Hs1a.
-        wbind ltac:(eapply mapM_copy_wp with (u := u); eauto using Forall_firstn, Forall_skipn, ty_s1in_not_none).
+        apply wp_depth_fuel.
+        assert (Hnu : u <> TNone).
+        { eapply (ok1_elem (TArr u) u); [left; reflexivity|]. eapply ho_tys; [exact Hh3|]; eauto. }
+        wbind ltac:(eapply mapM_copy_wp with (u := u); eauto using Forall_firstn, Forall_skipn).
         intros els' s5 (S5 & E5 & Hh5 & Hg5 & HF5).
         eapply (alloc_epost S S5); eauto using ext_trans.
         * eapply inv_step; eauto.
         * constructor; auto.
         * eapply ho_tys; [exact Hh3|]. eauto.
-    - (* EDot *) discriminate.
+      + (* a slice of the untyped [] *)
+        wbind ltac:(eapply slice_bounds_wp; eauto). intros [a b] s4 ->.
+        apply wp_depth_fuel.
+        rewrite firstn_skipn_nil. cbn [mapM]. unfold bindM at 1. cbn [ret].
+        eapply (alloc_epost S S3); eauto using ext_trans; constructor.
+    - (* EDot *)
+      cbn [ety] in Hty. cbn [s1_expr] in Hs1. apply andb_true_iff in Hs1 as [Hs1a Hs1b].
+      destruct (ety (p_funcs P) G x) as [ta|] eqn:Ea; [|discriminate].
+      destruct ta; try discriminate.
+      destruct (ty_eqb ta t0 && ty_ann t0) eqn:Et; inversion Hty; subst.
+      apply andb_true_iff in Et as [Et1 Et2]. apply ty_eqb_eq in Et1; subst ta.
+      wbind ltac:(eapply IHe; eauto). intros la s1 (S1 & E1 & Hi1 & Hla).
+      wbind ltac:(eapply load_wp; eauto; apply Hi1). intros va s2 [-> Hva]. inversion Hva; subst.
+      unfold oget. destruct (plookup key (pairs m)) as [l|] eqn:El; [|exact I].
+      apply wp_ret. exists S1; split; [auto|split; [exact Hi1|]]. eauto using map_entry_typed.
     - (* EGroup *) cbn [ety] in Hty. cbn [s1_expr] in Hs1. eapply IHe; eauto.
     - (* EAssert *)
       cbn [ety] in Hty. cbn [s1_expr] in Hs1. apply andb_true_iff in Hs1 as [Hs1a Hs1b].
@@ -1427,8 +1952,9 @@ Section ExprStep.
       wbind ltac:(eapply IHe; eauto). intros la s1 (S1 & E1 & Hi1 & Hla).
       wbind ltac:(eapply load_wp; eauto; apply Hi1). intros va s2 [-> Hva]. inversion Hva; subst.
       destruct (ty_eqb (ty_shape u) (ty_shape t)) eqn:Esh; [|exact I].
-      apply assert_shape in Esh; auto. subst u.
-      apply wp_ret. exists S1; auto.
+      apply assert_shape in Esh; auto.
+      2:{ destruct (ok1_dyn _ (ho_tys _ _ (proj1 Hi1) _ _ H1)); congruence. }
+      subst u. apply wp_ret. exists S1; auto.
   Qed.
 End ExprStep.
 
@@ -1468,16 +1994,6 @@ Section ExprsStep.
       constructor; auto.
   Qed.
 
-  Lemma call_step : call_sound (S f).
-  Proof.
-    intros P e name args G sg ts S s Hsig Hty Hok Hm Hs1 HG Hi. cbn [eval_call].
-    destruct (s1_name_facts name (p_funcs P) Hm) as (Ht & Hl & Hn).
-    wbind ltac:(eapply IHes; eauto using sig_args_ok_value). intros vals s1 (S1 & E1 & Hi1 & HF).
-    rewrite Ht. destruct (builtin name e vals) as [m|] eqn:Eb.
-    - eapply wp_mono; [eapply builtin_sound; eauto; rewrite <- Hl; eauto|]. cbv beta.
-      intros r s2 (S2 & l & -> & E2 & Hi2 & Hl2). exists S2, l; repeat split; eauto using ext_trans; apply Hi2.
-    - apply builtin_none in Eb. congruence.
-  Qed.
 End ExprsStep.
 
 (* ---------- statements: checker equations ---------- *)
@@ -1492,7 +2008,14 @@ Section CondsWt.
 End CondsWt.
 
 Fixpoint conds_s1 (cs : list (expr * list stmt)) : bool :=
-  match cs with [] => true | (c, b) :: r => s1_expr c && s1_stmts b && conds_s1 r end.
+  match cs with [] => true | (c, b) :: r => s1_expr strict c && s1_stmts strict b && conds_s1 r end.
+
+Fixpoint conds_ret (cs : list (expr * list stmt)) : bool :=
+  match cs with [] => true | (_, b) :: t => always_returns b && conds_ret t end.
+
+Lemma stmt_returns_SIf conds els : stmt_returns (SIf conds els) =
+  match els with Some b => conds_ret conds && always_returns b | None => false end.
+Proof. destruct els; reflexivity. Qed.
 
 Lemma wt_stmt_SIf F ret il G conds els : wt_stmt F ret il G (SIf conds els) =
   if conds_wt F ret il G conds &&
@@ -1526,20 +2049,20 @@ Lemma wt_stmt_SFor F ret il G var vt r body : wt_stmt F ret il G (SFor var vt r 
       end.
 Proof. reflexivity. Qed.
 
-Lemma s1_stmt_SIf conds els : s1_stmt (SIf conds els) =
-  conds_s1 conds && match els with Some b => s1_stmts b | None => true end.
+Lemma s1_stmt_SIf conds els : s1_stmt strict (SIf conds els) =
+  conds_s1 conds && match els with Some b => s1_stmts strict b | None => true end.
 Proof. reflexivity. Qed.
-Lemma s1_stmt_SWhile c body : s1_stmt (SWhile c body) = s1_expr c && s1_stmts body.
+Lemma s1_stmt_SWhile c body : s1_stmt strict (SWhile c body) = s1_expr strict c && s1_stmts strict body.
 Proof. reflexivity. Qed.
-Lemma s1_stmt_SFor var vt r body : s1_stmt (SFor var vt r body) =
-      match var with Some _ => ty_s1 vt | None => true end
+Lemma s1_stmt_SFor var vt r body : s1_stmt strict (SFor var vt r body) =
+      match var with Some _ => fr_ty strict vt | None => true end
       && match r with
-         | RStep a b c => s1_opt a && s1_expr b && s1_opt c
-         | RExpr y => s1_expr y
+         | RStep a b c => s1_opt strict a && s1_expr strict b && s1_opt strict c
+         | RExpr y => s1_expr strict y
          end
-      && s1_stmts body.
+      && s1_stmts strict body.
 Proof. reflexivity. Qed.
-Lemma s1_stmt_SCallStmt name args : s1_stmt (SCallStmt name args) = mem_str name s1_builtins && s1_exprs args.
+Lemma s1_stmt_SCallStmt name args : s1_stmt strict (SCallStmt name args) = call_frag name && s1_exprs strict args.
 Proof. reflexivity. Qed.
 
 (* ---------- statements: invariant bookkeeping ---------- *)
@@ -1547,31 +2070,105 @@ Lemma grows_inv sf0 T G' : grows (sf0 :: T) G' -> exists sf, G' = sf :: T /\ fgr
 Proof. intros (a & c & T' & E & -> & H). inversion E; subst. eauto. Qed.
 
 Lemma inv_nonempty S G e s : inv S G e s -> G <> [].
+Proof. intros [_ He] ->. apply env_ok_length in He. simpl in He. lia. Qed.
+
+Lemma sig_ok_ext S S' ret il sig : ext S S' -> sig_ok S ret il sig -> sig_ok S' ret il sig.
+Proof. intros E. destruct sig as [| |[l|]]; simpl; auto. intros (t & H1 & H2); eauto. Qed.
+
+Lemma sig_ok_noloop S ret il sig : sig_ok S ret false sig -> sig_ok S ret il sig.
+Proof. destruct sig as [| |[l|]]; simpl; auto. discriminate. Qed.
+
+Lemma must_ret_false sig : must_ret false sig.
+Proof. intros H; discriminate. Qed.
+
+Lemma spost_of_kpost S G e ret il sig e' s' :
+  G <> [] -> kpost S G e ret false (sig, e') s' -> spost S G G e ret il false (sig, e') s'.
 Proof.
-  intros [_ He] ->. apply env_ok_length in He. unfold full in He. rewrite app_length in He. simpl in He. lia.
+  intros HG (S' & E & [Hh He] & Hl & Hs). exists S', G. simpl in *.
+  split; [auto|]. split; [auto|]. split; [auto using grows_refl|]. split; [auto|]. split; [auto|].
+  split; [auto|]. split; [auto using sig_ok_noloop|apply must_ret_false].
 Qed.
 
-Lemma spost_of_kpost {A} S G e (a : A) sig e' s' :
-  G <> [] -> kpost S G e (a, e') s' -> spost S G G e (sig, e') s'.
+(* leaving a block: the frame pushed for it is dropped *)
+Lemma pop_post S G Gb e ret il rt r s' :
+  G <> [] -> spost S (push G) Gb ([] :: e) ret il rt r s' ->
+  exists S', ext S S' /\ inv S' G (tl (snd r)) s' /\ List.length (tl (snd r)) = List.length e /\
+             sig_ok S' ret il (fst r) /\ must_ret rt (fst r).
 Proof.
-  intros HG (S' & E & [Hh He] & Hl). exists S', G. simpl in *. repeat split; auto using grows_refl; apply Hh.
-Qed.
-
-Lemma pop_post {A} S G Gb e r s' (a : A) :
-  G <> [] -> spost S (push G) Gb ([] :: e) r s' -> kpost S G e (a, tl (snd r)) s'.
-Proof.
-  intros HG (S' & G'' & E & Hh & Hg & He & Hl & _).
+  intros HG (S' & G'' & E & Hh & Hg & He & Hl & _ & Hs & Hm).
   apply grows_inv in Hg as (sf & -> & _).
   apply env_ok_pop in He as [He Hne]; auto.
-  exists S'; split; auto. split; [split; auto|].
-  simpl. destruct (snd r); [congruence|]. simpl in *. lia.
+  exists S'; split; auto. split; [split; auto|]. split; [|split; auto].
+  destruct (snd r); [congruence|]. simpl in *. injection Hl; auto.
 Qed.
 
 Lemma inv_push S G e s : inv S G e s -> inv S (push G) ([] :: e) s.
-Proof. intros [Hh He]. split; auto. unfold full; simpl. apply env_ok_push; auto. Qed.
+Proof. intros [Hh He]. split; auto. apply env_ok_push; auto. Qed.
 
 Lemma inv_unpush S sf G d e s : inv S (sf :: G) (d :: e) s -> inv S G e s.
-Proof. intros [Hh He]. split; auto. unfold full in *; simpl in He. inversion He; subst; auto. Qed.
+Proof. intros [Hh He]. split; auto. inversion He; subst; auto. Qed.
+
+Lemma fgrows_sub a b : fgrows a b -> sframe_sub a b.
+Proof.
+  induction 1 as [|sf n t Hg IH Hn Hb]; intros k u Hk; auto.
+  simpl. destruct (str_eqb n k) eqn:E; [|auto].
+  apply str_eqb_eq in E; subst. rewrite (IH _ _ Hk) in Hn. discriminate.
+Qed.
+
+Lemma gsub_grows G G' : grows G G' -> gsub G' -> gsub G.
+Proof.
+  intros (a & c & T & -> & -> & H). destruct T; simpl; auto.
+  intros Hs k u Hk. apply Hs. eapply fgrows_sub; eauto.
+Qed.
+
+Lemma gsub_push_result G Gb : grows (push G) Gb -> G <> [] -> gsub Gb.
+Proof. intros Hg HG. apply grows_inv in Hg as (sf & -> & _). destruct G; [congruence|exact I]. Qed.
+
+Lemma wt_stmt_grows F ret il G st G' : wt_stmt F ret il G st = Some G' -> G <> [] -> grows G G'.
+Proof.
+  intros H HG.
+  assert (SAME : G' = G -> grows G G') by (intros ->; apply grows_refl; auto).
+  destruct st.
+  - cbn [wt_stmt] in H. destruct G as [|fr G0]; [discriminate|].
+    match type of H with (if ?c then _ else _) = _ => destruct c eqn:Ec; inversion H; subst end.
+    apply andb_true_iff in Ec as [Ec _]. apply andb_true_iff in Ec as [Ec _]. apply andb_true_iff in Ec as [Ec1 Ec2].
+    exists fr, ((name, t) :: fr), G0. repeat split; auto. constructor; [constructor| |auto].
+    apply negb_true_iff in Ec2. destruct (sget name fr); [discriminate|auto].
+  - cbn [wt_stmt] in H. apply SAME.
+    repeat match type of H with
+           | match ?x with _ => _ end = _ => destruct x; try discriminate
+           | (if ?c then _ else _) = _ => destruct c; try discriminate
+           end. inversion H; auto.
+  - cbn [wt_stmt] in H. apply SAME. destruct (is_some _); inversion H; auto.
+  - cbn [wt_stmt] in H. apply SAME.
+    repeat match type of H with
+           | match ?x with _ => _ end = _ => destruct x; try discriminate
+           | (if ?c then _ else _) = _ => destruct c; try discriminate
+           end; inversion H; auto.
+  - cbn [wt_stmt] in H. apply SAME. destruct il; inversion H; auto.
+  - rewrite wt_stmt_SIf in H. apply SAME.
+    match type of H with (if ?c then _ else _) = _ => destruct c; inversion H; auto end.
+  - rewrite wt_stmt_SWhile in H. apply SAME.
+    match type of H with (if ?c then _ else _) = _ => destruct c; inversion H; auto end.
+  - rewrite wt_stmt_SFor in H. cbv zeta in H. apply SAME.
+    repeat match type of H with
+           | match ?x with _ => _ end = _ => destruct x; try discriminate
+           | (if ?c then _ else _) = _ => destruct c; try discriminate
+           end; inversion H; auto.
+  - inversion H; subst. apply SAME; auto.
+Qed.
+
+Lemma grows_nonempty G G' : grows G G' -> G' <> [].
+Proof. intros (a & c & T & -> & -> & _). discriminate. Qed.
+
+Lemma wt_stmts_grows F ret il : forall l G G', wt_stmts F ret il G l = Some G' -> G <> [] -> grows G G'.
+Proof.
+  induction l as [|st l IH]; intros G G' H HG; simpl in H.
+  - inversion H; subst. apply grows_refl; auto.
+  - destruct (wt_stmt F ret il G st) as [G1|] eqn:E1; [|discriminate].
+    pose proof (wt_stmt_grows _ _ _ _ _ _ E1 HG) as Hg1.
+    eapply grows_trans; eauto. eapply IH; eauto using grows_nonempty.
+Qed.
 
 Lemma list_set_Forall {A} (P : A -> Prop) l k x : Forall P l -> P x -> Forall P (list_set l k x).
 Proof.
@@ -1585,8 +2182,316 @@ Proof. unfold ty_decl. intros H E; subst; discriminate. Qed.
 Lemma rg_ok_ext S S' named rg : ext S S' -> rg_ok S named rg -> rg_ok S' named rg.
 Proof.
   intros E. destruct rg; simpl; auto.
-  intros [(u & H1 & H2)|H]; [left; eauto|right; auto].
+  - intros [(u & H1 & H2)|H]; [left; eauto|right; auto].
+  - intros [[(u & H1)|H] H2]; (split; [|exact H2]); [left; eauto|right; auto].
 Qed.
+
+(* ---------- the test built-in ---------- *)
+Definition run_test_body (d : nat) (args : list loc) : M unit :=
+  let validate : M unit :=
+    match args with
+    | [] => fail (EPanic PkBadArguments)
+    | [a] => let* v := unwrap_any a in match v with HBool _ => ret tt | _ => fail (EPanic PkBadArguments) end
+    | _ :: _ :: rest =>
+        match rest with
+        | m :: _ => let* v := unwrap_any m in match v with HStr _ => ret tt | _ => fail (EPanic PkBadArguments) end
+        | [] => ret tt
+        end
+    end in
+  fun s0 =>
+    let bump (failed : bool) (s : state) :=
+      upd_tests (Datatypes.S (st_total s)) (if failed then Datatypes.S (st_fails s) else st_fails s) s in
+    match validate s0 with
+    | (Er e, s1) => (Er e, bump false s1)
+    | (Ok _, s1) =>
+        let verdict : M bool :=
+          match args with
+          | [a] => let* v := unwrap_any a in match v with HBool b => ret b | _ => crash "test: not a bool" end
+          | w :: g :: _ => same d w g
+          | [] => ret true
+          end in
+        match verdict s1 with
+        | (Er e, s2) => (Er e, bump false s2)
+        | (Ok true, s2) => (Ok tt, bump false s2)
+        | (Ok false, s2) =>
+            let s3 := bump true s2 in
+            if st_failfast s3 then (Er ETestFail, s3) else (Ok tt, s3)
+        end
+    end.
+
+Lemma run_test_unfold args s : run_test args s = run_test_body value_depth args s.
+Proof. reflexivity. Qed.
+
+Lemma run_test_body_wp d S G e s args :
+  inv S G e s -> Forall (fun l => sfind S l = Some TAny) args -> (strict = true -> deep_ok TAny d) ->
+  wp (run_test_body d args s) (fun _ s' => inv S G e s').
+Proof.
+  intros Hi Hall Hd. pose proof Hi as [Hh He].
+  assert (BUMP : forall n m, inv S G e (upd_tests n m s)) by (intros; eapply inv_same; eauto).
+  pose proof (proj1 (Forall_forall _ _) Hall) as Hin.
+  assert (UW : forall a, In a args -> wp (unwrap_any a s) (fun _ s' => s' = s)).
+  { intros a Ha. eapply unwrap_any_wp; eauto. }
+  unfold run_test_body. cbv zeta.
+  destruct args as [|a [|b rest]].
+  - exact I.
+  - pose proof (UW a (or_introl eq_refl)) as Ua. unfold bindM, wp in *.
+    destruct (unwrap_any a s) as [[v|er] s1] eqn:Eu; [subst s1|exact Ua].
+    destruct v; try exact I. unfold ret at 1. cbv iota beta. rewrite Eu. unfold ret.
+    destruct b; [apply BUMP|]. cbn [st_failfast upd_tests]. destruct (st_failfast s); [exact I|apply BUMP].
+  - assert (SM : wp (same d a b s) (fun _ s' => s' = s)).
+    { eapply (same_wp d S s a b TAny TAny); [auto|apply Hin; left; reflexivity|apply Hin; right; left; reflexivity|auto]. }
+    assert (TAIL : forall s1, s1 = s ->
+      wp (match same d a b s1 with
+          | (Er e0, s2) => (Er e0, upd_tests (Datatypes.S (st_total s2)) (st_fails s2) s2)
+          | (Ok true, s2) => (Ok tt, upd_tests (Datatypes.S (st_total s2)) (st_fails s2) s2)
+          | (Ok false, s2) =>
+              if st_failfast (upd_tests (Datatypes.S (st_total s2)) (Datatypes.S (st_fails s2)) s2)
+              then (Er ETestFail, upd_tests (Datatypes.S (st_total s2)) (Datatypes.S (st_fails s2)) s2)
+              else (Ok tt, upd_tests (Datatypes.S (st_total s2)) (Datatypes.S (st_fails s2)) s2)
+          end) (fun _ s' => inv S G e s')).
+    { intros s1 ->. unfold wp in SM |- *.
+      destruct (same d a b s) as [[r|er] s2]; [subst s2|exact SM].
+      destruct r; [apply BUMP|]. cbn [st_failfast upd_tests]. destruct (st_failfast s); [exact I|apply BUMP]. }
+    destruct rest as [|m rest'].
+    + unfold ret at 1. apply TAIL; reflexivity.
+    + pose proof (UW m (or_intror (or_intror (or_introl eq_refl)))) as Um. unfold bindM at 1.
+      unfold wp in Um. destruct (unwrap_any m s) as [[v|er] s1] eqn:Eu; [subst s1|exact Um].
+      destruct v; try exact I; unfold ret at 1; apply TAIL; reflexivity.
+Qed.
+
+Lemma run_test_wp S G e s args :
+  inv S G e s -> Forall (fun l => sfind S l = Some TAny) args ->
+  wp (run_test args s) (fun _ s' => inv S G e s').
+Proof.
+  intros Hi Hall. rewrite run_test_unfold. eapply run_test_body_wp; eauto.
+  intros Hs. eapply deep_ok_of_ok1; auto.
+Qed.
+
+(* ---------- calls of user functions ---------- *)
+Lemma call_frag_cases name : call_frag name = true ->
+  name = n_test \/ (str_eqb name n_test = false /\ (mem_str name s1_builtins = true \/ builtin_sig name = None)).
+Proof.
+  unfold call_frag. intros H.
+  destruct (str_eqb name n_test) eqn:E; [left; apply str_eqb_eq; auto|right; split; auto].
+  rewrite orb_false_r in H. apply orb_true_iff in H as [H|H]; auto.
+  right. destruct (builtin_sig name); [discriminate|auto].
+Qed.
+
+Lemma forallb_any_typed (S : sty) vals ts :
+  Forall2 (fun l t => sfind S l = Some t) vals ts -> forallb (arg_ok TAny) ts = true ->
+  Forall (fun l => sfind S l = Some TAny) vals.
+Proof.
+  induction 1 as [|l t ls ts' Hl _ IH]; cbn [forallb]; intros H; constructor; apply andb_true_iff in H as [H1 H2]; auto.
+  apply arg_ok_basic in H1; [congruence|discriminate|discriminate].
+Qed.
+
+Lemma builtin_some_sig name e vals m : builtin name e vals = Some m -> builtin_sig name <> None.
+Proof.
+  unfold builtin. intros Hb.
+  repeat match type of Hb with
+  | (if name_is ?n ?lit then Some _ else _) = Some _ =>
+      let E := fresh "E" in
+      destruct (name_is n lit) eqn:E;
+      [unfold name_is in E; apply str_eqb_eq in E; subst n; vm_compute; discriminate|clear E]
+  end.
+  destruct (existsb (str_eqb name) gfx_num_names) eqn:X1.
+  { apply existsb_exists in X1 as (x & Hin & Hx). apply str_eqb_eq in Hx; subst x.
+    simpl in Hin. repeat destruct Hin as [<-|Hin]; try contradiction; vm_compute; discriminate. }
+  destruct (existsb (str_eqb name) gfx_xy_names) eqn:X2.
+  { apply existsb_exists in X2 as (x & Hin & Hx). apply str_eqb_eq in Hx; subst x.
+    simpl in Hin. repeat destruct Hin as [<-|Hin]; try contradiction; vm_compute; discriminate. }
+  destruct (existsb (str_eqb name) gfx_str_names) eqn:X3; [|discriminate].
+  apply existsb_exists in X3 as (x & Hin & Hx). apply str_eqb_eq in Hx; subst x.
+  simpl in Hin. repeat destruct Hin as [<-|Hin]; try contradiction; vm_compute; discriminate.
+Qed.
+
+Lemma find_func_In n F fd : find_func n F = Some fd -> In fd F.
+Proof.
+  induction F as [|f F IH]; simpl; [discriminate|].
+  destruct (str_eqb (fn_name f) n); [intros H; inversion H; auto|auto].
+Qed.
+
+Lemma ty_proper_not_gen p : ty_proper p = true -> p <> TGenArr /\ p <> TGenMap.
+Proof. intros H; split; intros ->; discriminate. Qed.
+
+Lemma args_ok_eq ps ts :
+  Forall (fun p => ty_proper p = true) ps -> args_ok ps None ts = true -> ts = ps.
+Proof.
+  intros H; revert ts; induction H as [|p ps Hp _ IH]; intros [|a ts]; simpl; try discriminate; auto.
+  intros Ha. apply andb_true_iff in Ha as [H1 H2]. destruct (ty_proper_not_gen _ Hp).
+  apply arg_ok_basic in H1; auto. subst. f_equal; auto.
+Qed.
+
+Definition nz (p : str * ty) : bool := negb (str_eqb (fst p) underscore).
+
+Lemma params_frame_eq ps : params_frame ps = rev (filter nz ps).
+Proof. reflexivity. Qed.
+
+Lemma bind_params_ok S : forall ps args sf fr s,
+  Forall2 (fun l t => sfind S l = Some t) args (map snd ps) ->
+  frame_ok S sf fr ->
+  Forall (fun p => nz p = true -> sget (fst p) sf = None) ps ->
+  names_distinct (map fst ps) = true ->
+  wp (bind_params ps args fr s)
+     (fun r s' => s' = s /\ frame_ok S (rev (filter nz ps) ++ sf) (fst r)).
+Proof.
+  induction ps as [|[n t] ps IH]; intros args sf fr s HF Hfr Hfresh Hd.
+  - simpl. split; auto.
+  - simpl in HF. inversion HF as [|a t' rest ts' Ha HF']; subst. cbn [bind_params].
+    simpl in Hd. apply andb_true_iff in Hd as [Hd1 Hd2]. inversion Hfresh as [|? ? Hf1 Hf2]; subst.
+    simpl. unfold nz at 1. simpl.
+    destruct (str_eqb n underscore) eqn:En; simpl.
+    + eapply IH; eauto.
+    + eapply wp_mono; [eapply (IH rest ((n, t) :: sf) (frame_set n a fr) s); eauto|].
+      * apply frame_ok_decl; auto. apply Hf1. unfold nz; simpl. rewrite En. reflexivity.
+      * rewrite Forall_forall in Hf2 |- *. intros [k tk] Hin Hk. simpl.
+        destruct (str_eqb n k) eqn:Enk.
+        -- apply str_eqb_eq in Enk; subst k. exfalso.
+           apply negb_true_iff in Hd1. assert (In n (map fst ps)) by (apply in_map_iff; exists (n, tk); auto).
+           apply mem_str_In in H. congruence.
+        -- apply (Hf2 _ Hin Hk).
+      * cbv beta. intros r s' [-> Hr]. split; auto. rewrite <- app_assoc. exact Hr.
+Qed.
+
+Lemma sget_In n sf t : sget n sf = Some t -> In (n, t) sf.
+Proof.
+  induction sf as [|[k u] sf IH]; simpl; [discriminate|].
+  destruct (str_eqb k n) eqn:E; auto. apply str_eqb_eq in E; subst. intros H; inversion H; auto.
+Qed.
+
+Lemma params_frame_not_reserved ps n :
+  forallb param_ok ps = true -> (n = n_err \/ n = n_errmsg) -> sget n (params_frame ps) = None.
+Proof.
+  intros Hp Hn. destruct (sget n (params_frame ps)) as [t|] eqn:E; auto. exfalso.
+  apply sget_In in E. unfold params_frame in E. apply in_rev in E. apply filter_In in E as [Hin Hnz].
+  rewrite forallb_forall in Hp. specialize (Hp _ Hin). unfold param_ok in Hp. simpl in Hp, Hnz.
+  apply andb_true_iff in Hp as [Hp _]. apply negb_true_iff in Hnz. rewrite Hnz in Hp. simpl in Hp.
+  apply binder_not_reserved in Hp as (N1 & N2 & _). destruct Hn; congruence.
+Qed.
+
+Section CallStep.
+  Context (f : nat) (IHes : exprs_sound f) (IHblock : block_sound f).
+
+  Lemma call_step : call_sound (S f).
+  Proof.
+    intros P e name args G sg ts S s Hsig Hty Hok Hm Hs1 HG Hi. cbn [eval_call].
+    wbind ltac:(eapply IHes; eauto using sig_args_ok_value). intros vals s1 (S1 & E1 & Hi1 & HF).
+    destruct (call_frag_cases _ Hm) as [->|[Htest Hm']].
+    { (* test *)
+      change (str_eqb n_test n_test) with true. cbv iota.
+      unfold lookup_sig in Hsig. vm_compute in Hsig. inversion Hsig; subst sg. clear Hsig.
+      unfold sig_args_ok in Hok. cbn [fs_var fs_params] in Hok.
+      wbind ltac:(eapply run_test_wp; eauto using forallb_any_typed). intros _ s2 Hi2.
+      apply wp_ret. exists S1; split; [auto|split; [auto|reflexivity]]. }
+    rewrite Htest. destruct (builtin name e vals) as [m|] eqn:Eb.
+    - (* a modelled built-in *)
+      assert (Hmem : mem_str name s1_builtins = true).
+      { destruct Hm' as [Hm'|Hm']; auto. apply builtin_some_sig in Eb. congruence. }
+      destruct (s1_name_facts name (p_funcs P) Hmem) as (_ & Hl & _).
+      eapply wp_mono; [eapply builtin_sound; eauto; rewrite <- Hl; eauto|]. cbv beta.
+      intros r s2 (S2 & l & -> & E2 & Hi2 & Hl2). exists S2; split; [eauto using ext_trans|split; auto].
+    - destruct (existsb (str_eqb name) unmodelled_builtins); [exact I|].
+      (* a user function *)
+      assert (Hnb : builtin_sig name = None).
+      { destruct Hm' as [Hm'|Hm']; auto. apply builtin_none in Eb. congruence. }
+      unfold lookup_sig in Hsig. rewrite Hnb in Hsig.
+      destruct (find_func name (p_funcs P)) as [fd|] eqn:Ef; [|discriminate].
+      simpl in Hsig. inversion Hsig; subst sg. clear Hsig.
+      destruct HG as (HG1 & HG2 & HF0). destruct (HF0 fd (find_func_In _ _ _ Ef)) as [Hwt Hfr].
+      unfold wt_func in Hwt.
+      repeat match type of Hwt with _ && _ = true => apply andb_true_iff in Hwt as [Hwt ?] end.
+      match goal with H : is_some (wt_stmts _ _ _ _ (fn_body fd)) = true |- _ => rename H into Hbody end.
+      match goal with H : forallb param_ok _ = true |- _ => rename H into Hpok end.
+      match goal with H : names_distinct _ = true |- _ => rename H into Hnd end.
+      match goal with H : is_none (fn_ret fd) || always_returns (fn_body fd) = true |- _ => rename H into Hret end.
+      match goal with H : match fn_variadic fd with Some _ => _ | None => true end = true |- _ => rename H into Hvar end.
+      unfold s1_func in Hfr. apply andb_true_iff in Hfr as [Hfrb Hfrv].
+      set (pf := params_frame (fn_params fd ++ match fn_variadic fd with Some (n, t) => [(n, TArr t)] | None => [] end)) in *.
+      destruct (wt_stmts (p_funcs P) (Some (fn_ret fd)) false [pf; Gg] (fn_body fd)) as [Gb|] eqn:EGb; [|discriminate].
+      pose proof Hi1 as [Hh1 He1].
+      assert (HGne : G <> []) by (eapply inv_nonempty; eauto).
+      (* the body, in the parameter frame *)
+      assert (TAIL : forall fr' s2 S2, ext S1 S2 -> heap_ok S2 (st_heap s2) ->
+                st_globals s2 = st_globals s1 -> frame_ok S2 pf fr' ->
+                wp ((let* (sig, _) := exec_block f P [fr'] (fn_body fd) in
+                     match sig with
+                     | SigReturn v => Sem.ret v
+                     | _ => let* l := alloc HNone in Sem.ret (Some l)
+                     end) s2) (cpost S G e (fn_ret fd))).
+      { intros fr' s2 S2 E2 Hh2 Hg2 Hfr'.
+        assert (Hgl : globals_ok S2 (st_globals s2)).
+        { rewrite Hg2. eapply globals_ok_ext; eauto. eapply env_ok_globals; eauto. }
+        assert (Hi2 : inv S2 [pf; Gg] [fr'] s2).
+        { split; auto. constructor; auto. constructor; auto. intros k u Hk; exact Hk. }
+        assert (HG2' : genv_ok P [pf; Gg]).
+        { split; [|split; auto]; simpl.
+          - subst pf. rewrite params_frame_not_reserved; auto. rewrite (HGg n_err TBool eq_refl). reflexivity.
+          - subst pf. rewrite params_frame_not_reserved; auto. rewrite (HGg n_errmsg TStr eq_refl). reflexivity. }
+        assert (Hgs : gsub Gb).
+        { apply wt_stmts_grows in EGb; [|discriminate]. apply grows_inv in EGb as (sf & -> & _). exact I. }
+        wbind ltac:(eapply (IHblock P (Some (fn_ret fd)) false [fr'] (fn_body fd) [pf; Gg] Gb S2); eauto).
+        intros [sig e3] s3 (S3 & G3 & E3 & Hh3 & Hg3 & He3 & Hl3 & _ & Hsig & Hmust). simpl in *.
+        assert (Hi3 : inv S3 G e s3).
+        { split; auto. eapply env_ok_reglob; [eapply env_ok_ext; [|exact He1]; eauto using ext_trans|].
+          eapply env_ok_globals; eauto. }
+        assert (E13 : ext S S3) by eauto using ext_trans.
+        destruct sig as [| |v].
+        - (* fell off the end: a procedure *)
+          assert (Hn : fn_ret fd = TNone).
+          { apply orb_true_iff in Hret as [Hr|Hr]; [destruct (fn_ret fd); try discriminate; auto|].
+            destruct (Hmust Hr) as [Hx|(v & Hx)]; discriminate. }
+          rewrite Hn.
+          wbind ltac:(eapply (alloc_epost S S3 G e s3 HNone TNone); eauto; constructor).
+          intros l s4 (S4 & E4 & Hi4 & Hl4). apply wp_ret. exists S4; auto.
+        - simpl in Hsig. discriminate.
+        - apply wp_ret. exists S3; split; [auto|split; [auto|]].
+          destruct v as [l|]; simpl in Hsig.
+          + destruct Hsig as (t & Ht & Hl). inversion Ht; subst. auto.
+          + inversion Hsig; auto. }
+      (* the parameter frame *)
+      unfold sig_args_ok, sig_of_fd in Hok. cbn [fs_var fs_params] in Hok.
+      destruct (fn_variadic fd) as [[vn vt]|] eqn:Ev; cbn [option_map snd] in Hok.
+      + (* variadic *)
+        destruct (fn_params fd) eqn:Eps; [|discriminate]. simpl in Hok.
+        cbn [bind_params]. unfold bindM at 1. cbn [Sem.ret].
+        assert (Hvd : ty_decl (TArr vt) = true).
+        { simpl in Hpok. apply andb_true_iff in Hpok as [Hp _].
+          unfold param_ok in Hp. simpl in Hp. apply andb_true_iff in Hp; tauto. }
+        assert (Hvp : ty_proper vt = true).
+        { unfold ty_decl in Hvd. apply andb_true_iff in Hvd as [Hvd _]. exact Hvd. }
+        assert (Hall : Forall (fun l => sfind S1 l = Some vt) vals).
+        { destruct (ty_proper_not_gen _ Hvp). clear -Hok HF H H0.
+          induction HF as [|l y ls ys Hl _ IHF]; [constructor|]. simpl in Hok. apply andb_true_iff in Hok as [Hk1 Hk2].
+          constructor; auto. apply arg_ok_basic in Hk1; auto. congruence. }
+        assert (Hoka : ty_ok1 (TArr vt) = true).
+        { unfold ty_ok1, ty_decl, fr_tyin in *. apply andb_true_iff in Hvd as [Hp Hsm].
+          destruct strict.
+          - rewrite Hsm, andb_true_r. simpl. rewrite Hfrv. reflexivity.
+          - simpl. rewrite orb_false_r. clear -Hvp. induction vt; simpl in *; auto; discriminate. }
+        apply wp_bind.
+        wbind ltac:(eapply (alloc_wp S1 s1 (HArr vals) (TArr vt)); eauto; constructor; auto).
+        intros a s2 (S2 & E2 & Hh2 & Ha & Hg2). apply wp_ret.
+        eapply (TAIL _ s2 S2); eauto.
+        subst pf. unfold params_frame. simpl.
+        destruct (str_eqb vn underscore) eqn:Evn; simpl.
+        * split; simpl; intros; discriminate.
+        * apply (frame_ok_decl S2 [] [] vn (TArr vt) a); auto. split; simpl; intros; discriminate.
+      + (* fixed parameters *)
+        assert (Hprop : Forall (fun p => ty_proper p = true) (map snd (fn_params fd))).
+        { rewrite app_nil_r in Hpok. rewrite forallb_forall in Hpok. rewrite Forall_forall.
+          intros p Hp. apply in_map_iff in Hp as (q & <- & Hq). specialize (Hpok _ Hq).
+          unfold param_ok, ty_decl in Hpok. apply andb_true_iff in Hpok as [_ Hpok].
+          apply andb_true_iff in Hpok; tauto. }
+        apply args_ok_eq in Hok; auto. subst ts.
+        wbind ltac:(eapply (bind_params_ok S1 (fn_params fd) vals [] [] s1); eauto).
+        * split; simpl; intros; discriminate.
+        * rewrite Forall_forall. intros; reflexivity.
+        * rewrite app_nil_r in Hnd. exact Hnd.
+        * intros [fr rest] s2 [-> Hfr]. unfold bindM at 1. cbn [Sem.ret].
+          eapply (TAIL _ s1 S1); eauto using ext_refl.
+          subst pf. simpl in Hfr. rewrite !app_nil_r in *. exact Hfr.
+  Qed.
+End CallStep.
 
 (* ---------- blocks and loops ---------- *)
 Ltac kdone S' :=
@@ -1603,29 +2508,39 @@ Section CtlStep.
 
   Lemma block_step : block_sound (S f).
   Proof.
-    intros P ret il e l G G' S s Hwt Hs1 HG Hi. cbn [exec_block].
+    intros P ret il e l G G' S s Hwt Hs1 HG Hi Hgs. cbn [exec_block].
     apply wp_bind. eapply tick_inv; [exact Hi|]. intros s' Hi'. eapply IHstmts; eauto.
   Qed.
 
   Lemma stmts_step : stmts_sound (S f).
   Proof.
-    intros P ret il e l G G' S s Hwt Hs1 HG Hi. cbn [exec_stmts]. destruct l as [|st l].
+    intros P ret il e l G G' S s Hwt Hs1 HG Hi Hgs. cbn [exec_stmts].
+    pose proof (inv_nonempty _ _ _ _ Hi) as HGne.
+    destruct l as [|st l].
     - simpl in Hwt; inversion Hwt; subst. apply wp_ret.
       exists S, G'. simpl. destruct Hi as [Hh He].
-      repeat split; auto using ext_refl, grows_refl; try apply Hh.
-      apply grows_refl. eapply inv_nonempty; split; eauto.
+      split; [apply ext_refl|]. split; [auto|]. split; [apply grows_refl; auto|]. split; [auto|].
+      split; [auto|]. split; [auto|]. split; [exact I|apply must_ret_false].
     - cbn [wt_stmts] in Hwt. cbn [s1_stmts] in Hs1. apply andb_true_iff in Hs1 as [Hs1a Hs1b].
       destruct (wt_stmt (p_funcs P) ret il G st) as [G1|] eqn:E1; [|discriminate].
-      wbind ltac:(eapply IHstmt; eauto). intros [sig e1] s1 (S1 & G1' & Ex1 & Hh1 & Hg1 & He1 & Hl1 & Hn1).
-      simpl in *.
+      assert (Hg01 : grows G G1) by (eapply wt_stmt_grows; eauto).
+      assert (Hg1' : grows G1 G') by (eapply wt_stmts_grows; eauto using grows_nonempty).
+      wbind ltac:(eapply IHstmt; eauto using gsub_grows).
+      intros [sig e1] s1 (S1 & G1' & Ex1 & Hh1 & Hg1 & He1 & Hl1 & Hn1 & Hsg1 & Hm1). simpl in *.
       destruct (is_ctl sig) eqn:Ec.
-      + apply wp_ret. exists S1, G1'. simpl. repeat split; auto; try apply Hh1.
-        intros ->; discriminate.
+      + apply wp_ret. exists S1, G1'. simpl.
+        split; [auto|]. split; [auto|]. split; [auto|]. split; [auto|]. split; [auto|].
+        split; [intros ->; discriminate|]. split; [auto|].
+        intros _. destruct sig as [| |v]; [discriminate|left; reflexivity|right; eauto].
       + assert (sig = SigNone) by (destruct sig; auto; discriminate). subst sig.
         rewrite (Hn1 eq_refl) in *.
         eapply wp_mono; [eapply (IHstmts P ret il e1 l G1 G' S1); eauto using genv_ok_grows; split; auto|].
-        cbv beta. intros [sig2 e2] s2 (S2 & G2 & Ex2 & Hh2 & Hg2 & He2 & Hl2 & Hn2). simpl in *.
-        exists S2, G2. simpl. repeat split; eauto using ext_trans, grows_trans; try apply Hh2. congruence.
+        cbv beta. intros [sig2 e2] s2 (S2 & G2 & Ex2 & Hh2 & Hg2 & He2 & Hl2 & Hn2 & Hsg2 & Hm2). simpl in *.
+        exists S2, G2. simpl.
+        split; [eauto using ext_trans|]. split; [auto|]. split; [eauto using grows_trans|]. split; [auto|].
+        split; [congruence|]. split; [auto|]. split; [auto|].
+        intros Hr. cbn [always_returns existsb] in Hr. apply orb_true_iff in Hr as [Hr|Hr]; [|auto].
+        destruct (Hm1 Hr) as [Hx|(v & Hx)]; discriminate.
   Qed.
 
   Lemma cond_step : cond_sound (S f).
@@ -1636,21 +2551,26 @@ Section CtlStep.
     intros l s1 (S1 & E1 & Hi1 & Hl1).
     wbind ltac:(eapply load_wp; eauto; apply Hi1). intros v s2 [-> Hv]. inversion Hv; subst.
     destruct b.
-    - wbind ltac:(eapply (IHblock P ret il ([] :: e) body (push G) Gb S1); eauto using genv_ok_push).
+    - assert (Hgs : gsub Gb) by (eapply gsub_push_result; eauto; eapply wt_stmts_grows; eauto; discriminate).
+      wbind ltac:(eapply (IHblock P ret il ([] :: e) body (push G) Gb S1); eauto using genv_ok_push).
       intros [sig e2] s2 Hp. apply wp_ret.
-      eapply (pop_post S1 G Gb e (sig, e2) s2 (Some sig)) in Hp; auto.
-      destruct Hp as (S2 & E2 & Hi2 & Hl2). exists S2; eauto using ext_trans.
-    - apply wp_ret. exists S1; split; auto. split; auto. eapply inv_unpush; eauto.
+      eapply pop_post in Hp; auto.
+      destruct Hp as (S2 & E2 & Hi2 & Hl2 & Hsg & Hm). exists S2. simpl in *.
+      split; [eauto using ext_trans|]. split; [auto|]. split; auto.
+    - apply wp_ret. exists S1; split; auto. split; [eapply inv_unpush; eauto|]. simpl; auto.
   Qed.
 
   Lemma while_step : while_sound (S f).
   Proof.
     intros P ret e c body G Gb S s Hc Hb Hs1c Hs1b HG Hi. cbn [exec_while].
-    wbind ltac:(eapply IHcond; eauto). intros [r e1] s1 (S1 & E1 & Hi1 & Hl1). simpl in *.
-    assert (K : kpost S G e (SigNone, e1) s1) by (exists S1; auto).
-    destruct r as [[| |v]|]; try (apply wp_ret; destruct K as (S' & K1 & K2 & K3); exists S'; auto).
-    eapply wp_mono; [eapply (IHwhile P ret e1 c body G Gb S1); eauto|]. cbv beta.
-    intros [sig e2] s2 (S2 & E2 & Hi2 & Hl2). kdone S2.
+    wbind ltac:(eapply IHcond; eauto). intros [r e1] s1 (S1 & E1 & Hi1 & Hl1 & Hr). simpl in *.
+    destruct r as [[| |v]|].
+    - eapply wp_mono; [eapply (IHwhile P ret e1 c body G Gb S1); eauto|]. cbv beta.
+      intros [sig e2] s2 (S2 & E2 & Hi2 & Hl2 & Hs2). exists S2. simpl in *.
+      split; [eauto using ext_trans|]. split; [auto|]. split; [congruence|auto].
+    - apply wp_ret. exists S1; simpl; auto.
+    - apply wp_ret. exists S1; simpl. destruct Hr as [Hr _]. auto.
+    - apply wp_ret. exists S1; simpl; auto.
   Qed.
 
   Lemma for_next_wp S G e s named rg :
@@ -1714,7 +2634,21 @@ Section CtlStep.
         intros l s1 (S1 & E1 & Hi1 & Hl1). apply wp_ret. exists S1; split; [auto|split; [exact Hi1|]].
         split; [simpl; auto|]. intros vt Hvt. destruct Hrg as [H|H]; congruence.
       + apply wp_ret. exists S; auto using ext_refl.
-    - contradiction.
+    - destruct Hrg as [Hm Hn].
+      assert (Hm' : exists t, sfind S m = Some t /\ (t = TEmptyMap \/ exists u, t = TMap u)).
+      { destruct Hm as [(u & Hm)|Hm]; eauto. }
+      destruct Hm' as (tm & Hmt & Htm).
+      wbind ltac:(eapply load_wp with (S := S); eauto). intros v s1 [-> Hv].
+      assert (exists om, v = HMap om) as (om & ->).
+      { destruct Htm as [->|(u & ->)]; inversion Hv; subst; eauto. }
+      clear Hv. induction todo as [|k todo IHt].
+      + apply wp_ret. exists S; auto using ext_refl.
+      + destruct (ohas k om); [|exact IHt].
+        wbind ltac:(eapply (alloc_epost S S G e s (HStr k) TStr); eauto using ext_refl; constructor).
+        intros l s1 (S1 & E1 & Hi1 & Hl1). apply wp_ret. exists S1; split; [auto|split; [exact Hi1|]].
+        split.
+        * simpl. split; auto. destruct Hm as [(u & Hm)|Hm]; [left; eauto|right; auto].
+        * intros vt Hvt. destruct Hn as [H|H]; congruence.
   Qed.
 
   Lemma for_step : for_sound (S f).
@@ -1722,36 +2656,46 @@ Section CtlStep.
     intros P ret e var rg body G fr0 named Gb S s Hb Hs1 HG Hi Hfr Hrg. cbn [exec_for].
     wbind ltac:(eapply for_next_wp; eauto). intros nx s1 (S1 & E1 & Hi1 & Hnx).
     destruct nx as [[l rg']|].
-    2:{ apply wp_ret. exists S1; auto. }
+    2:{ apply wp_ret. exists S1; simpl; auto. }
     destruct Hnx as [Hrg' Hl].
     (* rebinding of the loop variable *)
     assert (U : wp (update_var var l e s1)
                    (fun e1 s2 => inv S1 (fr0 :: G) e1 s2 /\ List.length e1 = List.length e)).
     { destruct named as [vt|]; simpl in Hfr.
-      - destruct Hfr as [Hbo ->]. pose proof (binder_not_reserved _ Hbo) as (_ & _ & Hus).
-        destruct Hi1 as [Hh1 He1].
+      - destruct Hfr as [Hbo ->].
         assert (Hsl : slookup var ([(var, vt)] :: G) = Some vt) by (simpl; rewrite str_eqb_refl; auto).
-        destruct (env_get_sound _ _ _ _ _ He1 Hsl) as (l0 & Hl0 & _).
-        destruct (env_update_some var l (full e s1)) as (fe' & Hfe'); [congruence|].
-        eapply wp_mono; [eapply update_var_wp; eauto|]. cbv beta. intros e1 s2 (H1 & H2 & H3).
-        split; auto. split; [rewrite H1; auto|]. rewrite H3. eapply env_update_ok; eauto.
+        eapply update_var_ok; eauto.
       - destruct Hfr as [-> ->]. unfold update_var. simpl. auto. }
     wbind ltac:(exact U). intros e1 s2 [Hi2 Hl2].
     assert (HGne : fr0 :: G <> []) by discriminate.
+    assert (Hgs : gsub Gb) by (eapply gsub_push_result; eauto; eapply wt_stmts_grows; eauto; discriminate).
     wbind ltac:(eapply (IHblock P ret true ([] :: e1) body (push (fr0 :: G)) Gb S1);
                 eauto using inv_push, genv_ok_push).
     intros [sig e2'] s3 Hp.
-    eapply (pop_post S1 (fr0 :: G) Gb e1 (sig, e2') s3 sig) in Hp; auto.
-    destruct Hp as (S3 & E3 & Hi3 & Hl3). simpl in *.
+    eapply pop_post in Hp; auto.
+    destruct Hp as (S3 & E3 & Hi3 & Hl3 & Hsg3 & _). simpl in *.
     destruct sig.
     - eapply wp_mono; [eapply (IHfor P ret (tl e2') var rg' body G fr0 named Gb S3); eauto using rg_ok_ext|].
-      cbv beta. intros [sig4 e4] s4 (S4 & E4 & Hi4 & Hl4). kdone S4.
-    - apply wp_ret. kdone S3.
-    - apply wp_ret. kdone S3.
+      cbv beta. intros [sig4 e4] s4 (S4 & E4 & Hi4 & Hl4 & Hs4). exists S4. simpl in *.
+      split; [eauto using ext_trans|]. split; [auto|]. split; [rewrite Hl4, Hl3; exact Hl2|auto].
+    - apply wp_ret. exists S3. simpl.
+      split; [eauto using ext_trans|]. split; [auto|]. split; [rewrite Hl3; exact Hl2|auto].
+    - apply wp_ret. exists S3. simpl.
+      split; [eauto using ext_trans|]. split; [auto|]. split; [rewrite Hl3; exact Hl2|auto].
   Qed.
 End CtlStep.
 
 (* ---------- single statements ---------- *)
+Lemma map_set_key_wp S s m k v u :
+  heap_ok S (st_heap s) -> sfind S m = Some (TMap u) -> sfind S v = Some u ->
+  wp (map_set_key m k v s) (fun _ s' => heap_ok S (st_heap s') /\ st_globals s' = st_globals s).
+Proof.
+  intros Hh Hm Hv. unfold map_set_key.
+  wbind ltac:(eapply load_wp; eauto). intros mv s1 [-> Hc]. inversion Hc; subst.
+  eapply store_wp; eauto. constructor; auto using Inv_oset.
+  rewrite pairs_oset. apply Forall_pset; auto.
+Qed.
+
 Section StmtStep.
   Context (f : nat) (IH : all_sound f).
   Let IHe : expr_sound f := proj1 IH.
@@ -1761,12 +2705,17 @@ Section StmtStep.
   Let IHwhile : while_sound f := proj1 (proj2 (proj2 (proj2 (proj2 (proj2 (proj2 (proj2 IH))))))).
   Let IHfor : for_sound f := proj2 (proj2 (proj2 (proj2 (proj2 (proj2 (proj2 (proj2 IH))))))).
 
+  Definition ipost (S : sty) (G : tyenv) (e : env) (rt : option ty) (il mr : bool)
+    : signal * env -> state -> Prop :=
+    fun r s' => exists S', ext S S' /\ inv S' G (snd r) s' /\ List.length (snd r) = List.length e /\
+                           sig_ok S' rt il (fst r) /\ must_ret mr (fst r).
+
   Lemma if_go_wp P rt il els G :
     match els with
-    | Some body => is_some (wt_stmts (p_funcs P) rt il (push G) body) = true /\ s1_stmts body = true
+    | Some body => is_some (wt_stmts (p_funcs P) rt il (push G) body) = true /\ s1_stmts strict body = true
     | None => True
     end ->
-    genv_ok G ->
+    genv_ok P G ->
     forall conds e s S,
       conds_wt (p_funcs P) rt il G conds = true -> conds_s1 conds = true -> inv S G e s ->
       wp ((fix go (cs : list (expr * list stmt)) (e : env) : M (signal * env) :=
@@ -1784,38 +2733,47 @@ Section StmtStep.
                  | Some sig => ret (sig, e1)
                  | None => go t e1
                  end
-             end) conds e s) (kpost S G e).
+             end) conds e s)
+         (ipost S G e rt il (conds_ret conds && match els with Some b => always_returns b | None => false end)).
   Proof.
     intros Hels HG. induction conds as [|[c body] conds IHl]; intros e s S Hwt Hs1 Hi.
-    - destruct els as [body|].
+    - pose proof (inv_nonempty _ _ _ _ Hi) as HGne. destruct els as [body|].
       + destruct Hels as [Hb Hsb].
         destruct (wt_stmts (p_funcs P) rt il (push G) body) as [Gb|] eqn:Eb; [|discriminate].
+        assert (Hgs : gsub Gb) by (eapply gsub_push_result; eauto; eapply wt_stmts_grows; eauto; discriminate).
         wbind ltac:(eapply (IHblock P rt il ([] :: e) body (push G) Gb S); eauto using inv_push, genv_ok_push).
         intros [sig e1] s1 Hp. apply wp_ret.
-        eapply (pop_post S G Gb e (sig, e1) s1 sig) in Hp; eauto using inv_nonempty.
-      + apply wp_ret. kdone S.
+        eapply pop_post in Hp; auto.
+      + apply wp_ret. exists S. simpl.
+        split; [apply ext_refl|]. split; [auto|]. split; [auto|]. split; [exact I|apply must_ret_false].
     - cbn [conds_wt] in Hwt. cbn [conds_s1] in Hs1.
       apply andb_true_iff in Hwt as [Hwt Hwt3]. apply andb_true_iff in Hwt as [Hwt1 Hwt2].
       apply andb_true_iff in Hs1 as [Hs1 Hs13]. apply andb_true_iff in Hs1 as [Hs11 Hs12].
       apply opt_ty_eqb_eq in Hwt1.
       destruct (wt_stmts (p_funcs P) rt il (push G) body) as [Gb|] eqn:Eb; [|discriminate].
-      wbind ltac:(eapply IHcond; eauto). intros [r e1] s1 (S1 & E1 & Hi1 & Hl1). simpl in *.
+      wbind ltac:(eapply IHcond; eauto). intros [r e1] s1 (S1 & E1 & Hi1 & Hl1 & Hr). simpl in *.
       destruct r as [sig|].
-      + apply wp_ret. kdone S1.
+      + apply wp_ret. destruct Hr as [Hr1 Hr2]. exists S1. simpl.
+        split; [auto|]. split; [auto|]. split; [auto|]. split; [auto|].
+        intros Hm. apply Hr2. apply andb_true_iff in Hm as [Hm _]. apply andb_true_iff in Hm; tauto.
       + eapply wp_mono; [eapply (IHl e1 s1 S1); eauto|]. cbv beta.
-        intros [sig e2] s2 (S2 & E2 & Hi2 & Hl2). kdone S2.
+        intros [sig e2] s2 (S2 & E2 & Hi2 & Hl2 & Hs2 & Hm2). exists S2. simpl in *.
+        split; [eauto using ext_trans|]. split; [auto|]. split; [rewrite Hl2; auto|]. split; [auto|].
+        intros Hm. apply Hm2. apply andb_true_iff in Hm as [Hm Hm']. apply andb_true_iff in Hm as [_ Hm].
+        rewrite Hm, Hm'. reflexivity.
   Qed.
 
-  Lemma spost_same S0 S G e e' s' sig :
-    ext S0 S -> inv S G e' s' -> List.length e' = List.length e -> spost S0 G G e (sig, e') s'.
+  Lemma spost_same S0 S G e ret il e' s' sig :
+    ext S0 S -> inv S G e' s' -> List.length e' = List.length e -> sig_ok S ret il sig ->
+    spost S0 G G e ret il false (sig, e') s'.
   Proof.
-    intros E [Hh He] Hl. exists S, G. simpl. repeat split; auto; try apply Hh.
-    apply grows_refl. eapply inv_nonempty; split; eauto.
+    intros E [Hh He] Hl Hs. exists S, G. simpl.
+    split; [auto|]. split; [auto|]. split; [apply grows_refl; eapply inv_nonempty; split; eauto|].
+    split; [auto|]. split; [auto|]. split; [auto|]. split; [auto|apply must_ret_false].
   Qed.
-
 
   Lemma num_wp P e1 x G1 S s :
-    ety (p_funcs P) G1 x = Some TNum -> s1_expr x = true -> genv_ok G1 -> inv S G1 e1 s ->
+    ety (p_funcs P) G1 x = Some TNum -> s1_expr strict x = true -> genv_ok P G1 -> inv S G1 e1 s ->
     wp ((let* l := eval_expr f P e1 x in
          let* v := load l in
          match v with HNum y => Sem.ret y | _ => internal "expected number" end) s)
@@ -1828,18 +2786,21 @@ Section StmtStep.
   Qed.
 
   Lemma opt_num_expr F G o dflt :
-    etyo F G o = true -> s1_opt o = true ->
+    etyo F G o = true -> s1_opt strict o = true ->
     ety F G (match o with Some y => y | None => ENum dflt end) = Some TNum /\
-    s1_expr (match o with Some y => y | None => ENum dflt end) = true.
+    s1_expr strict (match o with Some y => y | None => ENum dflt end) = true.
   Proof. destruct o; simpl; intros H1 H2; auto. apply opt_ty_eqb_eq in H1; auto. Qed.
 
   Lemma zero_val_wp S s vt :
-    heap_ok S (st_heap s) -> ty_decl vt = true -> ty_s1 vt = true ->
+    heap_ok S (st_heap s) -> ty_decl vt = true -> fr_ty strict vt = true ->
     wp (zero_val vt s) (hpost S (st_globals s) (fun S' z => sfind S' z = Some vt)).
   Proof.
     intros Hh Hd Hs1.
     assert (Hok : ty_ok1 vt = true).
-    { unfold ty_decl in Hd. apply andb_true_iff in Hd as [_ Hd]. unfold ty_ok1. rewrite Hs1, Hd. reflexivity. }
+    { unfold ty_decl in Hd. apply andb_true_iff in Hd as [Hp Hd]. unfold ty_ok1, fr_ty in *.
+      destruct strict; [rewrite Hs1, Hd; reflexivity|].
+      apply orb_true_iff; left. clear -Hp. induction vt; simpl in *; auto; discriminate. }
+    unfold ty_decl in Hd. apply andb_true_iff in Hd as [Hp _].
     destruct vt; try discriminate; cbn [zero_val].
     - eapply wp_mono; [eapply alloc_wp; eauto; constructor|]. cbv beta.
       intros l s' (S' & E & H1 & H2 & H3). hdone S'.
@@ -1849,9 +2810,12 @@ Section StmtStep.
       intros l s' (S' & E & H1 & H2 & H3). hdone S'.
     - wbind ltac:(eapply (alloc_wp S s (HBool false) TBool); eauto; constructor).
       intros b s1 (S1 & E1 & Hh1 & Hb & Hg1).
-      eapply wp_mono; [eapply (alloc_wp S1 s1 (HAny TBool b) TAny); eauto; constructor; auto|]. cbv beta.
+      eapply wp_mono; [eapply (alloc_wp S1 s1 (HAny TBool b) TAny); eauto; constructor; auto; discriminate|]. cbv beta.
       intros l s' (S' & E & H1 & H2 & H3). hdone S'.
     - eapply wp_mono; [eapply (alloc_wp S s (HArr []) (TArr vt)); eauto; constructor; constructor|]. cbv beta.
+      intros l s' (S' & E & H1 & H2 & H3). hdone S'.
+    - eapply wp_mono; [eapply (alloc_wp S s (HMap oempty) (TMap vt)); eauto; constructor;
+                       [apply Inv_oempty|constructor]|]. cbv beta.
       intros l s' (S' & E & H1 & H2 & H3). hdone S'.
   Qed.
 
@@ -1871,18 +2835,15 @@ Section StmtStep.
     - destruct (Hv v eq_refl) as [Hb Hm]. pose proof (binder_not_reserved _ Hb) as (_ & _ & Hus).
       wbind ltac:(exact Hm). intros z s1 (S1 & E1 & Hh1 & Hg1 & Hz).
       assert (Hi1 : inv S1 (push G) ([] :: e) s1) by (eapply inv_step; eauto).
-      eapply wp_mono; [eapply set_var_wp; eauto|]. cbv beta.
-      intros e2 s2 (H1 & H2 & f0 & rest & H3 & H4).
-      exists S1; split; auto. split; [|simpl in H2; auto].
-      destruct Hi1 as [_ He1]. rewrite H3 in He1. inversion He1; subst.
-      split; [rewrite H1; auto|]. rewrite H4. constructor; auto.
-      apply frame_ok_decl; auto.
+      pose proof (inv_nonempty _ _ _ _ (inv_unpush _ _ _ _ _ _ Hi1)) as HGne.
+      eapply wp_mono; [eapply (set_var_ok S1 [] G ([] :: e) s1 v vt z); eauto; congruence|].
+      cbv beta. intros e2 s2 [Hi2 Hl2]. exists S1; split; auto.
     - apply wp_ret. exists S; split; auto using ext_refl.
   Qed.
 
   Lemma stmt_step : stmt_sound (S f).
   Proof.
-    intros P ret il e st G G' S s Hwt Hs1 HG Hi.
+    intros P ret il e st G G' S s Hwt Hs1 HG Hi Hgs.
     pose proof (inv_nonempty _ _ _ _ Hi) as HGne.
     destruct st; cbn [exec_stmt];
       (apply wp_bind; eapply tick_inv; [exact Hi|]; clear s Hi; intros s Hi); pose proof Hi as [Hh He].
@@ -1899,15 +2860,14 @@ Section StmtStep.
       wbind ltac:(eapply copy_or_ref_wp; eauto using ty_decl_not_none; apply Hi1).
       intros c s2 (S2 & E2 & Hh2 & Hg2 & Hc).
       assert (Hi2 : inv S2 (fr :: G0) e s2) by (eapply inv_step; eauto).
-      wbind ltac:(eapply set_var_wp; eauto). intros e' s3 (H1 & H2 & f0 & rest & H3 & H4).
+      assert (Hnf : sget name fr = None) by (destruct (sget name fr); [discriminate|auto]).
+      wbind ltac:(eapply (set_var_ok S2 fr G0 e s2 name t c); eauto).
+      { intros ->. exact Hgs. }
+      intros e' s3 [[Hh3 He3] Hl3].
       apply wp_ret. exists S2, (((name, t) :: fr) :: G0). simpl.
-      destruct Hi2 as [_ He2]. rewrite H3 in He2. inversion He2; subst.
-      split; [eauto using ext_trans|]. split; [rewrite H1; auto|]. split.
-      { exists fr, ((name, t) :: fr), G0. repeat split; auto.
-        constructor; [constructor| |]; auto.
-        destruct (sget name fr); [discriminate|auto]. }
-      split; [|auto]. rewrite H4. constructor; auto.
-      apply frame_ok_decl; auto. destruct (sget name fr); [discriminate|auto].
+      split; [eauto using ext_trans|]. split; [auto|]. split.
+      { exists fr, ((name, t) :: fr), G0. repeat split; auto. constructor; [constructor| |]; auto. }
+      split; [auto|]. split; [auto|]. split; [auto|]. split; [exact I|apply must_ret_false].
     - (* SAssign *)
       cbn [wt_stmt] in Hwt. cbn [s1_stmt] in Hs1. apply andb_true_iff in Hs1 as [Hs1a Hs1b].
       destruct (ety (p_funcs P) G target) as [tg|] eqn:Etg; [|discriminate].
@@ -1923,6 +2883,10 @@ Section StmtStep.
           destruct (ety (p_funcs P) G' target1) as [[]|]; try discriminate;
           destruct (ety (p_funcs P) G' target2) as [[]|]; try discriminate;
           match type of Etg with (if ?c then _ else _) = _ => destruct c eqn:Ec; inversion Etg; subst end;
+          apply andb_true_iff in Ec as [_ Ec]; auto using ty_value_not_none, ty_ann_value.
+        - cbn [ety] in Etg.
+          destruct (ety (p_funcs P) G' target) as [[]|]; try discriminate;
+          match type of Etg with (if ?c then _ else _) = _ => destruct c eqn:Ec; inversion Etg; subst end;
           apply andb_true_iff in Ec as [_ Ec]; auto using ty_value_not_none, ty_ann_value. }
       wbind ltac:(eapply IHe; eauto). intros v0 s1 (S1 & E1 & Hi1 & Hv0).
       apply wp_depth_fuel.
@@ -1934,12 +2898,8 @@ Section StmtStep.
         match type of Etg with (if ?c then _ else _) = _ => destruct c eqn:Ec; inversion Etg; subst end.
         apply andb_true_iff in Ec as [Ec Ec3]. apply andb_true_iff in Ec as [Ec1 Ec2].
         apply negb_true_iff in Ec1. apply opt_ty_eqb_eq in Ec2.
-        destruct Hi2 as [_ He2].
-        destruct (env_get_sound _ _ _ _ _ He2 Ec2) as (l0 & Hl0 & _).
-        destruct (env_update_some name v (full e s2)) as (fe' & Hfe'); [congruence|].
-        wbind ltac:(eapply update_var_wp; eauto). intros e' s3 (H1 & H2 & H3).
-        apply wp_ret. eapply (spost_same S S2); eauto using ext_trans.
-        split; [rewrite H1; auto|]. rewrite H3. eapply env_update_ok; eauto.
+        wbind ltac:(eapply update_var_ok; eauto). intros e' s3 [Hi3 Hl3].
+        apply wp_ret. eapply (spost_same S S2); eauto using ext_trans. exact I.
       + (* array element *)
         cbn [ety] in Etg. cbn [s1_expr] in Hs1a.
         apply andb_true_iff in Hs1a as [Hs1a Hs1a3]. apply andb_true_iff in Hs1a as [Hs1a1 Hs1a2].
@@ -1960,28 +2920,64 @@ Section StmtStep.
           wbind ltac:(eapply (store_wp S4 s4 la (HArr (list_set els k v)) (TArr tg)); eauto).
           { constructor. apply list_set_Forall; auto. }
           intros _ s5 [Hh5 Hg5]. apply wp_ret.
-          eapply (spost_same S S4); eauto using ext_trans.
-          split; auto. unfold full in *. rewrite Hg5. auto.
-        * (* map: not a Stage-1 type *)
-          pose proof (ho_tys _ _ Hh4 _ _ (E4 _ _ Hla)) as Hbad. discriminate.
+          eapply (spost_same S S4); eauto using ext_trans; [eapply inv_store; eauto|exact I].
+        * (* map entry *)
+          destruct ti; try discriminate.
+          match type of Etg with (if ?c then _ else _) = _ => destruct c eqn:Ec; inversion Etg; subst end.
+          apply andb_true_iff in Ec as [Ec1 Ec2]. apply ty_eqb_eq in Ec1; subst ta.
+          inversion Hva; subst.
+          wbind ltac:(eapply load_str_wp; eauto). intros ks s5 ->.
+          wbind ltac:(eapply (map_set_key_wp S4 s4 la ks v tg); eauto).
+          intros _ s5 [Hh5 Hg5]. apply wp_ret.
+          eapply (spost_same S S4); eauto using ext_trans; [eapply inv_store; eauto|exact I].
+      + (* map field *)
+        cbn [ety] in Etg. cbn [s1_expr] in Hs1a. apply andb_true_iff in Hs1a as [Hs1a1 Hs1a2].
+        destruct (ety (p_funcs P) G' target) as [ta|] eqn:Ea; [|discriminate].
+        destruct ta; try discriminate.
+        match type of Etg with (if ?c then _ else _) = _ => destruct c eqn:Ec; inversion Etg; subst end.
+        apply andb_true_iff in Ec as [Ec1 Ec2]. apply ty_eqb_eq in Ec1; subst ta.
+        wbind ltac:(eapply (IHe P e target G' (TMap tg) S2); eauto). intros la s3 (S3 & E3 & Hi3 & Hla).
+        pose proof Hi3 as [Hh3 He3].
+        wbind ltac:(eapply load_wp; [exact Hh3|]; eauto). intros va s4 [-> Hva]. inversion Hva; subst.
+        wbind ltac:(eapply (map_set_key_wp S3 s3 la key v tg); eauto).
+        intros _ s4 [Hh4 Hg4]. apply wp_ret.
+        eapply (spost_same S S3); eauto using ext_trans; [eapply inv_store; eauto|exact I].
     - (* SCallStmt *)
       cbn [wt_stmt] in Hwt. rewrite s1_stmt_SCallStmt in Hs1. apply andb_true_iff in Hs1 as [Hs1a Hs1b].
       unfold call_ty in Hwt.
       destruct (lookup_sig (p_funcs P) name) as [sg|] eqn:Esg; [|discriminate].
       destruct (etys (p_funcs P) G args) as [ts|] eqn:Ets; [|discriminate].
       destruct (sig_args_ok sg ts) eqn:Eok; [|discriminate]. inversion Hwt; subst.
-      wbind ltac:(eapply IHc; eauto). intros r s1 (S1 & l & -> & E1 & Hi1 & Hl1).
-      apply wp_ret. eapply (spost_same S S1); eauto.
-    - (* SReturn *) discriminate.
+      wbind ltac:(eapply IHc; eauto). intros r s1 (S1 & E1 & Hi1 & _).
+      apply wp_ret. eapply (spost_same S S1); eauto. exact I.
+    - (* SReturn *)
+      cbn [wt_stmt] in Hwt. cbn [s1_stmt] in Hs1.
+      assert (MR : forall v, must_ret true (SigReturn v)) by (intros v _; right; eauto).
+      destruct e0 as [x|].
+      + destruct ret as [t|]; [|discriminate].
+        match type of Hwt with (if ?c then _ else _) = _ => destruct c eqn:Ec; inversion Hwt; subst end.
+        apply andb_true_iff in Ec as [Ec1 Ec2]. apply opt_ty_eqb_eq in Ec2. simpl in Hs1.
+        wbind ltac:(eapply IHe; eauto). intros l s1 (S1 & E1 & [Hh1 He1] & Hl1).
+        apply wp_ret. exists S1, G'. simpl.
+        split; [auto|]. split; [auto|]. split; [apply grows_refl; auto|]. split; [auto|]. split; [auto|].
+        split; [auto|]. split; [eauto|apply MR].
+      + destruct ret as [[]|]; try discriminate. inversion Hwt; subst.
+        apply wp_ret. exists S, G'. simpl.
+        split; [apply ext_refl|]. split; [auto|]. split; [apply grows_refl; auto|]. split; [auto|]. split; [auto|].
+        split; [auto|]. split; [reflexivity|apply MR].
     - (* SBreak *)
       cbn [wt_stmt] in Hwt. destruct il; inversion Hwt; subst.
       apply wp_ret. eapply (spost_same S S); eauto using ext_refl.
     - (* SIf *)
       rewrite wt_stmt_SIf in Hwt. rewrite s1_stmt_SIf in Hs1. apply andb_true_iff in Hs1 as [Hs1a Hs1b].
       match type of Hwt with (if ?c && ?d then _ else _) = _ => destruct c eqn:Ec; destruct d eqn:Ed; inversion Hwt; subst end.
+      rewrite stmt_returns_SIf.
       eapply wp_mono; [eapply (if_go_wp P ret il els G'); eauto|].
       { destruct els; auto. }
-      cbv beta. intros [sig e1] s1 K. eapply spost_of_kpost; eauto.
+      cbv beta. intros [sig e1] s1 (S1 & E1 & [Hh1 He1] & Hl1 & Hs & Hm). simpl in *.
+      exists S1, G'. simpl.
+      split; [auto|]. split; [auto|]. split; [apply grows_refl; auto|]. split; [auto|]. split; [auto|].
+      split; [auto|]. split; [auto|]. destruct els; [exact Hm|apply must_ret_false].
     - (* SWhile *)
       rewrite wt_stmt_SWhile in Hwt. rewrite s1_stmt_SWhile in Hs1. apply andb_true_iff in Hs1 as [Hs1a Hs1b].
       match type of Hwt with (if ?c && _ then _ else _) = _ => destruct c eqn:Ec; simpl in Hwt; [|discriminate] end.
@@ -1996,7 +2992,7 @@ Section StmtStep.
       set (named := match var with Some _ => Some vt | None => None end).
       set (fr0 := match var with Some v => [(v, vt)] | None => [] end).
       match type of Hwt with match ?rng with _ => _ end = _ => destruct rng as [t|] eqn:Erng; [|discriminate] end.
-      assert (HS : (forall v, var = Some v -> binder_ok v = true /\ vt = t /\ ty_decl vt = true /\ ty_s1 vt = true) /\
+      assert (HS : (forall v, var = Some v -> binder_ok v = true /\ vt = t /\ ty_decl vt = true /\ fr_ty strict vt = true) /\
                    (exists Gb, wt_stmts (p_funcs P) ret true (push (fr0 :: G)) body = Some Gb) /\ G' = G).
       { destruct var as [v|].
         - match type of Hwt with match (if ?c then _ else _) with _ => _ end = _ => destruct c eqn:Ec; [|discriminate] end.
@@ -2006,7 +3002,7 @@ Section StmtStep.
         - destruct (wt_stmts (p_funcs P) ret true (push ([] :: G)) body) as [Gb|] eqn:Eb; inversion Hwt; subst.
           split; [|eauto]. discriminate. }
       destruct HS as (Hvar & (Gb & Hbody) & ->). clear Hwt.
-      assert (HG2 : genv_ok (fr0 :: G)).
+      assert (HG2 : genv_ok P (fr0 :: G)).
       { unfold fr0. destruct var as [v|]; [|exact HG]. destruct (Hvar v eq_refl) as (Hb & _). apply genv_ok_frame; auto. }
       assert (Hff : for_frame named vname fr0).
       { unfold named, vname, fr0. destruct var as [v|]; simpl; auto. destruct (Hvar v eq_refl); auto. }
@@ -2027,7 +3023,7 @@ Section StmtStep.
           destruct (PrimFloat.eqb c 0); [exact I|].
           wbind ltac:(eapply (bind_loopvar S3 G e s3 var vt); eauto).
           { intros v Hv. destruct (Hvar v Hv) as (Hb & -> & _). split; auto.
-            eapply wp_mono; [eapply alloc_wp; [apply Hi3|constructor|reflexivity]|]. cbv beta.
+            eapply wp_mono; [eapply alloc_wp; [apply Hi3|constructor|auto]|]. cbv beta.
             intros l s' (S' & E & H1 & H2 & H3). hdone S'. }
           intros e2 s4 (S4 & E4 & Hi4 & Hl4). apply wp_ret. exists S4. simpl.
           split; [eauto using ext_trans|]. split; [exact Hi4|]. split; auto.
@@ -2042,8 +3038,8 @@ Section StmtStep.
           + (* string *)
             wbind ltac:(eapply (bind_loopvar S1 G e s1 var vt); eauto).
             { intros v Hv0. destruct (Hvar v Hv0) as (Hb & -> & _). split; auto.
-              eapply wp_mono; [eapply alloc_wp; [apply Hi1|constructor|reflexivity]|]. cbv beta.
-              intros l0 s' (S' & E & H1 & H2 & H3). hdone S'. }
+              eapply wp_mono; [eapply alloc_wp; [apply Hi1|constructor|auto]|]. cbv beta.
+              intros l0 s' (S' & E & Hx1 & Hx2 & Hx3). hdone S'. }
             intros e2 s4 (S4 & E4 & Hi4 & Hl4). apply wp_ret. exists S4. simpl.
             split; [eauto using ext_trans|]. split; [exact Hi4|]. split; auto.
             unfold named. destruct var as [v|]; auto. destruct (Hvar v eq_refl) as (_ & -> & _); auto.
@@ -2055,21 +3051,39 @@ Section StmtStep.
             split; [eauto using ext_trans|]. split; [exact Hi4|]. split; auto.
             left. exists t. split; [auto|].
             unfold named. destruct var as [v|]; auto. destruct (Hvar v eq_refl) as (_ & -> & _); auto.
+          + (* map *)
+            wbind ltac:(eapply (bind_loopvar S1 G e s1 var vt); eauto).
+            { intros v Hv0. destruct (Hvar v Hv0) as (Hb & -> & _). split; auto.
+              eapply wp_mono; [eapply alloc_wp; [apply Hi1|constructor|auto]|]. cbv beta.
+              intros l0 s' (S' & E & Hx1 & Hx2 & Hx3). hdone S'. }
+            intros e2 s4 (S4 & E4 & Hi4 & Hl4). apply wp_ret. exists S4. simpl.
+            split; [eauto using ext_trans|]. split; [exact Hi4|]. split; auto.
+            split; [left; eauto|].
+            unfold named. destruct var as [v|]; auto. destruct (Hvar v eq_refl) as (_ & -> & _); auto.
           + (* the untyped [] *)
             wbind ltac:(eapply (bind_loopvar S1 G e s1 var vt); eauto).
             { intros v Hv0. destruct (Hvar v Hv0) as (Hb & -> & Hd & Hs). split; auto.
               eapply zero_val_wp; eauto. }
             intros e2 s4 (S4 & E4 & Hi4 & Hl4). apply wp_ret. exists S4. simpl.
-            split; [eauto using ext_trans|]. split; [exact Hi4|]. split; auto. }
+            split; [eauto using ext_trans|]. split; [exact Hi4|]. split; auto.
+          + (* map, untyped {} *)
+            wbind ltac:(eapply (bind_loopvar S1 G e s1 var vt); eauto).
+            { intros v Hv0. destruct (Hvar v Hv0) as (Hb & -> & _). split; auto.
+              eapply wp_mono; [eapply alloc_wp; [apply Hi1|constructor|auto]|]. cbv beta.
+              intros l0 s' (S' & E & Hx1 & Hx2 & Hx3). hdone S'. }
+            intros e2 s4 (S4 & E4 & Hi4 & Hl4). apply wp_ret. exists S4. simpl.
+            split; [eauto using ext_trans|]. split; [exact Hi4|]. split; auto.
+            split; [right; eauto|].
+            unfold named. destruct var as [v|]; auto. destruct (Hvar v eq_refl) as (_ & -> & _); auto. }
       cbv beta. intros [rg e2] s1 (S1 & E1 & Hi1 & Hrg & Hl1). simpl in *.
       wbind ltac:(eapply (IHfor P ret e2 vname rg body G fr0 named Gb S1); eauto).
-      intros [sig e3] s2 (S2 & E2 & [Hh2 He2] & Hl2). simpl in *. apply wp_ret.
+      intros [sig e3] s2 (S2 & E2 & [Hh2 He2] & Hl2 & Hsg). simpl in *. apply wp_ret.
       apply env_ok_pop in He2 as [He2 Hne]; auto.
-      eapply (spost_same S S2); eauto using ext_trans.
+      eapply (spost_same S S2); eauto using ext_trans, sig_ok_noloop.
       + split; auto.
-      + destruct e3; [congruence|]. simpl in *. lia.
+      + destruct e3; [congruence|]. simpl in *. rewrite Hl1 in Hl2. injection Hl2; auto.
     - (* SNop *)
-      inversion Hwt; subst. apply wp_ret. eapply (spost_same S S); eauto using ext_refl.
+      inversion Hwt; subst. apply wp_ret. eapply (spost_same S S); eauto using ext_refl. exact I.
   Qed.
 End StmtStep.
 
@@ -2085,17 +3099,14 @@ Proof.
 Qed.
 
 (* ---------- whole runs ---------- *)
-Definition goes_wrong (o : outcome) : Prop :=
-  match o with OErr (EInternal _) | OErr (EHostCrash _) => True | _ => False end.
+Definition goes_wrong_s (o : outcome) : Prop :=
+  match o with OErr e => ~ safe_err e | _ => False end.
 
 Definition genv0 : tyenv := [global_frame0].
 
-(* a state a run may start from: some store typing makes the heap well typed
-   and the globals are the built-in ones at their types *)
+(* a state a run may start from: some store typing makes the heap well typed and the globals are
+   (a part of) the program's globals at their types, err and errmsg among them *)
 Definition state_ok (s : state) : Prop := exists S, inv S genv0 [] s.
-
-Lemma genv0_ok : genv_ok genv0.
-Proof. split; reflexivity. Qed.
 
 Lemma heap_ok_empty : heap_ok (PositiveMap.empty ty) hempty.
 Proof.
@@ -2104,57 +3115,171 @@ Qed.
 
 Lemma init_state_ok stop input ff ay : state_ok (init_state stop input ff ay).
 Proof.
-  destruct (heap_ok_alloc _ _ (HBool false) TBool heap_ok_empty (CBool _ false) eq_refl) as (E1 & H1 & F1).
-  destruct (heap_ok_alloc _ _ (HStr []) TStr H1 (CStr _ []) eq_refl) as (E2 & H2 & F2).
-  destruct (heap_ok_alloc _ _ (HNum (float_of_bits pi_bits)) TNum H2 (CNum _ _) eq_refl) as (E3 & H3 & F3).
+  destruct (heap_ok_alloc _ _ (HBool false) TBool heap_ok_empty (CBool _ false) ok1_TBool) as (E1 & H1 & F1).
+  destruct (heap_ok_alloc _ _ (HStr []) TStr H1 (CStr _ []) ok1_TStr) as (E2 & H2 & F2).
+  destruct (heap_ok_alloc _ _ (HNum (float_of_bits pi_bits)) TNum H2 (CNum _ _) ok1_TNum) as (E3 & H3 & F3).
   eexists. split; [exact H3|].
-  unfold full, genv0. cbn [init_state st_globals app]. constructor; [|constructor].
-  change global_frame0 with [(n_err, TBool); (n_errmsg, TStr); (s_ "pi", TNum)].
+  unfold genv0. constructor; [exact HGg|].
   change (st_globals (init_state stop input ff ay))
     with [(n_err, 1%positive); (n_errmsg, 2%positive); (s_ "pi", 3%positive)].
-  split.
-  - intros n t. cbn [sget frame_get].
-    repeat match goal with |- context [str_eqb ?k n] =>
-      destruct (str_eqb k n);
-      [intros H; inversion H; subst; eexists; split; [reflexivity|];
-       first [reflexivity | apply F3 | apply E3, F2 | apply E3, E2, F1]|] end.
-    discriminate.
-  - intros n l. cbn [sget frame_get].
-    repeat match goal with |- context [str_eqb ?k n] => destruct (str_eqb k n); [discriminate|] end.
-    discriminate.
+  split; [|split; discriminate].
+  intros n l. cbn [frame_get].
+  repeat match goal with |- context [str_eqb ?k n] =>
+    let E := fresh "E" in
+    destruct (str_eqb k n) eqn:E;
+    [apply str_eqb_eq in E; subst n; intros H; inversion H; subst; eexists; split; [apply HGg; reflexivity|];
+     first [reflexivity | apply F3 | apply E3, F2 | apply E3, E2, F1]|clear E] end.
+  discriminate.
 Qed.
 
-Lemma wt_program_top P : wt_program P = true ->
-  exists G', wt_stmts (p_funcs P) None false genv0 (p_stmts P) = Some G'.
+(* the program is checked against Gg and lies in the fragment *)
+Definition prog_ok (P : program) : Prop :=
+  wt_top P = Some Gg /\
+  forallb (wt_func (p_funcs P) Gg) (p_funcs P) = true /\
+  s1_stmts strict (p_stmts P) = true /\ forallb (s1_func strict) (p_funcs P) = true.
+
+Lemma prog_genv_ok P : prog_ok P -> genv_ok P genv0.
 Proof.
-  unfold wt_program, wt_top, genv0. destruct (wt_stmts (p_funcs P) None false _ (p_stmts P)); [eauto|discriminate].
+  intros (_ & Hfs & _ & Hs1f). split; [reflexivity|split; [reflexivity|]]. intros fd Hfd.
+  rewrite forallb_forall in Hfs, Hs1f. auto.
 Qed.
 
-(* Soundness, Stage 1: a checked program of the fragment never goes wrong *)
-Theorem soundness_stage1 P :
-  wt_program P = true -> s1_program P = true ->
-  forall fuel s0, state_ok s0 -> ~ goes_wrong (fst (run_program fuel P s0)).
+Lemma state_ok_of S G e s : heap_ok S (st_heap s) -> env_ok S G e (st_globals s) -> state_ok s.
 Proof.
-  intros Hwt Hs1 fuel s0 (S & Hi) Hbad.
-  destruct (wt_program_top P Hwt) as (G' & Htop).
+  intros Hh He. exists S. split; auto. constructor; [exact HGg|eapply env_ok_globals; eauto].
+Qed.
+
+(* Soundness with the final state: a run ends with a safe outcome, and when it ends normally the state
+   it leaves (on which the event handlers then run) is again well typed *)
+Theorem run_generic P : prog_ok P ->
+  forall fuel s0, state_ok s0 ->
+    match run_program fuel P s0 with
+    | (OErr e, _) => safe_err e
+    | (_, s1) => state_ok s1
+    end.
+Proof.
+  intros HP fuel s0 (S & Hi). pose proof (prog_genv_ok P HP) as HG. destruct HP as (Htop & Hfs & Hs1 & Hs1f).
+  assert (Htop' : wt_stmts (p_funcs P) None false genv0 (p_stmts P) = Some [Gg]).
+  { unfold wt_top, genv0 in *.
+    destruct (wt_stmts (p_funcs P) None false [global_frame0] (p_stmts P)) as [[|g [|]]|]; try discriminate.
+    inversion Htop; subst; auto. }
   destruct (all_sound_n fuel) as (_ & _ & _ & _ & Hstmts & _).
   assert (W : wp ((let* _ := tick in let* _ := exec_stmts fuel P [] (p_stmts P) in Sem.ret tt) s0)
-                 (fun _ _ => True)).
+                 (fun _ s' => state_ok s')).
   { apply wp_bind. eapply tick_inv; [exact Hi|]. intros s1 Hi1.
-    wbind ltac:(eapply (Hstmts P None false [] (p_stmts P) genv0 G' S); eauto using genv0_ok).
-    intros r s2 _. exact I. }
-  unfold run_program in Hbad.
+    wbind ltac:(eapply (Hstmts P None false [] (p_stmts P) genv0 [Gg] S); eauto).
+    - intros n t H; exact H.
+    - intros r s2 (S2 & G2 & _ & Hh2 & _ & He2 & _). apply wp_ret. eapply state_ok_of; eauto. }
+  unfold run_program.
   destruct ((let* _ := tick in let* _ := exec_stmts fuel P [] (p_stmts P) in Sem.ret tt) s0) as [[u|er] s1].
-  - simpl in Hbad. destruct (Nat.ltb 0 (st_fails (test_report s1))); exact Hbad.
-  - simpl in W, Hbad. destruct er; simpl in *; auto.
+  - simpl in W. assert (state_ok (test_report s1)).
+    { destruct W as (S1 & Hh1 & He1). exists S1. unfold test_report.
+      destruct (Nat.eqb (st_total s1) 0); split; auto. }
+    destruct (Nat.ltb 0 (st_fails (test_report s1))); auto.
+  - simpl in W. destruct er; simpl in *; auto.
+Qed.
+
+Theorem soundness_generic P : prog_ok P ->
+  forall fuel s0, state_ok s0 -> ~ goes_wrong_s (fst (run_program fuel P s0)).
+Proof.
+  intros HP fuel s0 Hs0 Hbad. pose proof (run_generic P HP fuel s0 Hs0) as H.
+  destruct (run_program fuel P s0) as [[| |er] s1]; simpl in *; auto.
+Qed.
+
+(* ---------- event handlers ---------- *)
+Lemma bind_payload_ok : forall ps args sf fr S s,
+  heap_ok S (st_heap s) -> (List.length ps <= List.length args)%nat ->
+  frame_ok S sf fr ->
+  Forall (fun p => nz p = true -> sget (fst p) sf = None) ps ->
+  names_distinct (map fst ps) = true ->
+  wp (bind_payload ps args fr s)
+     (fun fr' s' => exists S', ext S S' /\ heap_ok S' (st_heap s') /\ st_globals s' = st_globals s /\
+                               frame_ok S' (rev (filter nz ps) ++ sf) fr').
+Proof.
+  induction ps as [|[n t] ps IH]; intros args sf fr S s Hh Hlen Hfr Hfresh Hd.
+  - simpl. exists S; split; [apply ext_refl|auto].
+  - cbn [bind_payload]. destruct args as [|a args]; [simpl in Hlen; lia|]. simpl in Hlen.
+    simpl in Hd. apply andb_true_iff in Hd as [Hd1 Hd2]. inversion Hfresh as [|? ? Hf1 Hf2]; subst.
+    assert (K : forall v, cell_ok S v t -> ty_ok1 t = true ->
+              wp ((let* l := alloc v in
+                   bind_payload ps args (if str_eqb n underscore then fr else frame_set n l fr)) s)
+                 (fun fr' s' => exists S', ext S S' /\ heap_ok S' (st_heap s') /\ st_globals s' = st_globals s /\
+                                           frame_ok S' (rev (filter nz ((n, t) :: ps)) ++ sf) fr')).
+    { intros v Hv Hok.
+      wbind ltac:(eapply alloc_wp; eauto). intros l s1 (S1 & E1 & Hh1 & Hl1 & Hg1).
+      simpl. unfold nz at 1. simpl. destruct (str_eqb n underscore) eqn:En; simpl.
+      - eapply wp_mono; [eapply (IH args sf fr S1 s1); eauto using frame_ok_ext; lia|].
+        cbv beta. intros fr' s' (S' & E' & Hh' & Hg' & Hf'). hdone S'.
+      - eapply wp_mono; [eapply (IH args ((n, t) :: sf) (frame_set n l fr) S1 s1); eauto; try lia|].
+        + apply frame_ok_decl; eauto using frame_ok_ext. apply Hf1. unfold nz; simpl. rewrite En. reflexivity.
+        + rewrite Forall_forall in Hf2 |- *. intros [k tk] Hin Hk. simpl.
+          destruct (str_eqb n k) eqn:Enk.
+          * apply str_eqb_eq in Enk; subst k. exfalso.
+            apply negb_true_iff in Hd1. assert (Hin' : In n (map fst ps)) by (apply in_map_iff; exists (n, tk); auto).
+            apply mem_str_In in Hin'. congruence.
+          * apply (Hf2 _ Hin Hk).
+        + cbv beta. intros fr' s' (S' & E' & Hh' & Hg' & Hf'). rewrite <- app_assoc. hdone S'. }
+    unfold bindM at 1.
+    destruct t; destruct a; try exact I.
+    + apply (K (HNum f)); [constructor|auto].
+    + apply (K (HStr s0)); [constructor|auto].
+    + apply (K (HBool b)); [constructor|auto].
+Qed.
+
+Theorem handle_event_generic P : prog_ok P ->
+  forallb (wt_handler (p_funcs P) Gg) (p_handlers P) = true ->
+  forallb (fun h => s1_stmts strict (h_body h)) (p_handlers P) = true ->
+  forall fuel name args s0 h, state_ok s0 ->
+    find_handler name (p_handlers P) = Some h -> (List.length (h_params h) <= List.length args)%nat ->
+    match handle_event fuel P name args s0 with
+    | (OErr e, _) => safe_err e
+    | (_, s1) => state_ok s1
+    end.
+Proof.
+  intros HP Hwh Hsh fuel name args s0 h (S & [Hh He]) Hfind Hlen.
+  pose proof (prog_genv_ok P HP) as (_ & _ & HF0).
+  assert (Hin : In h (p_handlers P)).
+  { clear -Hfind. induction (p_handlers P) as [|x l IH]; simpl in *; [discriminate|].
+    destruct (str_eqb (h_name x) name); [inversion Hfind; auto|auto]. }
+  rewrite forallb_forall in Hwh, Hsh. specialize (Hwh _ Hin). specialize (Hsh _ Hin).
+  unfold wt_handler in Hwh. destruct (assoc_str (h_name h) event_sigs) as [ts|]; [|discriminate].
+  repeat match type of Hwh with _ && _ = true => apply andb_true_iff in Hwh as [Hwh ?] end.
+  match goal with H : is_some (wt_stmts _ _ _ _ (h_body h)) = true |- _ => rename H into Hbody end.
+  match goal with H : forallb param_ok _ = true |- _ => rename H into Hpok end.
+  match goal with H : names_distinct _ = true |- _ => rename H into Hnd end.
+  set (pf := params_frame (h_params h)) in *.
+  destruct (wt_stmts (p_funcs P) (Some TNone) false [pf; Gg] (h_body h)) as [Gb|] eqn:EGb; [|discriminate].
+  destruct (all_sound_n fuel) as (_ & _ & _ & _ & _ & Hblock & _).
+  unfold handle_event. rewrite Hfind.
+  assert (W : wp ((let* fr := bind_payload (h_params h) args [] in
+                   let* _ := exec_block fuel P [fr] (h_body h) in Sem.ret tt) s0)
+                 (fun _ s' => state_ok s')).
+  { wbind ltac:(eapply (bind_payload_ok (h_params h) args [] [] S s0); eauto).
+    - split; simpl; intros; discriminate.
+    - rewrite Forall_forall. intros; reflexivity.
+    - intros fr s1 (S1 & E1 & Hh1 & Hg1 & Hfr). rewrite app_nil_r in Hfr.
+      assert (Hgl : globals_ok S1 (st_globals s1)).
+      { rewrite Hg1. eapply globals_ok_ext; eauto. eapply env_ok_globals; eauto. }
+      assert (Hi1 : inv S1 [pf; Gg] [fr] s1).
+      { split; auto. constructor; auto. constructor; auto. intros k u Hk; exact Hk. }
+      assert (HG1 : genv_ok P [pf; Gg]).
+      { split; [|split; auto]; simpl.
+        - subst pf. rewrite params_frame_not_reserved; auto. rewrite (HGg n_err TBool eq_refl). reflexivity.
+        - subst pf. rewrite params_frame_not_reserved; auto. rewrite (HGg n_errmsg TStr eq_refl). reflexivity. }
+      assert (Hgs : gsub Gb).
+      { apply wt_stmts_grows in EGb; [|discriminate]. apply grows_inv in EGb as (sf & -> & _). exact I. }
+      wbind ltac:(eapply (Hblock P (Some TNone) false [fr] (h_body h) [pf; Gg] Gb S1); eauto).
+      intros r s2 (S2 & G2 & _ & Hh2 & _ & He2 & _). apply wp_ret. eapply state_ok_of; eauto. }
+  destruct ((let* fr := bind_payload (h_params h) args [] in
+             let* _ := exec_block fuel P [fr] (h_body h) in Sem.ret tt) s0) as [[u|er] s1]; simpl in *; auto.
 Qed.
 
 (* Preservation, Stage 1: under a store typing S that types the heap and the
    environment, an expression of static type t evaluates (if it returns) to a
    cell of dynamic type t in an extended store typing that still types heap
    and environment; no evaluation ends in an internal error or a host crash. *)
-Theorem preservation_stage1 : forall n P e x G t S s,
-  ety (p_funcs P) G x = Some t -> s1_expr x = true -> genv_ok G -> inv S G e s ->
+Theorem preservation_generic : forall n P e x G t S s,
+  ety (p_funcs P) G x = Some t -> s1_expr strict x = true -> genv_ok P G -> inv S G e s ->
   match eval_expr n P e x s with
   | (Ok l, s') => exists S', ext S S' /\ inv S' G e s' /\ sfind S' l = Some t
   | (Er er, _) => safe_err er
@@ -2169,8 +3294,8 @@ Theorem any_cells_concrete S h l :
                 hget h i = Some v /\ cell_ok S v u.
 Proof.
   intros Hh Hl. destruct (ho_cells _ _ Hh _ _ Hl) as (v & Hg & Hc). inversion Hc; subst.
-  destruct (ho_cells _ _ Hh _ _ H0) as (v' & Hg' & Hc').
-  exists u, i, v'. repeat split; auto. intros ->; discriminate.
+  match goal with Hi : sfind S i = Some u |- _ => destruct (ho_cells _ _ Hh _ _ Hi) as (v' & Hg' & Hc') end.
+  exists u, i, v'. repeat split; auto.
 Qed.
 
 Theorem any_cells_only_at_any S h l u i :
@@ -2178,6 +3303,158 @@ Theorem any_cells_only_at_any S h l u i :
 Proof.
   intros Hh Hg t Hl. destruct (ho_cells _ _ Hh _ _ Hl) as (v & Hg' & Hc).
   rewrite Hg in Hg'; inversion Hg'; subst. inversion Hc; auto.
+Qed.
+
+End Sound.
+
+(* ---------- the two instances ---------- *)
+Definition goes_wrong (o : outcome) : Prop :=
+  match o with OErr (EInternal _) | OErr (EHostCrash _) => True | _ => False end.
+
+(* going wrong otherwise than by the stack overflow on a cyclic value *)
+Definition goes_wrong_badly (o : outcome) : Prop :=
+  match o with
+  | OErr (EInternal _) => True
+  | OErr (EHostCrash w) => ~ overflow_reason w
+  | _ => False
+  end.
+
+(* the global frame of a checked program extends the built-in globals *)
+Lemma wt_top_extends P g : wt_top P = Some g ->
+  forall n t, sget n global_frame0 = Some t -> sget n g = Some t.
+Proof.
+  unfold wt_top. destruct (wt_stmts (p_funcs P) None false [global_frame0] (p_stmts P)) as [G'|] eqn:E; [|discriminate].
+  intros Hg. apply wt_stmts_grows in E; [|discriminate].
+  apply grows_inv in E as (sf & -> & Hf). inversion Hg; subst. apply fgrows_sub. exact Hf.
+Qed.
+
+(* a start state of program P: well typed w.r.t. the global frame the checker computes for P *)
+Definition start_ok (strict : bool) (P : program) (s : state) : Prop :=
+  exists g, wt_top P = Some g /\ state_ok strict g s.
+
+Lemma wt_program_inv P : wt_program P = true ->
+  exists g, wt_top P = Some g /\ forallb (wt_func (p_funcs P) g) (p_funcs P) = true /\
+            forallb (wt_handler (p_funcs P) g) (p_handlers P) = true.
+Proof.
+  unfold wt_program. destruct (wt_top P) as [g|]; [|discriminate].
+  intros H. apply andb_true_iff in H as [H1 H2]. eauto.
+Qed.
+
+Lemma init_state_start_ok strict P stop input ff ay :
+  wt_program P = true -> start_ok strict P (init_state stop input ff ay).
+Proof.
+  intros H. destruct (wt_program_inv P H) as (g & Hg & _). exists g; split; auto.
+  apply init_state_ok. eapply wt_top_extends; eauto.
+Qed.
+
+(* the fragment predicate of a whole program (s1_program = frag true, s2_program = frag false) *)
+Definition frag (strict : bool) (P : program) : bool :=
+  s1_stmts strict (p_stmts P) && forallb (s1_func strict) (p_funcs P)
+  && forallb (fun h => s1_stmts strict (h_body h)) (p_handlers P).
+
+Definition safe_outcome (strict : bool) (o : outcome) : Prop :=
+  match o with OErr e => safe_err strict e | _ => True end.
+
+(* a run from a well-typed start state ends safely and, when it ends normally, leaves a well-typed state *)
+Lemma run_inst strict P :
+  wt_program P = true -> frag strict P = true ->
+  forall fuel s0, start_ok strict P s0 ->
+    safe_outcome strict (fst (run_program fuel P s0)) /\
+    (forall e, fst (run_program fuel P s0) <> OErr e) -> start_ok strict P (snd (run_program fuel P s0)).
+Proof.
+  intros Hwt Hfr fuel s0 (g & Hg & Hs0).
+  destruct (wt_program_inv P Hwt) as (g' & Hg' & Hf & _). rewrite Hg in Hg'. inversion Hg'; subst g'.
+  unfold frag in Hfr. apply andb_true_iff in Hfr as [Hfr Hfr3]. apply andb_true_iff in Hfr as [Hfr1 Hfr2].
+  assert (HP : prog_ok strict g P) by (repeat split; auto).
+  pose proof (run_generic strict g (wt_top_extends P g Hg) P HP fuel s0 Hs0) as H.
+  destruct (run_program fuel P s0) as [[| |er] s1]; simpl in *.
+  - intros _. exists g; auto.
+  - intros _. exists g; auto.
+  - intros [_ Hn]. exfalso. eapply Hn; eauto.
+Qed.
+
+Lemma run_inst_safe strict P :
+  wt_program P = true -> frag strict P = true ->
+  forall fuel s0, start_ok strict P s0 -> safe_outcome strict (fst (run_program fuel P s0)).
+Proof.
+  intros Hwt Hfr fuel s0 (g & Hg & Hs0).
+  destruct (wt_program_inv P Hwt) as (g' & Hg' & Hf & _). rewrite Hg in Hg'. inversion Hg'; subst g'.
+  unfold frag in Hfr. apply andb_true_iff in Hfr as [Hfr Hfr3]. apply andb_true_iff in Hfr as [Hfr1 Hfr2].
+  assert (HP : prog_ok strict g P) by (repeat split; auto).
+  pose proof (run_generic strict g (wt_top_extends P g Hg) P HP fuel s0 Hs0) as H.
+  destruct (run_program fuel P s0) as [[| |er] s1]; simpl in *; auto.
+Qed.
+
+(* an event delivered to a handler of the program, in a well-typed state, with at least as many
+   payload values as the handler declares parameters *)
+Lemma event_inst strict P :
+  wt_program P = true -> frag strict P = true ->
+  forall fuel name args s0 h, start_ok strict P s0 ->
+    find_handler name (p_handlers P) = Some h -> (List.length (h_params h) <= List.length args)%nat ->
+    safe_outcome strict (fst (handle_event fuel P name args s0)) /\
+    ((forall e, fst (handle_event fuel P name args s0) <> OErr e) ->
+     start_ok strict P (snd (handle_event fuel P name args s0))).
+Proof.
+  intros Hwt Hfr fuel name args s0 h (g & Hg & Hs0) Hfind Hlen.
+  destruct (wt_program_inv P Hwt) as (g' & Hg' & Hf & Hh). rewrite Hg in Hg'. inversion Hg'; subst g'.
+  unfold frag in Hfr. apply andb_true_iff in Hfr as [Hfr Hfr3]. apply andb_true_iff in Hfr as [Hfr1 Hfr2].
+  assert (HP : prog_ok strict g P) by (repeat split; auto).
+  pose proof (handle_event_generic strict g (wt_top_extends P g Hg) P HP Hh Hfr3 fuel name args s0 h Hs0 Hfind Hlen) as H.
+  destruct (handle_event fuel P name args s0) as [[| |er] s1]; simpl in *.
+  - split; auto. intros _. exists g; auto.
+  - split; auto. intros _. exists g; auto.
+  - split; auto. intros Hn. exfalso. eapply Hn; eauto.
+Qed.
+
+Lemma safe_true_not_wrong o : safe_outcome true o -> ~ goes_wrong o.
+Proof. destruct o as [| |er]; simpl; auto. destruct er; simpl; auto. intros [H _]; discriminate. Qed.
+
+Lemma safe_false_not_badly o : safe_outcome false o -> ~ goes_wrong_badly o.
+Proof. destruct o as [| |er]; simpl; auto. destruct er; simpl; auto. intros [_ H]; auto. Qed.
+
+(* Stage 1 (strict fragment: `any` never inside a composite type): no run goes wrong *)
+Theorem soundness_stage1 P :
+  wt_program P = true -> s1_program P = true ->
+  forall fuel s0, start_ok true P s0 -> ~ goes_wrong (fst (run_program fuel P s0)).
+Proof. intros Hwt Hs1 fuel s0 Hs0. apply safe_true_not_wrong. apply run_inst_safe; auto. Qed.
+
+(* Stage 2 (every value type): the only way to go wrong is the stack overflow on a cyclic value *)
+Theorem soundness_stage2 P :
+  wt_program P = true -> s2_program P = true ->
+  forall fuel s0, start_ok false P s0 -> ~ goes_wrong_badly (fst (run_program fuel P s0)).
+Proof. intros Hwt Hs1 fuel s0 Hs0. apply safe_false_not_badly. apply run_inst_safe; auto. Qed.
+
+(* the state a normally ended run leaves is a start state again (for the event handlers) *)
+Theorem run_leaves_start_ok strict P :
+  wt_program P = true -> frag strict P = true ->
+  forall fuel s0, start_ok strict P s0 ->
+    (forall e, fst (run_program fuel P s0) <> OErr e) -> start_ok strict P (snd (run_program fuel P s0)).
+Proof. intros Hwt Hfr fuel s0 Hs0 Hn. apply run_inst; auto. split; [apply run_inst_safe; auto|exact Hn]. Qed.
+
+Theorem handlers_stage1 P :
+  wt_program P = true -> s1_program P = true ->
+  forall fuel name args s0 h, start_ok true P s0 ->
+    find_handler name (p_handlers P) = Some h -> (List.length (h_params h) <= List.length args)%nat ->
+    ~ goes_wrong (fst (handle_event fuel P name args s0)) /\
+    ((forall e, fst (handle_event fuel P name args s0) <> OErr e) ->
+     start_ok true P (snd (handle_event fuel P name args s0))).
+Proof.
+  intros Hwt Hs1 fuel name args s0 h Hs0 Hf Hl.
+  destruct (event_inst true P Hwt Hs1 fuel name args s0 h Hs0 Hf Hl) as [H1 H2].
+  split; auto using safe_true_not_wrong.
+Qed.
+
+Theorem handlers_stage2 P :
+  wt_program P = true -> s2_program P = true ->
+  forall fuel name args s0 h, start_ok false P s0 ->
+    find_handler name (p_handlers P) = Some h -> (List.length (h_params h) <= List.length args)%nat ->
+    ~ goes_wrong_badly (fst (handle_event fuel P name args s0)) /\
+    ((forall e, fst (handle_event fuel P name args s0) <> OErr e) ->
+     start_ok false P (snd (handle_event fuel P name args s0))).
+Proof.
+  intros Hwt Hs1 fuel name args s0 h Hs0 Hf Hl.
+  destruct (event_inst false P Hwt Hs1 fuel name args s0 h Hs0 Hf Hl) as [H1 H2].
+  split; auto using safe_false_not_badly.
 Qed.
 
 (* ---------- typeof ---------- *)
